@@ -16,13 +16,17 @@ Notation insts := (Core.insts val upd).
 Notation client := (Core.client val upd app).
 Notation resps := (Core.resps val upd).
 Notation quiescent := (Core.quiescent val upd).
+Notation no_underflow := (Core.no_underflow val upd app).
 
 Notation cstep := (Conv.step val upd app norm).
 Notation step := (Core.step val upd app norm).
 Notation acts_of := (Core.acts_of val upd app norm).
+Notation conn_task := (Core.conn_task val upd app norm).
 Notation next := (Core.next val upd).
 Notation cst := (Conv.st val upd).
 Notation st := (Core.st val upd).
+Notation tk := (Core.tk val upd).
+Notation out := (Core.out val upd).
 Notation action := (Conv.action upd).
 Notation gone := (Conv.gone val upd).
 Notation subscribed := (Conv.subscribed val upd).
@@ -31,6 +35,7 @@ Notation closed := (Conv.closed val upd).
 Notation ccq := (Conv.cq val upd).
 Notation cqe := (Conv.qe val upd).
 Notation CInv := (Conv.Inv val upd app).
+Notation cfold := (fold_left cstep).
 
 (* ---------- classification of Conv actions ---------- *)
 Definition d_adisp (j : nat) (a : action) : bool := match a with Conv.Dispose _ s _ => Nat.eqb s j | _ => false end.
@@ -38,22 +43,19 @@ Definition d_asubs (j : nat) (a : action) : bool := match a with Conv.Subscribe 
 Definition d_arunc (j : nat) (a : action) : bool := match a with Conv.RunC _ s => Nat.eqb s j | _ => false end.
 Definition d_arune (a : action) : bool := match a with Conv.RunE _ => true | _ => false end.
 Definition d_anop (i : nat) (a : action) : bool := match a with Conv.SvcNop _ n => Nat.eqb n i | _ => false end.
+Definition d_areacc (a : action) : bool := match a with Conv.SvcReacc _ => true | _ => false end.
 
 Ltac d_conv_destruct σ a :=
-  destruct a as [u| | |n|s0|s0 cl| |s0|s0 c0|s0 c0|s0]; cbn [Conv.step];
-  [ | | destruct (Conv.answered val upd σ) eqn:Eans | | destruct (subscribed (csubs σ s0)) eqn:Esub
+  destruct a as [u| | |n| |s0|s0 cl| |s0|s0 c0|s0 c0|s0]; cbn [Conv.step];
+  [ | | destruct (Conv.answered val upd σ) eqn:Eans | | | destruct (subscribed (csubs σ s0)) eqn:Esub
   | destruct (gone (csubs σ s0)) eqn:Egone; [destruct cl|]
-  | destruct (cqe σ) as [|[u| |v|s1|s1|n1] q] eqn:Eqe;
-    [ | destruct (Conv.rs_loaded val upd σ) eqn:Erl; [destruct (norm u (Conv.rs_val val upd σ)) eqn:Enorm|] | | | | | ]
-  | destruct (ccq (csubs σ s0)) as [|[|e] q] eqn:Ecq; [ | destruct (gone (csubs σ s0)) eqn:Egone | ]
+  | destruct (cqe σ) as [|[u| |v|s1|s1| |n1] q] eqn:Eqe;
+    [ | destruct (Conv.rs_loaded val upd σ) eqn:Erl; [destruct (norm u (Conv.rs_val val upd σ)) eqn:Enorm|] | | | | | | ]
+  | destruct (ccq (csubs σ s0)) as [|[|e|] q] eqn:Ecq; [ | destruct (gone (csubs σ s0)) eqn:Egone | | ]
   | destruct (loaded (csubs σ s0) && negb (Conv.sent val upd (csubs σ s0))) eqn:Econd
   | destruct (loaded (csubs σ s0) && Conv.sent val upd (csubs σ s0) && Conv.flag val upd (csubs σ s0)) eqn:Econd
   | destruct (loaded (csubs σ s0) && Conv.sent val upd (csubs σ s0)) eqn:Econd ].
 
-Ltac d_eqb_all :=
-  repeat match goal with
-  | |- context [Nat.eqb ?a ?b] => destruct (Nat.eqb_spec a b); subst
-  end.
 Ltac d_if_all :=
   repeat match goal with
   | |- context [Nat.eqb ?a ?b] => let He := fresh "Heq" in let Hn := fresh "Hne" in destruct (Nat.eqb_spec a b) as [He|Hn]; [first [subst a|subst b|idtac]|]
@@ -79,6 +81,17 @@ Proof.
        cbn [Conv.gone Conv.subscribed] in *; rewrite ?orb_false_r, ?orb_true_r; try (split; congruence).
 Qed.
 
+Lemma d_eff_closed : forall σ a j, (forall s, a <> Conv.Dispose upd s true) ->
+  closed (csubs (cstep σ a) j) = closed (csubs σ j).
+Proof.
+  intros σ a j Hn. d_conv_destruct σ a; cbn [Conv.subs]; try reflexivity.
+  all: try (exfalso; eapply Hn; reflexivity).
+  all: d_drain.
+  all: unfold Conv.set_sub, Conv.push_all, Conv.push_c, Conv.dispose, Conv.with_sub in *; d_if_all;
+       cbn [Conv.closed] in *; rewrite ?orb_false_r; try congruence.
+  all: try (destruct cl; [exfalso; eapply Hn; reflexivity|rewrite orb_false_r; reflexivity]).
+Qed.
+
 Lemma d_eff_loaded : forall σ a j, d_arunc j a = false ->
   loaded (csubs (cstep σ a) j) = true -> loaded (csubs σ j) = true.
 Proof.
@@ -101,19 +114,20 @@ Lemma d_eff_runc : forall σ j j',
   ccq (csubs (cstep σ (Conv.RunC upd j)) j') = if Nat.eqb j' j then tl (ccq (csubs σ j')) else ccq (csubs σ j').
 Proof.
   intros σ j j'. cbn [Conv.step].
-  destruct (ccq (csubs σ j)) as [|[|e] q] eqn:Ecq; cbn [Conv.subs].
+  destruct (ccq (csubs σ j)) as [|[|e|] q] eqn:Ecq; cbn [Conv.subs].
   - destruct (Nat.eqb_spec j' j); subst; [rewrite Ecq|]; reflexivity.
   - unfold Conv.set_sub. destruct (gone (csubs σ j)); cbn [Conv.subs]; destruct (Nat.eqb_spec j' j); subst; cbn [Conv.cq]; rewrite ?Ecq; reflexivity.
   - unfold Conv.set_sub; cbn [Conv.subs]. destruct (Nat.eqb_spec j' j); subst; [|reflexivity]. rewrite Ecq.
     d_if_all; reflexivity.
+  - unfold Conv.set_sub; cbn [Conv.subs]. destruct (Nat.eqb_spec j' j); subst; [|reflexivity]. rewrite Ecq. reflexivity.
 Qed.
 
 Lemma d_eff_rune_cq : forall σ j,
   ccq (csubs (cstep σ (Conv.RunE upd)) j) = ccq (csubs σ j) \/
   exists x, ccq (csubs (cstep σ (Conv.RunE upd)) j) = ccq (csubs σ j) ++ [x].
 Proof.
-  intros σ j. set (a := Conv.RunE upd). unfold a. cbn [Conv.step].
-  destruct (cqe σ) as [|[u| |v|s1|s1|n1] q] eqn:Eqe; cbn [Conv.subs]; try (left; reflexivity).
+  intros σ j. cbn [Conv.step].
+  destruct (cqe σ) as [|[u| |v|s1|s1| |n1] q] eqn:Eqe; cbn [Conv.subs]; try (left; reflexivity).
   all: repeat (progress (unfold Conv.set_sub, Conv.push_all, Conv.push_c; d_if_all; cbn [Conv.subs Conv.cq])); try (left; reflexivity);
        try (right; eexists; reflexivity).
 Qed.
@@ -129,10 +143,10 @@ Lemma d_eff_rune_cq_unsub : forall σ j, CInv σ -> subscribed (csubs σ j) = fa
   ccq (csubs (cstep σ (Conv.RunE upd)) j) = ccq (csubs σ j).
 Proof.
   intros σ j H Hs. destruct (d_mem_false σ j H Hs) as [Hm Ha]. cbn [Conv.step].
-  destruct (cqe σ) as [|[u| |v|s1|s1|n1] q] eqn:Eqe; cbn [Conv.subs]; try reflexivity.
+  destruct (cqe σ) as [|[u| |v|s1|s1| |n1] q] eqn:Eqe; cbn [Conv.subs]; try reflexivity.
   all: repeat (progress (unfold Conv.set_sub, Conv.push_all, Conv.push_c; try rewrite Hm; cbn [andb]; d_if_all; cbn [Conv.subs Conv.cq])); try reflexivity.
-  - rewrite Hm in *. discriminate.
-  - rewrite Conv.cnt_cons in Ha. cbn [Conv.is_add] in Ha. rewrite Nat.eqb_refl in Ha. cbn in Ha. lia.
+  all: try (rewrite Hm in *; discriminate).
+  all: try (rewrite Conv.cnt_cons in Ha; cbn [Conv.is_add] in Ha; rewrite Nat.eqb_refl in Ha; cbn in Ha; lia).
 Qed.
 
 Lemma d_in_refused : forall i f l, ~ In (Conv.INop val upd i) (Conv.refused val upd f l).
@@ -154,7 +168,7 @@ Proof.
   intros σ a i. d_conv_destruct σ a; cbn [Conv.qe d_anop]; try (intros; left; assumption).
   all: intros H; d_in_crush H; try discriminate; try (left; assumption); try (left; right; assumption);
        try (injection H as ->; right; apply Nat.eqb_refl); try (exfalso; eapply d_in_refused; eassumption).
-  rewrite Eqe in H. destruct H.
+  all: try (rewrite Eqe in H; destruct H).
 Qed.
 
 Lemma d_eff_qe_fwd : forall σ a i, d_arune a = false -> In (Conv.INop val upd i) (cqe σ) ->
@@ -169,7 +183,7 @@ Lemma d_eff_rune_qe_fwd : forall σ i, In (Conv.INop val upd i) (tl (cqe σ)) ->
   In (Conv.INop val upd i) (cqe (cstep σ (Conv.RunE upd))).
 Proof.
   intros σ i. cbn [Conv.step].
-  destruct (cqe σ) as [|[u| |v|s1|s1|n1] q] eqn:Eqe; cbn [Conv.qe tl]; [intros []|..].
+  destruct (cqe σ) as [|[u| |v|s1|s1| |n1] q] eqn:Eqe; cbn [Conv.qe tl]; [intros []|..].
   all: d_if_all; cbn [Conv.qe]; intros H; try assumption; try (apply in_or_app; left; assumption).
 Qed.
 
@@ -182,15 +196,12 @@ Lemma d_eff_rune_rssubs : forall σ, Conv.rs_subs val upd σ = [] -> Core.is_add
   Conv.rs_subs val upd (cstep σ (Conv.RunE upd)) = [].
 Proof.
   intros σ H. unfold Core.is_add_head. cbn [Conv.step].
-  destruct (cqe σ) as [|[u| |v|s1|s1|n1] q] eqn:Eqe; cbn [Conv.rs_subs]; try (intros; assumption); try discriminate.
+  destruct (cqe σ) as [|[u| |v|s1|s1| |n1] q] eqn:Eqe; cbn [Conv.rs_subs]; try (intros; assumption); try discriminate.
   - d_if_all; cbn [Conv.rs_subs]; intros; assumption.
   - rewrite H. reflexivity.
 Qed.
 
-
 (* ---------- effect of a list of Conv actions ---------- *)
-Notation cfold := (fold_left cstep).
-
 Lemma d_fold_gone : forall acts σ j, gone (csubs (cfold acts σ) j) = gone (csubs σ j) || existsb (d_adisp j) acts.
 Proof.
   induction acts as [|a acts IH]; intros σ j; cbn [fold_left existsb]; [rewrite orb_false_r; reflexivity|].
@@ -260,13 +271,430 @@ Lemma d_existsb_map_false : forall (A B : Type) (f : B -> bool) (g : A -> B) l,
   (forall x, f (g x) = false) -> existsb f (map g l) = false.
 Proof. intros A B f g l H. induction l as [|x l IH]; cbn; [reflexivity|]. rewrite H, IH. reflexivity. Qed.
 
-Lemma d_respond_acts_cases : forall i x ids,
-  Core.respond_acts val upd i x ids = [] \/ exists n, Core.respond_acts val upd i x ids = [Conv.Respond upd i n].
+(* ---------- connection tasks: what a handler may do ---------- *)
+Notation act := (Core.act val upd app norm).
+Notation emit := (Core.emit val upd).
+Notation setx := (Core.setx val upd).
+Notation sety := (Core.sety val upd).
+Notation ts := (Core.ts val upd).
+Notation ta := (Core.ta val upd).
+Notation tx := (Core.tx val upd).
+Notation ty := (Core.ty val upd).
+Notation tout := (Core.to val upd).
+Notation cur := Core.cur.
+Notation cqueue := Core.cqueue.
+Notation direct := Core.direct.
+Notation disc := Core.disc.
+Notation tokset := Core.tokset.
+Notation tok := Core.tok.
+Notation owner := Core.owner.
+Notation acb := Core.acb.
+Notation rcb := Core.rcb.
+Notation acc := Core.acc.
+Notation ans := Core.ans.
+Notation inflight := Core.inflight.
+Notation reflag := Core.reflag.
+Notation rq := Core.rq.
+Notation lost := Core.lost.
+Notation ids_of := Core.ids_of.
+Notation mqsub := (Core.mqsub val upd).
+Notation getreq := (Core.getreq val upd).
+Notation INop := (Conv.INop val upd).
+Notation for_conn := (Core.for_conn val upd).
+Notation has_data := (Core.has_data val upd).
+Notation replay_o := (Core.replay_o val upd app).
+Notation proc_o := (Core.proc_o val upd app).
+Notation drained := (Core.drained val upd app).
+
+Ltac d_tkred := cbn [Core.ts Core.ta Core.tx Core.ty Core.to Core.act Core.emit Core.setx Core.sety].
+Ltac d_tkredH H := cbn [Core.ts Core.ta Core.tx Core.ty Core.to Core.act Core.emit Core.setx Core.sety] in H.
+
+(* outputs of a handler of connection c: frames for c, requests on its behalf *)
+Definition d_plain (c : nat) (x : out) : bool :=
+  match x with
+  | Core.OResp _ _ c' _ _ | Core.OErr _ _ c' _ _ | Core.OAck _ _ c' _ _ | Core.OEvent _ _ c' _ | Core.OCustom _ _ c'
+  | Core.OUnsubEv _ _ c' | Core.OAccessReq _ _ c' _ _ => Nat.eqb c' c
+  | Core.OMqSub _ _ => true
+  | _ => false
+  end.
+Definition d_isdata (x : out) : bool := match x with Core.OResp _ _ _ _ (Some _) => true | _ => false end.
+(* the same, and no response that carries data *)
+Definition d_nd (c : nat) (x : out) : bool := d_plain c x && negb (d_isdata x).
+
+Lemma d_nd_plain : forall c x, d_nd c x = true -> d_plain c x = true.
+Proof. intros c x H. apply andb_prop in H. apply H. Qed.
+
+Lemma d_forallb_impl : forall (A : Type) (P Q : A -> bool) l, (forall x, P x = true -> Q x = true) ->
+  forallb P l = true -> forallb Q l = true.
 Proof.
-  intros i x ids. unfold Core.respond_acts. destruct ids; [left; reflexivity|].
-  destruct (Conv.sent val upd x); [left; reflexivity|right; eexists; reflexivity].
+  intros A P Q l H. induction l as [|x l IH]; cbn [forallb]; [auto|]. intros E. apply andb_prop in E as [E1 E2].
+  rewrite (H _ E1), (IH E2). reflexivity.
+Qed.
+Lemma d_existsb_of_forallb : forall (A : Type) (P Q : A -> bool) l, (forall x, P x = true -> Q x = false) ->
+  forallb P l = true -> existsb Q l = false.
+Proof.
+  intros A P Q l H. induction l as [|x l IH]; cbn [forallb existsb]; [auto|]. intros E. apply andb_prop in E as [E1 E2].
+  rewrite (H _ E1), (IH E2). reflexivity.
 Qed.
 
+Lemma d_plain_proc : forall c p e, forallb (d_nd c) (snd (proc_o c p e)) = true.
+Proof.
+  intros c [ver v] e. unfold Core.proc_o. destruct (Nat.eqb ver (Conv.e_ver upd e)); [|reflexivity].
+  destruct (Conv.e_upd upd e); cbn; unfold d_nd; cbn; rewrite Nat.eqb_refl; reflexivity.
+Qed.
+Lemma d_plain_replay : forall c l p, forallb (d_nd c) (replay_o c p l) = true.
+Proof.
+  intros c l. induction l as [|e l IH]; intros p; cbn [Core.replay_o]; [reflexivity|].
+  pose proof (d_plain_proc c p e) as H. destruct (proc_o c p e) as [p' oo]. cbn [snd] in H.
+  rewrite forallb_app, H, IH. reflexivity.
+Qed.
+Lemma d_plain_drained : forall c x, forallb (d_nd c) (drained c x) = true.
+Proof. intros c x. apply d_plain_replay. Qed.
+Lemma d_plain_map_resp : forall c r, forallb (d_nd c) (map (fun id' => Core.OResp val upd c id' None) r) = true.
+Proof. intros c r. induction r as [|a r IH]; [reflexivity|]. cbn [map forallb]. rewrite IH. unfold d_nd. cbn. rewrite Nat.eqb_refl. reflexivity. Qed.
+
+Section d_Task.
+Variables (c i : nat).
+Notation gone_ := (Core.gone_ val upd i).
+Notation loaded_ := (Core.loaded_ val upd i).
+Notation sent_ := (Core.sent_ val upd i).
+Notation flag_ := (Core.flag_ val upd i).
+Notation me := (Core.me val upd i).
+Notation dispose_t := (Core.dispose_t val upd app norm i).
+Notation remove_direct := (Core.remove_direct val upd app norm i).
+Notation unsubscribe_direct := (Core.unsubscribe_direct val upd app norm c i).
+Notation load_access := (Core.load_access val upd c i).
+Notation handle_reaccess := (Core.handle_reaccess val upd app norm c i).
+Notation reaccess := (Core.reaccess val upd app norm c i).
+Notation respond := (Core.respond val upd app norm c i).
+Notation on_ready := (Core.on_ready val upd app norm c i).
+Notation unqueue_reaccess := (Core.unqueue_reaccess val upd app norm c i).
+Notation run_cb := (Core.run_cb val upd app norm c i).
+
+(* the Conv actions of a handler working on instance i *)
+Definition d_hact (dz : bool) (a : action) : bool :=
+  match a with
+  | Conv.Dispose _ s cl => dz && Nat.eqb s i && negb cl
+  | Conv.Respond _ s _ | Conv.Unqueue _ s _ | Conv.StartQueue _ s => Nat.eqb s i
+  | _ => false
+  end.
+
+Record d_rel (dz : bool) (P : out -> bool) (k k' : tk) : Prop := {
+  d_r_ta : exists la, ta k' = ta k ++ la /\ ts k' = cfold la (ts k) /\ forallb (d_hact dz) la = true;
+  d_r_to : exists lo, tout k' = tout k ++ lo /\ forallb P lo = true;
+  d_r_q : cqueue (tx k') = cqueue (tx k);
+  d_r_disc : disc (tx k') = disc (tx k);
+  d_r_tokset : tokset (tx k') = tokset (tx k);
+  d_r_tok : tok (tx k') = tok (tx k);
+  d_r_owner : owner (ty k') = owner (ty k);
+  d_r_ans : ans (ty k') = ans (ty k)
+}.
+
+Lemma d_rel_refl : forall dz P k, d_rel dz P k k.
+Proof.
+  intros dz P k. constructor; try reflexivity.
+  - exists []. rewrite app_nil_r. auto.
+  - exists []. rewrite app_nil_r. auto.
+Qed.
+Lemma d_rel_trans : forall dz P k1 k2 k3, d_rel dz P k1 k2 -> d_rel dz P k2 k3 -> d_rel dz P k1 k3.
+Proof.
+  intros dz P k1 k2 k3 [(la & A1 & A2 & A3) (lo & B1 & B2) C D E F G H] [(la' & A1' & A2' & A3') (lo' & B1' & B2') C' D' E' F' G' H'].
+  constructor; try congruence.
+  - exists (la ++ la'). rewrite A1', A1, A2', A2, fold_left_app, forallb_app, A3, A3', app_assoc. auto.
+  - exists (lo ++ lo'). rewrite B1', B1, forallb_app, B2, B2', app_assoc. auto.
+Qed.
+Lemma d_hact_weak : forall dz a, d_hact false a = true -> d_hact dz a = true.
+Proof. intros dz [] H; cbn in *; try discriminate; assumption. Qed.
+Lemma d_rel_weak : forall dz (P Q : out -> bool) k k', (forall x, P x = true -> Q x = true) -> d_rel false P k k' -> d_rel dz Q k k'.
+Proof.
+  intros dz P Q k k' HPQ [(la & A1 & A2 & A3) (lo & B1 & B2) C D E F G H]. constructor; try assumption.
+  - exists la. repeat split; try assumption. eapply d_forallb_impl; [|exact A3]. apply d_hact_weak.
+  - exists lo. split; [assumption|]. eapply d_forallb_impl; [|exact B2]. exact HPQ.
+Qed.
+Lemma d_rel_weakP : forall dz (P Q : out -> bool) k k', (forall x, P x = true -> Q x = true) -> d_rel dz P k k' -> d_rel dz Q k k'.
+Proof.
+  intros dz P Q k k' HPQ [A (lo & B1 & B2) C D E F G H]. constructor; try assumption.
+  exists lo. split; [assumption|]. eapply d_forallb_impl; [|exact B2]. exact HPQ.
+Qed.
+Lemma d_rel_act : forall dz P k a, d_hact dz a = true -> d_rel dz P k (act k a).
+Proof.
+  intros dz P k a H. constructor; try reflexivity.
+  - exists [a]. d_tkred. cbn [fold_left forallb]. rewrite H. auto.
+  - exists []. d_tkred. rewrite app_nil_r. auto.
+Qed.
+Lemma d_rel_emit : forall dz P k o, forallb P o = true -> d_rel dz P k (emit k o).
+Proof.
+  intros dz P k o H. constructor; try reflexivity.
+  - exists []. d_tkred. rewrite app_nil_r. auto.
+  - exists o. auto.
+Qed.
+Lemma d_rel_setx : forall dz P k x, cqueue x = cqueue (tx k) -> disc x = disc (tx k) -> tokset x = tokset (tx k) ->
+  tok x = tok (tx k) -> d_rel dz P k (setx k x).
+Proof.
+  intros dz P k x H1 H2 H3 H4. constructor; try assumption; try reflexivity.
+  - exists []. d_tkred. rewrite app_nil_r. auto.
+  - exists []. d_tkred. rewrite app_nil_r. auto.
+Qed.
+Lemma d_rel_sety : forall dz P k y, owner y = owner (ty k) -> ans y = ans (ty k) -> d_rel dz P k (sety k y).
+Proof.
+  intros dz P k y H1 H2. constructor; try assumption; try reflexivity.
+  - exists []. d_tkred. rewrite app_nil_r. auto.
+  - exists []. d_tkred. rewrite app_nil_r. auto.
+Qed.
+
+Ltac d_side := cbn; unfold d_nd; cbn; rewrite ?Nat.eqb_refl; reflexivity.
+Ltac d_peel tac :=
+  lazymatch goal with
+  | |- d_rel _ _ ?k ?k => apply d_rel_refl
+  | |- d_rel ?dz ?P ?k (Core.setx _ _ ?K _) => apply (d_rel_trans dz P k K); [d_peel tac | apply d_rel_setx; reflexivity]
+  | |- d_rel ?dz ?P ?k (Core.sety _ _ ?K _) => apply (d_rel_trans dz P k K); [d_peel tac | apply d_rel_sety; reflexivity]
+  | |- d_rel ?dz ?P ?k (Core.emit _ _ ?K _) =>
+      apply (d_rel_trans dz P k K); [d_peel tac | apply d_rel_emit; first [apply d_plain_drained | apply d_plain_map_resp | d_side
+                                                                       | eapply d_forallb_impl; [apply d_nd_plain|apply d_plain_drained]]]
+  | |- d_rel ?dz ?P ?k (Core.act _ _ _ _ ?K _) => apply (d_rel_trans dz P k K); [d_peel tac | apply d_rel_act; d_side]
+  | |- d_rel _ _ _ (if ?b then _ else _) => destruct b eqn:?; d_peel tac
+  | |- _ => tac
+  end.
+
+Lemma d_dispose_rel : forall k, d_rel true (d_nd c) k (dispose_t k).
+Proof. intros k. unfold Core.dispose_t. cbv zeta. d_peel idtac. Qed.
+
+Ltac d_h1 :=
+  lazymatch goal with
+  | |- d_rel ?dz ?P ?k (Core.dispose_t _ _ _ _ _ ?K) => apply (d_rel_trans dz P k K); [d_peel ltac:(idtac; d_h1) | apply d_dispose_rel]
+  end.
+Lemma d_remove_rel : forall k n, d_rel true (d_nd c) k (remove_direct k n).
+Proof. intros k n. unfold Core.remove_direct. cbv zeta. d_peel ltac:(idtac; d_h1). Qed.
+Ltac d_h2 :=
+  lazymatch goal with
+  | |- d_rel ?dz ?P ?k (Core.remove_direct _ _ _ _ _ ?K _) => apply (d_rel_trans dz P k K); [d_peel ltac:(idtac; d_h2) | apply d_remove_rel]
+  | |- _ => d_h1
+  end.
+Lemma d_unsubd_rel : forall k, d_rel true (d_nd c) k (unsubscribe_direct k).
+Proof. intros k. unfold Core.unsubscribe_direct. d_peel ltac:(idtac; d_h2). Qed.
+Lemma d_load_rel : forall k b, d_rel false (d_nd c) k (load_access k b).
+Proof. intros k b. unfold Core.load_access. cbv zeta. d_peel idtac. Qed.
+Ltac d_h3 :=
+  lazymatch goal with
+  | |- d_rel ?dz ?P ?k (Core.load_access _ _ _ _ ?K _) => apply (d_rel_trans dz P k K); [d_peel ltac:(idtac; d_h3) | apply d_load_rel]
+  end.
+Lemma d_hre_rel : forall k, d_rel false (d_nd c) k (handle_reaccess k).
+Proof. intros k. unfold Core.handle_reaccess. cbv zeta. d_peel ltac:(idtac; d_h3). Qed.
+Ltac d_h4 :=
+  lazymatch goal with
+  | |- d_rel ?dz ?P ?k (Core.handle_reaccess _ _ _ _ _ _ ?K) => apply (d_rel_trans dz P k K); [d_peel ltac:(idtac; d_h4) | apply d_hre_rel]
+  end.
+Lemma d_reaccess_rel : forall k, d_rel false (d_nd c) k (reaccess k).
+Proof. intros k. unfold Core.reaccess. cbv zeta. d_peel ltac:(idtac; d_h4). Qed.
+Lemma d_unq_rel : forall k, d_rel false (d_nd c) k (unqueue_reaccess k).
+Proof. intros k. unfold Core.unqueue_reaccess. cbv zeta. d_peel ltac:(idtac; d_h4). Qed.
+Ltac d_h5 :=
+  lazymatch goal with
+  | |- d_rel ?dz ?P ?k (Core.handle_reaccess _ _ _ _ _ _ ?K) =>
+      apply (d_rel_trans dz P k K); [d_peel ltac:(idtac; d_h5) | apply (d_rel_weakP _ (d_nd c)); [apply d_nd_plain|apply d_hre_rel]]
+  end.
+Lemma d_respond_rel : forall k ids, d_rel false (d_plain c) k (respond k ids).
+Proof.
+  intros k ids. unfold Core.respond. destruct ids as [|id r]; [apply d_rel_refl|]. cbv zeta.
+  apply (d_rel_trans _ _ k (if sent_ k then emit k [Core.OResp val upd c id None] else
+     (if reflag (ty (emit k [Core.OResp val upd c id (Some (Conv.sval val upd (me k)))]))
+      then handle_reaccess (act (emit k [Core.OResp val upd c id (Some (Conv.sval val upd (me k)))]) (Conv.Respond upd i 0))
+      else emit (act (emit k [Core.OResp val upd c id (Some (Conv.sval val upd (me k)))])
+                  (Conv.Respond upd i (length (Conv.eq val upd (me (emit k [Core.OResp val upd c id (Some (Conv.sval val upd (me k)))]))))))
+             (drained c (me (emit k [Core.OResp val upd c id (Some (Conv.sval val upd (me k)))])))))).
+  - d_peel ltac:(idtac; d_h5).
+    all: try (apply (d_rel_emit false (d_plain c)); first [cbn; rewrite ?Nat.eqb_refl; reflexivity
+              | eapply d_forallb_impl; [apply d_nd_plain|apply d_plain_drained]]).
+  - apply d_rel_emit. eapply d_forallb_impl; [apply d_nd_plain|apply d_plain_map_resp].
+Qed.
+
+Lemma d_onready_rel : forall k id, d_rel false (d_plain c) k (on_ready k id).
+Proof. intros k id. unfold Core.on_ready. cbv zeta. destruct (loaded_ k); [apply d_respond_rel|d_peel idtac]. Qed.
+Lemma d_runcb_true_rel : forall k b, d_rel false (d_plain c) k (run_cb true k b).
+Proof.
+  intros k [id|]; cbn [Core.run_cb].
+  - destruct (gone_ k); [apply d_rel_refl|apply d_onready_rel].
+  - apply (d_rel_weakP _ (d_nd c)); [apply d_nd_plain|apply d_unq_rel].
+Qed.
+Lemma d_runcb_false_rel : forall k b, d_rel true (d_nd c) k (run_cb false k b).
+Proof.
+  intros k [id|]; cbn [Core.run_cb].
+  - d_peel ltac:(idtac; d_h2).
+  - eapply d_rel_trans; [apply d_unsubd_rel|]. apply (d_rel_weak _ (d_nd c)); [auto|apply d_unq_rel].
+Qed.
+Lemma d_fold_true_rel : forall l k, d_rel false (d_plain c) k (fold_left (run_cb true) l k).
+Proof.
+  induction l as [|b l IH]; intros k; cbn [fold_left]; [apply d_rel_refl|].
+  eapply d_rel_trans; [apply d_runcb_true_rel|apply IH].
+Qed.
+Lemma d_fold_false_rel : forall l k, d_rel true (d_nd c) k (fold_left (run_cb false) l k).
+Proof.
+  induction l as [|b l IH]; intros k; cbn [fold_left]; [apply d_rel_refl|].
+  eapply d_rel_trans; [apply d_runcb_false_rel|apply IH].
+Qed.
+
+(* what the actions of a handler cannot be *)
+Lemma d_hact_noE : forall dz la, forallb (d_hact dz) la = true -> existsb d_arune la = false.
+Proof. intros dz la. apply d_existsb_of_forallb. intros []; cbn; congruence. Qed.
+Lemma d_hact_noC : forall dz la j, forallb (d_hact dz) la = true -> existsb (d_arunc j) la = false.
+Proof. intros dz la j. apply d_existsb_of_forallb. intros []; cbn; congruence. Qed.
+Lemma d_hact_noS : forall dz la j, forallb (d_hact dz) la = true -> existsb (d_asubs j) la = false.
+Proof. intros dz la j. apply d_existsb_of_forallb. intros []; cbn; congruence. Qed.
+Lemma d_hact_noN : forall dz la j, forallb (d_hact dz) la = true -> existsb (d_anop j) la = false.
+Proof. intros dz la j. apply d_existsb_of_forallb. intros []; cbn; congruence. Qed.
+Lemma d_hact_noR : forall dz la, forallb (d_hact dz) la = true -> existsb d_areacc la = false.
+Proof. intros dz la. apply d_existsb_of_forallb. intros []; cbn; congruence. Qed.
+Lemma d_hact_noD_other : forall dz la j, j <> i -> forallb (d_hact dz) la = true -> existsb (d_adisp j) la = false.
+Proof.
+  intros dz la j Hj. apply d_existsb_of_forallb. intros []; cbn; try congruence.
+  intros H. apply andb_prop in H as [H _]. apply andb_prop in H as [_ H]. apply Nat.eqb_eq in H. subst.
+  apply Nat.eqb_neq. congruence.
+Qed.
+Lemma d_hact_noD_false : forall la j, forallb (d_hact false) la = true -> existsb (d_adisp j) la = false.
+Proof. intros la j. apply d_existsb_of_forallb. intros []; cbn; congruence. Qed.
+Lemma d_hact_noclose : forall dz la s, forallb (d_hact dz) la = true -> ~ In (Conv.Dispose upd s true) la.
+Proof.
+  intros dz la s H Hin. rewrite forallb_forall in H. apply H in Hin. cbn in Hin. rewrite andb_false_r in Hin. discriminate.
+Qed.
+
+Lemma d_rel_gone_false : forall P k k', d_rel false P k k' -> gone_ k' = gone_ k.
+Proof.
+  intros P k k' [(la & A1 & A2 & A3) _ _ _ _ _ _ _]. unfold Core.gone_, Core.me. rewrite A2, d_fold_gone, (d_hact_noD_false la i A3).
+  apply orb_false_r.
+Qed.
+Lemma d_rel_gone_mono : forall dz P k k', d_rel dz P k k' -> gone_ k = true -> gone_ k' = true.
+Proof.
+  intros dz P k k' [(la & A1 & A2 & A3) _ _ _ _ _ _ _] H. unfold Core.gone_, Core.me in *. rewrite A2, d_fold_gone, H. reflexivity.
+Qed.
+Lemma d_rel_inv : forall dz P k k', d_rel dz P k k' -> CInv (ts k) -> CInv (ts k').
+Proof. intros dz P k k' [(la & A1 & A2 & A3) _ _ _ _ _ _ _] H. rewrite A2. apply d_fold_inv, H. Qed.
+
+(* ---------- what holds of the task state between handlers ---------- *)
+Record d_tinv (k : tk) : Prop := {
+  d_v_inv : CInv (ts k);
+  d_v_cur : cur (tx k) = if gone_ k then None else Some i;
+  d_v_acb : acb (ty k) <> [] -> inflight (ty k) = true;
+  d_v_rcb : rcb (ty k) <> [] -> gone_ k = false /\ loaded_ k = false
+}.
+
+Lemma d_tinv_emit : forall k o, d_tinv k -> d_tinv (emit k o).
+Proof. intros k o [A B C D]. constructor; assumption. Qed.
+Lemma d_tinv_setx : forall k x, cur x = cur (tx k) -> d_tinv k -> d_tinv (setx k x).
+Proof. intros k x H [A B C D]. constructor; try assumption. d_tkred. rewrite H. exact B. Qed.
+Lemma d_tinv_sety : forall k y, (acb y <> [] -> inflight y = true) -> (rcb y <> [] -> gone_ k = false /\ loaded_ k = false) ->
+  d_tinv k -> d_tinv (sety k y).
+Proof. intros k y H1 H2 [A B C D]. constructor; assumption. Qed.
+Lemma d_tinv_sety_same : forall k y, acb y = acb (ty k) -> inflight y = inflight (ty k) -> rcb y = rcb (ty k) ->
+  d_tinv k -> d_tinv (sety k y).
+Proof. intros k y H1 H2 H3 [A B C D]. constructor; try assumption; d_tkred; rewrite ?H1, ?H2, ?H3; assumption. Qed.
+Lemma d_gone_act : forall k a, gone_ (act k a) = gone_ k || d_adisp i a.
+Proof. intros k a. unfold Core.gone_, Core.me. d_tkred. apply d_eff_static. Qed.
+Lemma d_loaded_act : forall k a, d_arunc i a = false -> loaded_ k = false -> loaded_ (act k a) = false.
+Proof.
+  intros k a H H0. unfold Core.loaded_, Core.me in *. d_tkred. destruct (loaded (csubs (cstep (ts k) a) i)) eqn:E; [|reflexivity].
+  apply d_eff_loaded in E; [congruence|exact H].
+Qed.
+Lemma d_tinv_act : forall k a, d_hact false a = true -> d_tinv k -> d_tinv (act k a).
+Proof.
+  intros k a H [A B C D].
+  assert (Hg : gone_ (act k a) = gone_ k).
+  { rewrite d_gone_act. destruct a; cbn in H |- *; try discriminate; apply orb_false_r. }
+  constructor; try assumption.
+  - d_tkred. apply Conv.step_inv; assumption.
+  - rewrite Hg. exact B.
+  - intros Hr. destruct (D Hr) as [D1 D2]. rewrite Hg. split; [exact D1|]. apply d_loaded_act; [|exact D2].
+    destruct a; cbn in H |- *; try discriminate; reflexivity.
+Qed.
+
+Ltac d_ipeel tac :=
+  lazymatch goal with
+  | H : d_tinv ?k |- d_tinv ?k => exact H
+  | |- d_tinv (Core.setx _ _ ?K _) => apply d_tinv_setx; [reflexivity | d_ipeel tac]
+  | |- d_tinv (Core.sety _ _ ?K _) => apply d_tinv_sety_same; [reflexivity | reflexivity | reflexivity | d_ipeel tac]
+  | |- d_tinv (Core.emit _ _ ?K _) => apply d_tinv_emit; d_ipeel tac
+  | |- d_tinv (Core.act _ _ _ _ ?K _) => apply d_tinv_act; [cbn; rewrite ?Nat.eqb_refl; reflexivity | d_ipeel tac]
+  | |- d_tinv (if ?b then _ else _) => destruct b eqn:?; d_ipeel tac
+  | |- _ => tac
+  end.
+
+Lemma d_dispose_inv : forall k, d_tinv k -> d_tinv (dispose_t k).
+Proof.
+  intros k H. unfold Core.dispose_t. destruct (gone_ k) eqn:Eg; [exact H|]. cbv zeta. destruct H as [A B C D].
+  assert (Hg : gone_ (act k (Conv.Dispose upd i false)) = true).
+  { rewrite d_gone_act. cbn [d_adisp]. rewrite Nat.eqb_refl. apply orb_true_r. }
+  constructor.
+  - d_tkred. apply Conv.step_inv; assumption.
+  - change (gone_ (setx ?K ?x)) with (gone_ (act k (Conv.Dispose upd i false))). rewrite Hg. reflexivity.
+  - exact C.
+  - d_tkred. cbn [Core.upd_y Core.rcb]. intros X. exfalso. apply X. reflexivity.
+Qed.
+Lemma d_remove_inv : forall k n, d_tinv k -> d_tinv (remove_direct k n).
+Proof.
+  intros k n H. unfold Core.remove_direct. cbv zeta. destruct (Nat.eqb (direct (tx k)) 0); [exact H|].
+  assert (H1 : d_tinv (setx k (Core.with_cd (tx k) (cur (tx k)) (direct (tx k) - n)))) by (apply d_tinv_setx; [reflexivity|exact H]).
+  destruct (Nat.eqb _ 0); [apply d_dispose_inv|]; exact H1.
+Qed.
+Lemma d_unsubd_inv : forall k, d_tinv k -> d_tinv (unsubscribe_direct k).
+Proof.
+  intros k H. unfold Core.unsubscribe_direct. destruct (Nat.ltb 0 (direct (tx k))); [|exact H].
+  apply d_tinv_emit, d_remove_inv, H.
+Qed.
+Lemma d_tinv_sety' : forall k k' y, ts k' = ts k -> tx k' = tx k ->
+  (acb y <> [] -> inflight y = true) -> (rcb y <> [] -> gone_ k = false /\ loaded_ k = false) ->
+  d_tinv k -> d_tinv (sety k' y).
+Proof.
+  intros k k' y E1 E2 H1 H2 [A B C D]. unfold Core.gone_, Core.loaded_, Core.me in *.
+  constructor; d_tkred; unfold Core.gone_, Core.loaded_, Core.me; d_tkred; rewrite ?E1, ?E2; assumption.
+Qed.
+Lemma d_load_inv : forall k b, d_tinv k -> d_tinv (load_access k b).
+Proof.
+  intros k b H. unfold Core.load_access. cbv zeta. destruct (inflight (ty k)) eqn:Ef.
+  - apply d_tinv_sety; [intros _; reflexivity|apply (d_v_rcb k H)|exact H].
+  - apply d_tinv_emit. apply (d_tinv_sety' k); [reflexivity|reflexivity|reflexivity| |exact H].
+    d_tkred. cbn [Core.upd_y Core.rcb]. apply (d_v_rcb k H).
+Qed.
+Lemma d_hre_inv : forall k, d_tinv k -> d_tinv (handle_reaccess k).
+Proof.
+  intros k H. unfold Core.handle_reaccess. cbv zeta.
+  d_ipeel ltac:(idtac; lazymatch goal with |- d_tinv (Core.load_access _ _ _ _ ?K _) => apply d_load_inv; d_ipeel idtac end).
+Qed.
+Lemma d_reaccess_inv : forall k, d_tinv k -> d_tinv (reaccess k).
+Proof.
+  intros k H. unfold Core.reaccess. cbv zeta.
+  d_ipeel ltac:(idtac; lazymatch goal with |- d_tinv (Core.handle_reaccess _ _ _ _ _ _ ?K) => apply d_hre_inv; d_ipeel idtac end).
+Qed.
+Lemma d_unq_inv : forall k, d_tinv k -> d_tinv (unqueue_reaccess k).
+Proof.
+  intros k H. unfold Core.unqueue_reaccess. cbv zeta.
+  d_ipeel ltac:(idtac; lazymatch goal with |- d_tinv (Core.handle_reaccess _ _ _ _ _ _ ?K) => apply d_hre_inv; d_ipeel idtac end).
+Qed.
+Lemma d_respond_inv : forall k ids, d_tinv k -> d_tinv (respond k ids).
+Proof.
+  intros k ids H. unfold Core.respond. destruct ids as [|id r]; [exact H|]. cbv zeta.
+  d_ipeel ltac:(idtac; lazymatch goal with |- d_tinv (Core.handle_reaccess _ _ _ _ _ _ ?K) => apply d_hre_inv; d_ipeel idtac end).
+Qed.
+Lemma d_onready_inv : forall k id, gone_ k = false -> d_tinv k -> d_tinv (on_ready k id).
+Proof.
+  intros k id Hg H. unfold Core.on_ready. cbv zeta. destruct (loaded_ k) eqn:El; [apply d_respond_inv, H|].
+  apply d_tinv_sety; [apply (d_v_acb k H)|intros _; auto|exact H].
+Qed.
+Lemma d_runcb_inv : forall g k b, (g = true -> gone_ k = false) -> d_tinv k -> d_tinv (run_cb g k b).
+Proof.
+  intros g k [id|] Hg H; cbn [Core.run_cb]; destruct g.
+  - destruct (gone_ k) eqn:E; [exact H|]. apply d_onready_inv; [exact E|exact H].
+  - apply d_remove_inv, d_tinv_emit, H.
+  - apply d_unq_inv, H.
+  - apply d_unq_inv, d_unsubd_inv, H.
+Qed.
+Lemma d_foldcb_inv : forall g l k, (g = true -> gone_ k = false) -> d_tinv k -> d_tinv (fold_left (run_cb g) l k).
+Proof.
+  intros g l. induction l as [|b l IH]; intros k Hg H; cbn [fold_left]; [exact H|].
+  apply IH; [|apply d_runcb_inv; assumption].
+  intros ->. rewrite (d_rel_gone_false _ _ _ (d_runcb_true_rel k b)). apply Hg. reflexivity.
+Qed.
+
+End d_Task.
+Ltac d_side := cbn; unfold d_nd; cbn; rewrite ?Nat.eqb_refl; reflexivity.
 (* ---------- plumbing ---------- *)
 Lemma d_exec_snoc : forall t ops o, exec t (ops ++ [o]) = Core.exec1 val upd app norm (exec t ops) o.
 Proof. intros t ops o. unfold Core.exec. rewrite fold_left_app. reflexivity. Qed.
@@ -279,96 +707,436 @@ Proof.
   destruct (step s o) as [s' o']. split; reflexivity.
 Qed.
 
-Lemma d_step_cv : forall s o, cv (fst (step s o)) = fold_left cstep (acts_of s o) (cv s).
+Notation QReq := Core.QReq.
+Notation QUnsub := Core.QUnsub.
+Notation QToken := Core.QToken.
+Notation QAccess := Core.QAccess.
+Notation QSub := Core.QSub.
+Notation QDispose := Core.QDispose.
+Notation AReq := Core.AReq.
+Notation AVal := Core.AVal.
+Notation gone_ := (Core.gone_ val upd).
+Notation loaded_ := (Core.loaded_ val upd).
+Notation insts_of := (Core.insts_of val upd).
+Notation OConnUnsub := (Core.OConnUnsub val upd).
+
+Lemma d_set_conn_eq : forall f c x, Core.set_conn f c x c = x.
+Proof. intros. unfold Core.set_conn. rewrite Nat.eqb_refl. reflexivity. Qed.
+Lemma d_set_conn_neq : forall f c x c', c' <> c -> Core.set_conn f c x c' = f c'.
+Proof. intros f c x c' H. unfold Core.set_conn. apply Nat.eqb_neq in H. rewrite H. reflexivity. Qed.
+Lemma d_set_inst_eq : forall f i x, Core.set_inst f i x i = x.
+Proof. intros. unfold Core.set_inst. rewrite Nat.eqb_refl. reflexivity. Qed.
+Lemma d_set_inst_neq : forall f i x i', i' <> i -> Core.set_inst f i x i' = f i'.
+Proof. intros f i x i' H. unfold Core.set_inst. apply Nat.eqb_neq in H. rewrite H. reflexivity. Qed.
+
+Lemma d_insts_of_in : forall s c j, In j (insts_of s c) <-> j < next s /\ owner (insts s j) = c.
+Proof.
+  intros s c j. unfold Core.insts_of. rewrite filter_In, in_seq, Nat.eqb_eq. split; intros [A B]; split; auto; lia.
+Qed.
+Lemma d_disp_map : forall j l, existsb (d_adisp j) (map (fun i => Conv.Dispose upd i true) l) = Conv.mem j l.
+Proof.
+  intros j l. unfold Conv.mem. induction l as [|i l IH]; cbn; [reflexivity|]. rewrite IH, (Nat.eqb_sym i j). reflexivity.
+Qed.
+Lemma d_mem_false_iff : forall j l, Conv.mem j l = false <-> ~ In j l.
+Proof.
+  intros j l. rewrite <- Conv.mem_In. destruct (Conv.mem j l); split; intros; try discriminate; try reflexivity; try congruence.
+Qed.
+
+(* ---------- structural invariant ---------- *)
+Record d_W1 (s : st) : Prop := {
+  d_a_inv : CInv (cv s);
+  d_a_fresh_inst : forall i, next s <= i -> insts s i = Core.inst0;
+  d_a_fresh_sub : forall i, next s <= i ->
+    subscribed (csubs (cv s) i) = false /\ ccq (csubs (cv s) i) = [] /\ gone (csubs (cv s) i) = false;
+  d_a_sub : forall i, i < next s -> subscribed (csubs (cv s) i) = true;
+  d_a_cur : forall c i, cur (conns s c) = Some i -> i < next s /\ owner (insts s i) = c /\ gone (csubs (cv s) i) = false;
+  d_a_gone : forall i, i < next s -> cur (conns s (owner (insts s i))) = Some i \/ gone (csubs (cv s) i) = true;
+  d_a_qacc : forall c i, In (QAccess i) (cqueue (conns s c)) -> i < next s /\ owner (insts s i) = c;
+  d_a_qsub : forall c i, In (QSub i) (cqueue (conns s c)) -> i < next s /\ owner (insts s i) = c;
+  d_a_nop : forall i, In (INop i) (cqe (cv s)) -> i < next s;
+  d_a_mqsub : mqsub s = false -> next s = 0;
+  d_a_acb : forall i, acb (insts s i) <> [] -> inflight (insts s i) = true;
+  d_a_rcb : forall i, rcb (insts s i) <> [] -> gone (csubs (cv s) i) = false /\ loaded (csubs (cv s) i) = false
+}.
+
+Lemma d_live_cur : forall s i, d_W1 s -> i < next s -> gone (csubs (cv s) i) = false ->
+  cur (conns s (owner (insts s i))) = Some i.
+Proof. intros s i W Hlt Hg. destruct (d_a_gone s W i Hlt) as [H|H]; [exact H|congruence]. Qed.
+
+(* ---------- the task of one grant: its shape ---------- *)
+Definition d_isreq (it : Core.qitem) : bool := match it with Core.QUnsub _ _ | Core.QToken _ => true | _ => false end.
+Definition d_pre_ok (s : st) (c : nat) (it : Core.qitem) (i : nat) (pre : list action) (nx : nat) (ms : bool) : Prop :=
+  (i < next s /\ cur (conns s c) = Some i /\ nx = next s /\ ms = mqsub s /\
+     ((pre = [] /\ forall j, it <> QSub j) \/ (it = QSub i /\ pre = [Conv.RunC upd i])))
+  \/ (i = next s /\ cur (conns s c) = None /\ nx = S (next s) /\ ms = true /\ pre = [Conv.Subscribe upd i] /\ exists id, it = QReq id).
+
+Inductive d_shape (s : st) (c : nat) (it : Core.qitem) (q : list Core.qitem) : tk -> option nat -> nat -> bool -> Prop :=
+| d_shN : forall k, cur (conns s c) = None -> ta k = [] -> cur (tx k) = None -> forallb (d_nd c) (tout k) = true ->
+    d_isreq it = true -> (forall t, it = QToken t -> tout k = []) -> d_shape s c it q k None (next s) (mqsub s)
+| d_shH : forall k i pre la nx ms, d_pre_ok s c it i pre nx ms -> ta k = pre ++ la -> forallb (d_hact i true) la = true ->
+    d_tinv i k -> owner (ty k) = c -> forallb (d_plain c) (tout k) = true -> it <> QDispose ->
+    d_shape s c it q k (Some i) nx ms
+| d_shG : forall k i pre, i < next s -> owner (insts s i) = c -> gone (csubs (cv s) i) = true ->
+    ((it = QAccess i /\ pre = []) \/ (it = QSub i /\ pre = [Conv.RunC upd i])) -> ta k = pre ->
+    tx k = Core.with_q (conns s c) q -> ty k = insts s i -> tout k = [] ->
+    d_shape s c it q k (Some i) (next s) (mqsub s)
+| d_shD : forall k, it = QDispose -> ta k = map (fun j => Conv.Dispose upd j true) (insts_of s c) -> cur (tx k) = None ->
+    tout k = [OConnUnsub c] ->
+    (forall i, cur (conns s c) = Some i -> owner (ty k) = c /\ acb (ty k) = [] /\ rcb (ty k) = [] /\ inflight (ty k) = inflight (insts s i)) ->
+    d_shape s c it q k (cur (conns s c)) (next s) (mqsub s).
+
+Definition d_summary (s : st) (c : nat) (it : Core.qitem) (q : list Core.qitem) (r : tk * option nat * nat * bool) : Prop :=
+  let '(k, oi, nx, ms) := r in
+  cqueue (tx k) = q /\ disc (tx k) = disc (conns s c) /\ ts k = cfold (ta k) (cv s) /\ d_shape s c it q k oi nx ms.
+
+Lemma d_forallb_nd_plain : forall c l, forallb (d_nd c) l = true -> forallb (d_plain c) l = true.
+Proof. intros c l. apply d_forallb_impl. apply d_nd_plain. Qed.
+
+(* assembling the shape of a task that ran handlers on instance i, started from K1 *)
+Lemma d_shape_H : forall s c it q i pre nx ms K1 k,
+  d_pre_ok s c it i pre nx ms -> it <> QDispose ->
+  ta K1 = pre -> ts K1 = cfold pre (cv s) -> cqueue (tx K1) = q -> disc (tx K1) = disc (conns s c) -> owner (ty K1) = c ->
+  forallb (d_plain c) (tout K1) = true ->
+  d_rel i true (d_plain c) K1 k -> d_tinv i k ->
+  d_summary s c it q (k, Some i, nx, ms).
+Proof.
+  intros s c it q i pre nx ms K1 k Hp Hit A1 A2 A3 A4 A5 A6 [(la & B1 & B2 & B3) (lo & C1 & C2) D1 D2 D3 D4 D5 D6] Hinv.
+  unfold d_summary. split; [congruence|]. split; [congruence|]. split.
+  - rewrite B1, B2, A1, A2, fold_left_app. reflexivity.
+  - apply (d_shH s c it q k i pre la nx ms); try assumption; try congruence.
+    rewrite C1, forallb_app, A6, C2. reflexivity.
+Qed.
+
+Lemma d_k0_tinv : forall s c i x y, d_W1 s -> cur x = Some i -> cur (conns s c) = Some i -> y = insts s i ->
+  d_tinv i {| Core.ts := cv s; Core.ta := []; Core.tx := x; Core.ty := y; Core.to := [] |}.
+Proof.
+  intros s c i x y W Hx Hc ->. destruct (d_a_cur s W c i Hc) as (A & B & C).
+  constructor; d_tkred.
+  - apply (d_a_inv s W).
+  - unfold Core.gone_, Core.me. d_tkred. rewrite C. exact Hx.
+  - apply (d_a_acb s W).
+  - apply (d_a_rcb s W).
+Qed.
+
+Ltac d_ct_unfold Eq := unfold Core.conn_task; cbv zeta; rewrite Eq.
+Ltac d_preok_cur := left; repeat split; auto; left; split; [reflexivity|intros ? ?; discriminate].
+
+Lemma d_sum_req : forall s c id q, d_W1 s -> cqueue (conns s c) = QReq id :: q -> d_summary s c (QReq id) q (conn_task s c).
+Proof.
+  intros s c id q W Eq. d_ct_unfold Eq. cbn [Core.cur Core.with_q].
+  destruct (cur (conns s c)) as [i|] eqn:Ecur.
+  - destruct (d_a_cur s W c i Ecur) as (Flt & Fown & Fng).
+    set (K1 := {| Core.ts := cv s; Core.ta := []; Core.tx := Core.with_cd (Core.with_q (conns s c) q) (Some i) (S (direct (Core.with_q (conns s c) q)));
+                  Core.ty := insts s i; Core.to := [] |}).
+    assert (HK : d_tinv i K1) by (apply (d_k0_tinv s c); auto).
+    assert (Hg : gone_ i K1 = false) by exact Fng.
+    apply (d_shape_H s c (QReq id) q i [] (next s) (mqsub s) K1); try reflexivity; try assumption; try discriminate.
+    + d_preok_cur.
+    + destruct (acc (ty K1)) as [[|]|].
+      * apply (d_rel_weak _ _ (d_plain c)); [auto|apply d_onready_rel].
+      * apply (d_rel_weakP _ _ (d_nd c)); [apply d_nd_plain|].
+        eapply d_rel_trans; [|apply d_remove_rel]. apply d_rel_emit. cbn. unfold d_nd. cbn. rewrite Nat.eqb_refl. reflexivity.
+      * apply (d_rel_weak _ _ (d_nd c)); [apply d_nd_plain|apply d_load_rel].
+    + destruct (acc (ty K1)) as [[|]|].
+      * apply d_onready_inv; assumption.
+      * apply d_remove_inv, d_tinv_emit, HK.
+      * apply d_load_inv, HK.
+  - destruct (d_a_fresh_sub s W (next s) (le_n _)) as (Fs & Fc & Fg).
+    set (y := {| Core.owner := c; Core.acb := []; Core.rcb := []; Core.acc := None; Core.inflight := false; Core.ans := None;
+                 Core.reflag := false; Core.rq := false; Core.lost := [] |}).
+    set (K1 := emit (act {| Core.ts := cv s; Core.ta := []; Core.tx := Core.with_cd (Core.with_q (conns s c) q) (Some (next s)) 1;
+                            Core.ty := y; Core.to := [] |} (Conv.Subscribe upd (next s))) (if mqsub s then [] else [Core.OMqSub val upd])).
+    assert (HK : d_tinv (next s) K1).
+    { constructor.
+      - unfold K1. d_tkred. apply Conv.step_inv; [assumption|assumption|apply (d_a_inv s W)].
+      - unfold Core.gone_, Core.me, K1. d_tkred. destruct (d_eff_static (cv s) (Conv.Subscribe upd (next s)) (next s)) as [-> _].
+        rewrite Fg. reflexivity.
+      - unfold K1, y. d_tkred. cbn. intros X. exfalso. apply X. reflexivity.
+      - unfold K1, y. d_tkred. cbn. intros X. exfalso. apply X. reflexivity. }
+    apply (d_shape_H s c (QReq id) q (next s) [Conv.Subscribe upd (next s)] (S (next s)) true K1); try reflexivity; try assumption; try discriminate.
+    + right. repeat split; eauto.
+    + unfold K1. d_tkred. destruct (mqsub s); reflexivity.
+    + apply (d_rel_weak _ _ (d_nd c)); [apply d_nd_plain|apply d_load_rel].
+    + apply d_load_inv, HK.
+Qed.
+
+Lemma d_sum_unsub : forall s c id cnt q, d_W1 s -> cqueue (conns s c) = QUnsub id cnt :: q ->
+  d_summary s c (QUnsub id cnt) q (conn_task s c).
+Proof.
+  intros s c id cnt q W Eq. d_ct_unfold Eq. cbn [Core.cur Core.with_q].
+  destruct (cur (conns s c)) as [i|] eqn:Ecur.
+  - destruct (d_a_cur s W c i Ecur) as (Flt & Fown & Fng).
+    set (K1 := {| Core.ts := cv s; Core.ta := []; Core.tx := Core.with_q (conns s c) q; Core.ty := insts s i; Core.to := [] |}).
+    assert (HK : d_tinv i K1) by (apply (d_k0_tinv s c); auto).
+    apply (d_shape_H s c (QUnsub id cnt) q i [] (next s) (mqsub s) K1); try reflexivity; try assumption; try discriminate.
+    + d_preok_cur.
+    + apply (d_rel_weakP _ _ (d_nd c)); [apply d_nd_plain|].
+      destruct (Nat.eqb cnt 0); [apply d_rel_emit; d_side|].
+      destruct (Nat.leb cnt _); [|apply d_rel_emit; d_side].
+      eapply d_rel_trans; [|apply d_remove_rel].
+      destruct (Nat.eqb _ 0).
+      * apply (d_rel_trans _ _ _ _ (emit K1 [Core.OAck val upd c id cnt])); [apply d_rel_emit; d_side|]. apply d_rel_sety; reflexivity.
+      * apply d_rel_emit; d_side.
+    + destruct (Nat.eqb cnt 0); [apply d_tinv_emit, HK|].
+      destruct (Nat.leb cnt _); [|apply d_tinv_emit, HK].
+      apply d_remove_inv. destruct (Nat.eqb _ 0); [|apply d_tinv_emit, HK].
+      apply d_tinv_sety; [intros X; exfalso; apply X; reflexivity| |apply d_tinv_emit, HK].
+      apply (d_v_rcb i K1 HK).
+  - unfold d_summary. d_tkred. repeat split; try reflexivity.
+    apply d_shN; try reflexivity; try assumption; try discriminate; try (intros ? X; discriminate X). d_side.
+Qed.
+
+Lemma d_sum_token : forall s c t q, d_W1 s -> cqueue (conns s c) = QToken t :: q ->
+  d_summary s c (QToken t) q (conn_task s c).
+Proof.
+  intros s c t q W Eq. d_ct_unfold Eq. cbn [Core.cur Core.with_q Core.cqueue Core.direct Core.disc Core.tokset].
+  destruct (cur (conns s c)) as [i|] eqn:Ecur.
+  - destruct (d_a_cur s W c i Ecur) as (Flt & Fown & Fng).
+    set (K1 := {| Core.ts := cv s; Core.ta := [];
+                  Core.tx := {| Core.cqueue := q; Core.cur := Some i; Core.direct := direct (conns s c); Core.tokset := true; Core.tok := t; Core.disc := disc (conns s c) |};
+                  Core.ty := insts s i; Core.to := [] |}).
+    assert (HK : d_tinv i K1) by (apply (d_k0_tinv s c); auto).
+    apply (d_shape_H s c (QToken t) q i [] (next s) (mqsub s) K1); try reflexivity; try assumption; try discriminate.
+    + d_preok_cur.
+    + destruct (tokset (conns s c)); [|apply d_rel_refl]. apply (d_rel_weak _ _ (d_nd c)); [apply d_nd_plain|apply d_reaccess_rel].
+    + destruct (tokset (conns s c)); [|exact HK]. apply d_reaccess_inv, HK.
+  - unfold d_summary. d_tkred. cbn [Core.cqueue Core.disc Core.cur]. repeat split; try reflexivity.
+    apply d_shN; try reflexivity; try assumption; try discriminate.
+Qed.
+
+Lemma d_sum_access : forall s c i q, d_W1 s -> cqueue (conns s c) = QAccess i :: q ->
+  d_summary s c (QAccess i) q (conn_task s c).
+Proof.
+  intros s c i q W Eq. d_ct_unfold Eq.
+  assert (A : In (QAccess i) (cqueue (conns s c))) by (rewrite Eq; left; reflexivity).
+  apply (d_a_qacc s W) in A as (Flt & Fown).
+  unfold Core.is_gone. destruct (gone (csubs (cv s) i)) eqn:Eg.
+  - unfold d_summary. d_tkred. repeat split; try reflexivity.
+    apply (d_shG s c (QAccess i) q _ i []); auto.
+  - pose proof (d_live_cur s i W Flt Eg) as Ecur. rewrite Fown in Ecur.
+    set (K0 := {| Core.ts := cv s; Core.ta := []; Core.tx := Core.with_q (conns s c) q; Core.ty := insts s i; Core.to := [] |}).
+    assert (HK0 : d_tinv i K0) by (apply (d_k0_tinv s c); auto).
+    destruct (ans (insts s i)) as [g|] eqn:Ea.
+    + set (y := Core.upd_y (insts s i) [] (rcb (insts s i)) (Some g) false None (reflag (insts s i)) (rq (insts s i)) (lost (insts s i))).
+      assert (HK : d_tinv i (sety K0 y)).
+      { apply d_tinv_sety; [intros X; exfalso; apply X; reflexivity|apply (d_v_rcb i K0 HK0)|exact HK0]. }
+      apply (d_shape_H s c (QAccess i) q i [] (next s) (mqsub s) (sety K0 y)); try reflexivity; try assumption; try discriminate.
+      * d_preok_cur.
+      * destruct g.
+        -- apply (d_rel_weak _ _ (d_plain c)); [auto|apply d_fold_true_rel].
+        -- apply (d_rel_weakP _ _ (d_nd c)); [apply d_nd_plain|apply d_fold_false_rel].
+      * apply d_foldcb_inv; [|exact HK]. intros _. exact Eg.
+    + apply (d_shape_H s c (QAccess i) q i [] (next s) (mqsub s) K0); try reflexivity; try assumption; try discriminate.
+      * d_preok_cur.
+      * apply d_rel_refl.
+Qed.
+
+Lemma d_runc_loaded : forall σ i, (forall r, ccq (csubs σ i) <> Conv.CLoaded upd :: r) ->
+  loaded (csubs (cstep σ (Conv.RunC upd i)) i) = loaded (csubs σ i).
+Proof.
+  intros σ i H. cbn [Conv.step]. destruct (ccq (csubs σ i)) as [|[|e|] r] eqn:E; cbn [Conv.subs]; try reflexivity.
+  - exfalso. eapply H. reflexivity.
+  - rewrite Conv.set_sub_eq. destruct (loaded (csubs σ i)) eqn:El; cbn [negb]; [|reflexivity].
+    destruct (Conv.flag val upd (csubs σ i)); [reflexivity|]. destruct (Conv.proc val upd app _ e). reflexivity.
+  - rewrite Conv.set_sub_eq. reflexivity.
+Qed.
+Lemma d_runc_gone : forall σ i j, gone (csubs (cstep σ (Conv.RunC upd i)) j) = gone (csubs σ j).
+Proof. intros σ i j. destruct (d_eff_static σ (Conv.RunC upd i) j) as [-> _]. apply orb_false_r. Qed.
+
+Lemma d_fold_act : forall l k,
+  ta (fold_left act l k) = ta k ++ l /\ ts (fold_left act l k) = cfold l (ts k) /\ tx (fold_left act l k) = tx k /\
+  ty (fold_left act l k) = ty k /\ tout (fold_left act l k) = tout k.
+Proof.
+  induction l as [|a l IH]; intros k; cbn [fold_left]; [rewrite app_nil_r; auto|].
+  destruct (IH (act k a)) as (A & B & C & D & E). rewrite A, B, C, D, E. d_tkred. rewrite <- app_assoc. auto.
+Qed.
+
+Lemma d_sum_dispose : forall s c q, d_W1 s -> cqueue (conns s c) = QDispose :: q -> d_summary s c QDispose q (conn_task s c).
+Proof.
+  intros s c q W Eq. d_ct_unfold Eq. cbn [Core.cur Core.with_q].
+  match goal with |- context [fold_left (Core.act val upd app norm) ?l ?k] => destruct (d_fold_act l k) as (A & B & C & D & E); set (K := fold_left act l k) in * end.
+  unfold d_summary. d_tkred. rewrite C, A, B. d_tkred. cbn [Core.with_cd Core.cqueue Core.disc List.app]. repeat split; try reflexivity.
+  apply d_shD; d_tkred; try reflexivity.
+  - exact A.
+  - rewrite C. reflexivity.
+  - rewrite E. reflexivity.
+  - intros i Hi. rewrite D. d_tkred. rewrite Hi. cbn [Core.upd_y Core.owner Core.acb Core.rcb Core.inflight].
+    destruct (d_a_cur s W c i Hi) as (_ & Fo & _). auto.
+Qed.
+
+Lemma d_sum_sub : forall s c i q, d_W1 s -> cqueue (conns s c) = QSub i :: q -> d_summary s c (QSub i) q (conn_task s c).
+Proof.
+  intros s c i q W Eq. d_ct_unfold Eq.
+  assert (A : In (QSub i) (cqueue (conns s c))) by (rewrite Eq; left; reflexivity).
+  apply (d_a_qsub s W) in A as (Flt & Fown).
+  set (K0 := {| Core.ts := cv s; Core.ta := []; Core.tx := Core.with_q (conns s c) q; Core.ty := insts s i; Core.to := [] |}).
+  set (K1 := act K0 (Conv.RunC upd i)).
+  assert (Hg1 : gone_ i K1 = gone (csubs (cv s) i)) by apply d_runc_gone.
+  destruct (gone (csubs (cv s) i)) eqn:Eg.
+  - (* stale *)
+    pose proof (Conv.igl _ _ _ _ (d_a_inv s W) i Eg) as Hl.
+    unfold d_summary.
+    assert (X : forall k, k = K1 -> cqueue (tx k) = q /\ disc (tx k) = disc (conns s c) /\ ts k = cfold (ta k) (cv s) /\
+                  d_shape s c (QSub i) q k (Some i) (next s) (mqsub s)).
+    { intros k ->. repeat split; try reflexivity. apply (d_shG s c (QSub i) q _ i [Conv.RunC upd i]); auto. }
+    destruct (ccq (csubs (cv s) i)) as [|[|e|] r] eqn:Ecq; apply X; try reflexivity.
+    + rewrite Hl. cbn [andb]. unfold K1, K0, Core.emit, Core.act. d_tkred. reflexivity.
+    + unfold Core.reaccess. fold K0. fold K1. rewrite Hg1. reflexivity.
+  - pose proof (d_live_cur s i W Flt Eg) as Ecur. rewrite Fown in Ecur.
+    assert (HK0 : d_tinv i K0) by (apply (d_k0_tinv s c); auto).
+    assert (HI1 : CInv (ts K1)) by (apply Conv.step_inv; [assumption|assumption|apply (d_a_inv s W)]).
+    assert (Hc1 : cur (tx K1) = if gone_ i K1 then None else Some i) by (rewrite Hg1; exact Ecur).
+    assert (Pre : d_pre_ok s c (QSub i) i [Conv.RunC upd i] (next s) (mqsub s)) by (left; repeat split; auto).
+    destruct (ccq (csubs (cv s) i)) as [|[|e|] r] eqn:Ecq.
+    + (* nothing *)
+      assert (HK1 : d_tinv i K1).
+      { constructor; try assumption; [apply (d_a_acb s W)|]. intros Hr. destruct (d_a_rcb s W i Hr) as [R1 R2]. rewrite Hg1. split; [reflexivity|].
+        unfold Core.loaded_, Core.me, K1, K0. d_tkred. rewrite d_runc_loaded; [exact R2|]. rewrite Ecq. discriminate. }
+      apply (d_shape_H s c (QSub i) q i [Conv.RunC upd i] (next s) (mqsub s) K1); try reflexivity; try assumption; try discriminate.
+      apply d_rel_refl.
+    + (* Loaded *)
+      set (z := ty K1).
+      set (K2 := sety K1 (Core.upd_y z (acb z) [] (acc z) (inflight z) (ans z) (reflag z) (rq z) (lost z))).
+      assert (HK2 : d_tinv i K2).
+      { constructor; try assumption; [apply (d_a_acb s W)|]. intros X. exfalso. apply X. reflexivity. }
+      apply (d_shape_H s c (QSub i) q i [Conv.RunC upd i] (next s) (mqsub s) K2); try reflexivity; try assumption; try discriminate.
+      * apply (d_rel_weak _ _ (d_plain c)); [auto|apply d_respond_rel].
+      * apply d_respond_inv, HK2.
+    + (* Event *)
+      assert (HK1 : d_tinv i K1).
+      { constructor; try assumption; [apply (d_a_acb s W)|]. intros Hr. destruct (d_a_rcb s W i Hr) as [R1 R2]. rewrite Hg1. split; [reflexivity|].
+        unfold Core.loaded_, Core.me, K1, K0. d_tkred. rewrite d_runc_loaded; [exact R2|]. rewrite Ecq. discriminate. }
+      apply (d_shape_H s c (QSub i) q i [Conv.RunC upd i] (next s) (mqsub s) K1); try reflexivity; try assumption; try discriminate.
+      * apply d_rel_emit. destruct (_ && _); [|reflexivity]. apply d_forallb_nd_plain, d_plain_proc.
+      * apply d_tinv_emit, HK1.
+    + (* Reacc *)
+      assert (HK1 : d_tinv i K1).
+      { constructor; try assumption; [apply (d_a_acb s W)|]. intros Hr. destruct (d_a_rcb s W i Hr) as [R1 R2]. rewrite Hg1. split; [reflexivity|].
+        unfold Core.loaded_, Core.me, K1, K0. d_tkred. rewrite d_runc_loaded; [exact R2|]. rewrite Ecq. discriminate. }
+      apply (d_shape_H s c (QSub i) q i [Conv.RunC upd i] (next s) (mqsub s) K1); try reflexivity; try assumption; try discriminate.
+      * apply (d_rel_weak _ _ (d_nd c)); [apply d_nd_plain|apply d_reaccess_rel].
+      * apply d_reaccess_inv, HK1.
+Qed.
+
+Lemma d_task_summary : forall s c it q, d_W1 s -> cqueue (conns s c) = it :: q -> d_summary s c it q (conn_task s c).
+Proof.
+  intros s c [id|id cnt|t|i|i|] q W Eq.
+  - apply d_sum_req; assumption.
+  - apply d_sum_unsub; assumption.
+  - apply d_sum_token; assumption.
+  - apply d_sum_access; assumption.
+  - apply d_sum_sub; assumption.
+  - apply d_sum_dispose; assumption.
+Qed.
+
+(* ---------- one step ---------- *)
+Notation GrantConn := (Core.GrantConn upd).
+
+Lemma d_step_grant : forall s c it q, cqueue (conns s c) = it :: q ->
+  forall k oi nx ms, conn_task s c = (k, oi, nx, ms) ->
+  step s (GrantConn c) =
+    ({| Core.cv := cfold (ta k) (cv s); Core.conns := Core.set_conn (conns s) c (tx k);
+        Core.insts := match oi with Some i => Core.set_inst (insts s) i (ty k) | None => insts s end;
+        Core.next := nx; Core.mqsub := ms; Core.getreq := getreq s |}, tout k).
+Proof.
+  intros s c it q Eq k oi nx ms E. cbn [Core.step Core.acts_of]. rewrite Eq, E. reflexivity.
+Qed.
+
+Lemma d_step_cv : forall s o, cv (fst (step s o)) = cfold (acts_of s o) (cv s).
 Proof.
   intros s o. destruct o; cbn [Core.step Core.acts_of].
-  1-3: destruct (Core.disc (conns s c)); reflexivity.
-  1: destruct (Nat.ltb i (next s) && Core.unanswered (insts s i)); reflexivity.
-  1-4: reflexivity.
-  destruct (Core.cqueue (conns s c)) as [|[id|id k|i|i|] q]; [reflexivity| | | | |reflexivity].
-  - destruct (Core.cur (conns s c)) as [i|]; [|reflexivity].
-    destruct (Core.acc (insts s i)) as [[|]|]; try reflexivity.
-    destruct (Core.is_live val upd (cv s) i); reflexivity.
-  - destruct (Core.cur (conns s c)) as [i|].
-    + destruct (Nat.eqb_spec k 0) as [->|Hk]; [reflexivity|].
-      assert (E : Nat.leb 1 k = true) by (apply Nat.leb_le; lia). rewrite E. cbn [andb].
-      destruct (Nat.leb k (Core.direct (conns s c))); cbn [andb]; [|reflexivity].
-      destruct (Nat.eqb (Core.direct (conns s c) - k) 0); reflexivity.
-    + destruct (Nat.eqb k 0); reflexivity.
-  - destruct (Core.is_gone val upd (cv s) i); [reflexivity|].
-    destruct (Core.ans (insts s i)) as [[|]|]; try reflexivity.
-    destruct (Core.is_live val upd (cv s) i); reflexivity.
+  - destruct (disc (conns s c)); reflexivity.
+  - destruct (disc (conns s c)); reflexivity.
+  - destruct (disc (conns s c)); reflexivity.
+  - destruct (Core.is_done (conns s c)); reflexivity.
+  - destruct (Nat.ltb i (next s) && Core.unanswered (insts s i)); reflexivity.
   - reflexivity.
+  - reflexivity.
+  - reflexivity.
+  - reflexivity.
+  - reflexivity.
+  - destruct (cqueue (conns s c)) as [|it q] eqn:Eq.
+    + unfold Core.conn_task. cbv zeta. rewrite Eq. reflexivity.
+    + destruct (conn_task s c) as [[[k oi] nx] ms]. reflexivity.
 Qed.
 
 Lemma d_step_inv : forall s o, CInv (cv s) -> CInv (cv (fst (step s o))).
 Proof. intros s o H. rewrite d_step_cv. apply d_fold_inv, H. Qed.
 
-Lemma d_exec_inv : forall t ops, CInv (cv (fst (exec t ops))).
+Lemma d_shape_acts : forall s c it q k oi nx ms, d_shape s c it q k oi nx ms ->
+  existsb d_arune (ta k) = false /\ existsb d_areacc (ta k) = false /\
+  (forall j, existsb (d_anop j) (ta k) = false) /\
+  (forall j, existsb (d_asubs j) (ta k) = true -> j = next s /\ nx = S (next s)) /\
+  (forall j, existsb (d_arunc j) (ta k) = true -> it = QSub j) /\
+  (forall j, existsb (d_adisp j) (ta k) = true -> (oi = Some j /\ it <> QDispose) \/ (it = QDispose /\ In j (insts_of s c))).
 Proof.
-  intros t ops. induction ops as [|o ops IH] using rev_ind.
-  - cbn. apply Conv.init_inv.
-  - destruct (d_exec_snoc' t ops o) as [-> _]. apply d_step_inv, IH.
+  intros s c it q k oi nx ms Sh. destruct Sh as [k Hc Ha Hk Ho Hit|k i pre la nx ms Hp Ha Hla Hinv Hown Ho Hit|k i pre Hlt Hown Hg Hpre Ha Htx Hty Ho|k Hit Ha Hk Ho Hy].
+  - rewrite Ha. cbn. repeat split; intros; discriminate.
+  - rewrite Ha. rewrite !existsb_app, (d_hact_noE _ _ _ Hla), (d_hact_noR _ _ _ Hla).
+    assert (P : pre = [] \/ (it = QSub i /\ pre = [Conv.RunC upd i]) \/ (i = next s /\ nx = S (next s) /\ pre = [Conv.Subscribe upd i])).
+    { destruct Hp as [(_ & _ & _ & _ & [(P & _)|P])|(P1 & _ & P2 & _ & P3 & _)]; auto. }
+    split; [|split; [|split; [|split; [|split]]]].
+    + destruct P as [->|[(_ & ->)|(_ & _ & ->)]]; reflexivity.
+    + destruct P as [->|[(_ & ->)|(_ & _ & ->)]]; reflexivity.
+    + intros j. rewrite existsb_app, (d_hact_noN _ _ _ j Hla). destruct P as [->|[(_ & ->)|(_ & _ & ->)]]; reflexivity.
+    + intros j. rewrite existsb_app, (d_hact_noS _ _ _ j Hla). destruct P as [->|[(_ & ->)|(P1 & P2 & ->)]]; cbn; try discriminate.
+      rewrite !orb_false_r. intros E. apply Nat.eqb_eq in E. subst. auto.
+    + intros j. rewrite existsb_app, (d_hact_noC _ _ _ j Hla). destruct P as [->|[(P1 & ->)|(_ & _ & ->)]]; cbn; try discriminate.
+      rewrite !orb_false_r. intros E. apply Nat.eqb_eq in E. subst. auto.
+    + intros j. rewrite existsb_app. destruct (Nat.eq_dec j i) as [->|Hne].
+      * intros _. left. auto.
+      * rewrite (d_hact_noD_other _ _ _ j Hne Hla). destruct P as [->|[(P1 & ->)|(_ & _ & ->)]]; cbn; discriminate.
+  - rewrite Ha. destruct Hpre as [(-> & ->)|(-> & ->)]; cbn; repeat split; intros; try discriminate.
+    rewrite orb_false_r in H. apply Nat.eqb_eq in H. subst. reflexivity.
+  - rewrite Ha. repeat split; intros; try (apply d_existsb_map_false; reflexivity);
+      try (rewrite d_existsb_map_false in H by reflexivity; discriminate).
+    right. split; [exact Hit|]. rewrite d_disp_map in H. apply Conv.mem_In. exact H.
 Qed.
 
-(* ---------- case analysis of one step ---------- *)
-Notation cur := Core.cur.
-Notation cqueue := Core.cqueue.
-Notation direct := Core.direct.
-Notation disc := Core.disc.
-Notation owner := Core.owner.
-Notation acb := Core.acb.
-Notation rcb := Core.rcb.
-Notation acc := Core.acc.
-Notation ans := Core.ans.
-Notation lost := Core.lost.
-Notation mqsub := (Core.mqsub val upd).
-Notation getreq := (Core.getreq val upd).
-Notation INop := (Conv.INop val upd).
+(* the instance a task works on is an old one of its connection, or the new one *)
+Lemma d_shape_oi : forall s c it q k oi nx ms i, d_W1 s -> d_shape s c it q k oi nx ms -> oi = Some i ->
+  owner (ty k) = c /\ ((i < next s /\ owner (insts s i) = c) \/ (i = next s /\ nx = S (next s))).
+Proof.
+  intros s c it q k oi nx ms i W Sh E.
+  destruct Sh as [k Hc Ha Hk Ho Hit|k i0 pre la nx ms Hp Ha Hla Hinv Hown Ho Hit|k i0 pre Hlt Hown Hg Hpre Ha Htx Hty Ho|k Hit Ha Hk Ho Hy].
+  - discriminate.
+  - injection E as ->. split; [exact Hown|]. destruct Hp as [(P1 & P2 & _)|(P1 & _ & P2 & _)]; [left|right; auto].
+    destruct (d_a_cur s W c i P2) as (_ & X & _). auto.
+  - injection E as ->. rewrite Hty. auto.
+  - destruct (Hy i E) as (Y1 & _). split; [exact Y1|]. left. destruct (d_a_cur s W c i E) as (X1 & X2 & _). auto.
+Qed.
 
-Ltac d_step_cases s o :=
-  destruct o as [c id|c id k|c|i g| |u| | |c]; cbn [Core.step Core.acts_of];
+Lemma d_shape_next : forall s c it q k oi nx ms, d_shape s c it q k oi nx ms ->
+  (nx = next s /\ ms = mqsub s) \/ (nx = S (next s) /\ ms = true /\ oi = Some (next s)).
+Proof.
+  intros s c it q k oi nx ms Sh.
+  destruct Sh as [k Hc Ha Hk Ho Hit|k i0 pre la nx ms Hp Ha Hla Hinv Hown Ho Hit|k i0 pre Hlt Hown Hg Hpre Ha Htx Hty Ho|k Hit Ha Hk Ho Hy]; auto.
+  destruct Hp as [(P1 & P2 & P3 & P4 & _)|(P1 & _ & P2 & P3 & _)]; [left; auto|right; subst; auto].
+Qed.
+
+(* ---------- case analysis of a step that is not a connection grant ---------- *)
+Ltac d_ng_cases s o :=
+  destruct o as [c id|c id k|c|c t|i g| |u| | | |c]; cbn [Core.step Core.acts_of];
   [ destruct (Core.disc (conns s c)) eqn:Edisc
   | destruct (Core.disc (conns s c)) eqn:Edisc
   | destruct (Core.disc (conns s c)) eqn:Edisc
+  | destruct (Core.is_done (conns s c)) eqn:Edone
   | destruct (Nat.ltb i (next s) && Core.unanswered (insts s i)) eqn:Eun
   | destruct (getreq s && negb (Conv.answered val upd (cv s))) eqn:Eget
   | destruct (mqsub s) eqn:Emq
   | destruct (mqsub s) eqn:Emq
+  | destruct (mqsub s) eqn:Emq
   |
-  | destruct (Core.cqueue (conns s c)) as [|[id|id k|i|i|] q] eqn:Eq;
-    [ | destruct (Core.cur (conns s c)) as [i|] eqn:Ecur;
-        [ destruct (Core.acc (insts s i)) as [[|]|] eqn:Eacc;
-          [ destruct (Core.is_live val upd (cv s) i) eqn:Elive;
-            [ let Era := fresh "Era" in let n := fresh "n" in
-              destruct (d_respond_acts_cases i (csubs (cv s) i) [id]) as [Era|[n Era]]; rewrite Era | ] | | ] | ]
-      | destruct (Core.cur (conns s c)) as [i|] eqn:Ecur;
-        [ destruct (Nat.eqb_spec k 0) as [Hk|Hk];
-          [ subst k; cbn [Nat.leb andb]
-          | replace (Nat.leb 1 k) with true by (symmetry; apply Nat.leb_le; lia); cbn [andb];
-            destruct (Nat.leb k (Core.direct (conns s c))) eqn:Ele; cbn [andb];
-            [ destruct (Nat.eqb (Core.direct (conns s c) - k) 0) eqn:Ez | ] ]
-        | ]
-      | destruct (Core.is_gone val upd (cv s) i) eqn:Egone;
-        [ | destruct (Core.ans (insts s i)) as [[|]|] eqn:Eans;
-            [ destruct (Core.is_live val upd (cv s) i) eqn:Elive;
-              [ let Era := fresh "Era" in let n := fresh "n" in
-                destruct (d_respond_acts_cases i (csubs (cv s) i) (Core.acb (insts s i))) as [Era|[n Era]]; rewrite Era | ]
-            | destruct (Nat.eqb (Core.direct (conns s c) - length (Core.acb (insts s i))) 0) eqn:Eleft | ] ]
-      | destruct (negb (Core.is_live val upd (cv s) i) && Core.is_live val upd (cstep (cv s) (Conv.RunC upd i)) i) eqn:Ewl;
-        [ let Era := fresh "Era" in let n := fresh "n" in
-          destruct (d_respond_acts_cases i (csubs (cstep (cv s) (Conv.RunC upd i)) i) (Core.rcb (insts s i))) as [Era|[n Era]];
-          rewrite Era | ]
-      | destruct (Core.cur (conns s c)) as [i|] eqn:Ecur ] ];
-  cbn [fst snd].
-
+  | ]; cbn [fst snd].
 
 Ltac d_proj := cbn [Core.cv Core.conns Core.insts Core.next Core.mqsub Core.getreq
-                    Core.cqueue Core.cur Core.direct Core.disc Core.owner Core.acb Core.rcb Core.acc Core.ans Core.lost
-                    Core.with_q Core.with_cbs Core.push_q].
+                    Core.cqueue Core.cur Core.direct Core.disc Core.tokset Core.tok
+                    Core.owner Core.acb Core.rcb Core.acc Core.inflight Core.ans Core.reflag Core.rq Core.lost
+                    Core.with_q Core.push_q Core.upd_y Core.with_cd].
 Ltac d_projH H := cbn [Core.cv Core.conns Core.insts Core.next Core.mqsub Core.getreq
-                    Core.cqueue Core.cur Core.direct Core.disc Core.owner Core.acb Core.rcb Core.acc Core.ans Core.lost
-                    Core.with_q Core.with_cbs Core.push_q] in H.
+                    Core.cqueue Core.cur Core.direct Core.disc Core.tokset Core.tok
+                    Core.owner Core.acb Core.rcb Core.acc Core.inflight Core.ans Core.reflag Core.rq Core.lost
+                    Core.with_q Core.push_q Core.upd_y Core.with_cd] in H.
 Ltac d_eqb :=
   repeat match goal with
   | |- context [Nat.eqb ?a ?b] =>
@@ -376,16 +1144,15 @@ Ltac d_eqb :=
   | H : context [Nat.eqb ?a ?b] |- _ =>
       let He := fresh "Heq" in let Hn := fresh "Hne" in destruct (Nat.eqb_spec a b) as [He|Hn]; [first [subst a|subst b|idtac]|]
   end.
+Ltac d_acts := cbn [existsb d_adisp d_asubs d_arunc d_arune d_anop d_areacc]; rewrite ?orb_false_r.
 
-
-
-(* ---------- fan-out, pass-through, instances of a connection ---------- *)
+(* ---------- fan-out, pass-through ---------- *)
 Definition d_fanl (σ σ' : cst) (own : nat -> nat) (l : list nat) (f : nat -> Core.conn) : nat -> Core.conn :=
-  fold_left (fun g i => if Core.grew val upd σ σ' i then Core.set_conn g (own i) (Core.push_q (g (own i)) (Core.QSub i)) else g) l f.
+  fold_left (fun g i => if Core.grew val upd σ σ' i then Core.set_conn g (own i) (Core.push_q (g (own i)) (QSub i)) else g) l f.
 
 Lemma d_fanl_spec : forall σ σ' own l f c,
   cqueue (d_fanl σ σ' own l f c) =
-    cqueue (f c) ++ map Core.QSub (filter (fun i => Core.grew val upd σ σ' i && Nat.eqb (own i) c) l) /\
+    cqueue (f c) ++ map QSub (filter (fun i => Core.grew val upd σ σ' i && Nat.eqb (own i) c) l) /\
   cur (d_fanl σ σ' own l f c) = cur (f c) /\ direct (d_fanl σ σ' own l f c) = direct (f c) /\
   disc (d_fanl σ σ' own l f c) = disc (f c).
 Proof.
@@ -393,7 +1160,7 @@ Proof.
   - cbn. rewrite app_nil_r. auto.
   - unfold d_fanl in *. cbn [fold_left filter].
     destruct (Core.grew val upd σ σ' i) eqn:Eg; cbn [andb].
-    + destruct (IH (Core.set_conn f (own i) (Core.push_q (f (own i)) (Core.QSub i))) c) as (A & B & C & D).
+    + destruct (IH (Core.set_conn f (own i) (Core.push_q (f (own i)) (QSub i))) c) as (A & B & C & D).
       rewrite A, B, C, D. unfold Core.set_conn. rewrite (Nat.eqb_sym (own i) c).
       destruct (Nat.eqb_spec c (own i)) as [->|Hne]; cbn [Core.push_q Core.with_q Core.cqueue Core.cur Core.direct Core.disc map].
       * rewrite <- app_assoc. auto.
@@ -403,14 +1170,14 @@ Qed.
 
 Lemma d_fan_spec : forall σ σ' own n f c,
   cqueue (Core.fan val upd σ σ' own n f c) =
-    cqueue (f c) ++ map Core.QSub (filter (fun i => Core.grew val upd σ σ' i && Nat.eqb (own i) c) (seq 0 n)) /\
+    cqueue (f c) ++ map QSub (filter (fun i => Core.grew val upd σ σ' i && Nat.eqb (own i) c) (seq 0 n)) /\
   cur (Core.fan val upd σ σ' own n f c) = cur (f c) /\ direct (Core.fan val upd σ σ' own n f c) = direct (f c) /\
   disc (Core.fan val upd σ σ' own n f c) = disc (f c).
 Proof. intros. apply (d_fanl_spec σ σ' own (seq 0 n) f c). Qed.
 
 Definition d_passq (σ : cst) (own : nat -> nat) (c : nat) : list Core.qitem :=
   match Core.nop_head val upd σ with
-  | Some i => if Core.is_closed val upd σ i then [] else if Nat.eqb (own i) c then [Core.QAccess i] else []
+  | Some i => if Core.is_closed val upd σ i then [] else if Nat.eqb (own i) c then [QAccess i] else []
   | None => []
   end.
 Lemma d_pass_spec : forall σ own f c,
@@ -427,7 +1194,7 @@ Qed.
 
 (* the queue of a connection after a cache-worker grant *)
 Definition d_esq (s : st) (σ' : cst) (c : nat) : list Core.qitem :=
-  map Core.QSub (filter (fun i => Core.grew val upd (cv s) σ' i && Nat.eqb (owner (insts s i)) c) (seq 0 (next s)))
+  map QSub (filter (fun i => Core.grew val upd (cv s) σ' i && Nat.eqb (owner (insts s i)) c) (seq 0 (next s)))
   ++ d_passq (cv s) (fun i => owner (insts s i)) c.
 Lemma d_es_conn : forall s σ' c,
   let x := Core.pass val upd (cv s) (fun i => owner (insts s i))
@@ -442,7 +1209,7 @@ Proof.
   rewrite A, B, C, D, A', B', C', D'. unfold d_esq. rewrite app_assoc. auto.
 Qed.
 
-Lemma d_in_esq_sub : forall s σ' c i, In (Core.QSub i) (d_esq s σ' c) ->
+Lemma d_in_esq_sub : forall s σ' c i, In (QSub i) (d_esq s σ' c) ->
   i < next s /\ owner (insts s i) = c /\ Core.grew val upd (cv s) σ' i = true.
 Proof.
   intros s σ' c i H. unfold d_esq in H. apply in_app_or in H as [H|H].
@@ -452,7 +1219,7 @@ Proof.
     destruct (Core.is_closed val upd (cv s) j); [destruct H|]. destruct (Nat.eqb (owner (insts s j)) c); [|destruct H].
     destruct H as [H|[]]. discriminate.
 Qed.
-Lemma d_in_esq_acc : forall s σ' c i, In (Core.QAccess i) (d_esq s σ' c) ->
+Lemma d_in_esq_acc : forall s σ' c i, In (QAccess i) (d_esq s σ' c) ->
   Core.nop_head val upd (cv s) = Some i /\ owner (insts s i) = c.
 Proof.
   intros s σ' c i H. unfold d_esq in H. apply in_app_or in H as [H|H].
@@ -461,7 +1228,7 @@ Proof.
     destruct (Core.is_closed val upd (cv s) j); [destruct H|]. destruct (Nat.eqb_spec (owner (insts s j)) c); [|destruct H].
     destruct H as [H|[]]. injection H as ->. auto.
 Qed.
-Lemma d_in_esq_other : forall s σ' c x, In x (d_esq s σ' c) -> exists i, x = Core.QSub i \/ x = Core.QAccess i.
+Lemma d_in_esq_other : forall s σ' c x, In x (d_esq s σ' c) -> exists i, x = QSub i \/ x = QAccess i.
 Proof.
   intros s σ' c x H. unfold d_esq in H. apply in_app_or in H as [H|H].
   - apply in_map_iff in H as (j & E & H). exists j. left. auto.
@@ -472,94 +1239,6 @@ Qed.
 Lemma d_nop_head_in : forall σ i, Core.nop_head val upd σ = Some i -> exists q, cqe σ = INop i :: q.
 Proof.
   intros σ i. unfold Core.nop_head. destruct (cqe σ) as [|[] q]; try discriminate. intros H. injection H as ->. eauto.
-Qed.
-
-Lemma d_insts_of_in : forall s c j, In j (Core.insts_of val upd s c) <-> j < next s /\ owner (insts s j) = c.
-Proof.
-  intros s c j. unfold Core.insts_of. rewrite filter_In, in_seq, Nat.eqb_eq. split; intros [A B]; split; auto; lia.
-Qed.
-Lemma d_disp_map : forall j l, existsb (d_adisp j) (map (fun i => Conv.Dispose upd i true) l) = Conv.mem j l.
-Proof.
-  intros j l. unfold Conv.mem. induction l as [|i l IH]; cbn; [reflexivity|]. rewrite IH, (Nat.eqb_sym i j). reflexivity.
-Qed.
-Lemma d_mem_false_iff : forall j l, Conv.mem j l = false <-> ~ In j l.
-Proof.
-  intros j l. rewrite <- Conv.mem_In. destruct (Conv.mem j l); split; intros; try discriminate; try reflexivity; try congruence.
-Qed.
-
-(* ---------- frame facts ---------- *)
-Lemma d_next_mono : forall s o, next s <= next (fst (step s o)).
-Proof. intros s o. d_step_cases s o; d_proj; lia. Qed.
-
-Lemma d_owner_frame : forall s o j, j < next s -> owner (insts (fst (step s o)) j) = owner (insts s j).
-Proof.
-  intros s o j Hj. d_step_cases s o; d_proj; try reflexivity; unfold Core.set_inst; d_eqb; d_proj; try reflexivity; try lia.
-Qed.
-
-(* ---------- structural invariant ---------- *)
-Record d_W1 (s : st) : Prop := {
-  a_inv : CInv (cv s);
-  a_fresh_inst : forall i, next s <= i -> insts s i = Core.inst0;
-  a_fresh_sub : forall i, next s <= i ->
-    subscribed (csubs (cv s) i) = false /\ ccq (csubs (cv s) i) = [] /\ gone (csubs (cv s) i) = false;
-  a_sub : forall i, i < next s -> subscribed (csubs (cv s) i) = true;
-  a_cur : forall c i, cur (conns s c) = Some i -> i < next s /\ owner (insts s i) = c /\ gone (csubs (cv s) i) = false;
-  a_gone : forall i, i < next s -> cur (conns s (owner (insts s i))) = Some i \/ gone (csubs (cv s) i) = true;
-  a_qacc : forall c i, In (Core.QAccess i) (cqueue (conns s c)) -> i < next s /\ owner (insts s i) = c;
-  a_qsub : forall c i, In (Core.QSub i) (cqueue (conns s c)) -> i < next s /\ owner (insts s i) = c;
-  a_nop : forall i, In (INop i) (cqe (cv s)) -> i < next s;
-  a_mqsub : mqsub s = false -> next s = 0
-}.
-
-(* facts about the instance a branch works on *)
-Ltac d_facts W :=
-  try match goal with
-  | Ecur : Core.cur (conns ?s ?c) = Some ?i |- _ =>
-      let A := fresh "Fcur" in pose proof (a_cur s W c i Ecur) as A; destruct A as (Flt & Fown & Fng)
-  end;
-  try match goal with
-  | Eq : Core.cqueue (conns ?s ?c) = Core.QAccess ?i :: ?q |- _ =>
-      let A := fresh "Fqa" in
-      assert (A : In (Core.QAccess i) (Core.cqueue (conns s c))) by (rewrite Eq; left; reflexivity);
-      apply (a_qacc s W c i) in A; destruct A as (Flt & Fown)
-  | Eq : Core.cqueue (conns ?s ?c) = Core.QSub ?i :: ?q |- _ =>
-      let A := fresh "Fqs" in
-      assert (A : In (Core.QSub i) (Core.cqueue (conns s c))) by (rewrite Eq; left; reflexivity);
-      apply (a_qsub s W c i) in A; destruct A as (Flt & Fown)
-  end;
-  try match goal with
-  | Eun : Nat.ltb ?i (next ?s) && _ = true |- _ =>
-      let A := fresh in pose proof Eun as A; apply andb_prop in A; destruct A as (Flt & Fun); apply Nat.ltb_lt in Flt
-  end.
-
-Ltac d_acts := cbn [existsb d_adisp d_asubs d_arunc d_arune d_anop]; rewrite ?d_existsb_map_false by reflexivity;
-               rewrite ?orb_false_r.
-
-Lemma d_w1_fresh_inst : forall s o, d_W1 s -> forall i, next (fst (step s o)) <= i -> insts (fst (step s o)) i = Core.inst0.
-Proof.
-  intros s o W. pose proof (a_fresh_inst s W) as F.
-  d_step_cases s o; try exact F; d_facts W; intros j Hj; d_proj; d_projH Hj; unfold Core.set_inst; d_eqb; try (apply F; lia); try lia.
-Qed.
-
-Lemma d_w1_fresh_sub : forall s o, d_W1 s -> forall j, next (fst (step s o)) <= j ->
-  subscribed (csubs (cv (fst (step s o))) j) = false /\ ccq (csubs (cv (fst (step s o))) j) = [] /\
-  gone (csubs (cv (fst (step s o))) j) = false.
-Proof.
-  intros s o W. pose proof (a_fresh_sub s W) as F. pose proof (a_inv s W) as HI.
-  d_step_cases s o; try exact F; d_facts W; intros j Hj; d_proj; d_projH Hj.
-  all: (destruct (F j) as (Fs & Fc & Fg); [lia|]);
-       (split; [rewrite d_fold_subscribed, Fs; d_acts; d_eqb; try reflexivity; try lia
-               |split; [rewrite d_fold_cq_unsub; try assumption; d_acts; d_eqb; try reflexivity; try lia
-                       |rewrite d_fold_gone, Fg; d_acts; d_eqb; try reflexivity; try lia]]).
-  all: rewrite d_disp_map; apply d_mem_false_iff; rewrite d_insts_of_in; lia.
-Qed.
-
-Lemma d_w1_sub : forall s o, d_W1 s -> forall j, j < next (fst (step s o)) -> subscribed (csubs (cv (fst (step s o))) j) = true.
-Proof.
-  intros s o W. pose proof (a_sub s W) as F.
-  d_step_cases s o; try exact F; intros j Hj; d_proj; d_projH Hj; rewrite d_fold_subscribed.
-  all: try (rewrite F by lia; reflexivity).
-  d_acts. d_eqb; [apply orb_true_r|]. rewrite F by lia. reflexivity.
 Qed.
 
 Ltac d_es_look c' :=
@@ -575,162 +1254,67 @@ Ltac d_es_lookH H c' :=
       destruct (d_es_conn s σ' c') as (Q & C & D & E); cbv zeta in Q, C, D, E; rewrite ?Q, ?C, ?D, ?E in H
   end.
 
-Lemma d_w1_cur : forall s o, d_W1 s -> forall c' i', cur (conns (fst (step s o)) c') = Some i' ->
-  i' < next (fst (step s o)) /\ owner (insts (fst (step s o)) i') = c' /\ gone (csubs (cv (fst (step s o))) i') = false.
+Definition d_nongrant (o : Core.op upd) : Prop := forall c, o <> GrantConn c.
+
+(* ---------- frame facts of steps that are not connection grants ---------- *)
+Lemma d_ng_next : forall s o, d_nongrant o -> next (fst (step s o)) = next s /\ mqsub (fst (step s o)) = mqsub s.
+Proof. intros s o Hng. d_ng_cases s o; d_proj; auto. exfalso. eapply Hng. reflexivity. Qed.
+
+Lemma d_ng_inst : forall s o j, d_nongrant o ->
+  let y := insts (fst (step s o)) j in let y0 := insts s j in
+  owner y = owner y0 /\ acb y = acb y0 /\ rcb y = rcb y0 /\ acc y = acc y0 /\ inflight y = inflight y0 /\ reflag y = reflag y0 /\
+  rq y = rq y0 /\ lost y = lost y0 /\ (y = y0 \/ j < next s) /\
+  (ans y = ans y0 \/ exists g, o = Core.MqAccess upd j g /\ ans y = Some g /\ Core.unanswered y0 = true /\ j < next s).
 Proof.
-  intros s o W c' i'. pose proof (a_cur s W) as F.
-  d_step_cases s o; try (apply F); d_facts W; d_proj; intros Hc; try d_es_lookH Hc c'.
-  all: unfold Core.set_conn in Hc; d_eqb; d_projH Hc; try discriminate;
-       try (rewrite Ecur in Hc); try discriminate; try (injection Hc as <-);
-       try (destruct (F _ _ Hc) as (A & B & C)).
-  all: (split; [try lia|split; [unfold Core.set_inst; d_eqb; d_proj; try congruence; try lia
-                         |rewrite d_fold_gone; d_acts; rewrite ?d_disp_map; d_eqb; rewrite ?orb_false_r; try congruence]]).
-  - apply (a_fresh_sub s W). lia.
-  - rewrite C. apply d_mem_false_iff. rewrite d_insts_of_in. intros [_ X]. congruence.
-  - rewrite C. apply d_mem_false_iff. rewrite d_insts_of_in. intros [_ X]. congruence.
+  intros s o j Hng. d_ng_cases s o; d_proj; cbv zeta; try (repeat split; auto; fail).
+  - apply andb_prop in Eun as [E1 E2]. apply Nat.ltb_lt in E1. unfold Core.set_inst. destruct (Nat.eqb_spec j i) as [->|Hne]; d_proj.
+    + repeat split; auto. right. exists g. auto.
+    + repeat split; auto.
+  - exfalso. eapply Hng. reflexivity.
 Qed.
 
-Lemma d_w1_gone : forall s o, d_W1 s -> forall j, j < next (fst (step s o)) ->
-  cur (conns (fst (step s o)) (owner (insts (fst (step s o)) j))) = Some j \/ gone (csubs (cv (fst (step s o))) j) = true.
+Lemma d_ng_conn : forall s o c', d_nongrant o ->
+  cur (conns (fst (step s o)) c') = cur (conns s c') /\ direct (conns (fst (step s o)) c') = direct (conns s c') /\
+  (disc (conns s c') = true -> disc (conns (fst (step s o)) c') = true) /\
+  (disc (conns (fst (step s o)) c') = disc (conns s c') \/ (o = Core.Disc upd c' /\ disc (conns s c') = false)).
 Proof.
-  intros s o W j Hj. pose proof (a_gone s W) as F.
-  destruct (Nat.lt_ge_cases j (next s)) as [Hlt|Hge].
-  - rewrite (d_owner_frame s o j Hlt). revert Hj.
-    d_step_cases s o; try (intros _; apply F; assumption); d_facts W; d_proj; intros _; try d_es_look (owner (insts s j)).
-    all: destruct (F j Hlt) as [Fc|Fg]; [|right; rewrite d_fold_gone, Fg; reflexivity].
-    all: try (left; exact Fc).
-    all: destruct (Nat.eq_dec (owner (insts s j)) c) as [Hoc|Hoc];
-         [|left; unfold Core.set_conn; destruct (Nat.eqb_spec (owner (insts s j)) c); [contradiction|exact Fc]].
-    all: rewrite Hoc in *; unfold Core.set_conn; rewrite Nat.eqb_refl; d_proj; try (left; exact Fc).
-    all: try (rewrite Fc in Ecur; try discriminate; injection Ecur as <-).
-    all: try (left; reflexivity).
-    all: try (right; rewrite d_fold_gone; d_acts; rewrite ?d_disp_map, ?Nat.eqb_refl; apply orb_true_r).
-    + right. destruct (F i Flt) as [Fi|Fi]; [|unfold Core.is_gone in Egone; congruence].
-      rewrite Fown, Fc in Fi. injection Fi as <-. rewrite d_fold_gone. d_acts. rewrite Nat.eqb_refl. apply orb_true_r.
-    + right. rewrite d_fold_gone, d_disp_map. replace (Conv.mem j (Core.insts_of val upd s c)) with true; [apply orb_true_r|].
-      symmetry. apply Conv.mem_In. apply d_insts_of_in. auto.
-  - revert Hj. d_step_cases s o; d_proj; try lia.
-    intros Hj. assert (j = next s) by lia. subst j. left. unfold Core.set_inst, Core.set_conn. d_proj. rewrite !Nat.eqb_refl. d_proj.
-    rewrite ?Nat.eqb_refl. reflexivity.
+  intros s o c' Hng. d_ng_cases s o; d_proj; try d_es_look c'; try (repeat split; auto; fail).
+  all: try (unfold Core.set_conn; destruct (Nat.eqb_spec c' c) as [->|Hne]; d_proj; repeat split; auto; fail).
+  exfalso. eapply Hng. reflexivity.
+Qed.
+
+Lemma d_ng_acts : forall s o j, d_nongrant o ->
+  existsb (d_adisp j) (acts_of s o) = false /\ existsb (d_asubs j) (acts_of s o) = false /\
+  existsb (d_arunc j) (acts_of s o) = false /\ (existsb (d_anop j) (acts_of s o) = true -> j < next s) /\
+  (existsb d_arune (acts_of s o) = true -> o = Core.GrantEs upd \/ mqsub s = false) /\
+  (existsb d_areacc (acts_of s o) = true -> o = Core.MqReacc upd).
+Proof.
+  intros s o j Hng. destruct o; cbn [Core.acts_of]; try (cbn; repeat split; intros; auto; discriminate).
+  - destruct (Nat.ltb i (next s) && Core.unanswered (insts s i)) eqn:E; cbn; repeat split; intros; auto; try discriminate.
+    rewrite orb_false_r in H. apply Nat.eqb_eq in H. subst. apply andb_prop in E as [E _]. apply Nat.ltb_lt in E. exact E.
+  - destruct (getreq s && negb (Conv.answered val upd (cv s))); cbn; repeat split; intros; auto; discriminate.
+  - destruct (mqsub s); cbn; repeat split; intros; auto; discriminate.
+  - destruct (mqsub s); cbn; repeat split; intros; auto; discriminate.
+  - destruct (mqsub s); cbn; repeat split; intros; auto; discriminate.
+  - exfalso. eapply Hng. reflexivity.
 Qed.
 
 (* where the items of a connection queue come from *)
-Lemma d_queue_new : forall s o c' x, In x (cqueue (conns (fst (step s o)) c')) ->
+Lemma d_queue_new : forall s o c' x, d_nongrant o -> In x (cqueue (conns (fst (step s o)) c')) ->
   In x (cqueue (conns s c')) \/
   match o with
-  | Core.CSub _ c id => x = Core.QReq id /\ c' = c /\ disc (conns s c) = false
-  | Core.CUnsub _ c id k => x = Core.QUnsub id k /\ c' = c /\ disc (conns s c) = false
-  | Core.Disc _ c => x = Core.QDispose /\ c' = c /\ disc (conns s c) = false
+  | Core.CSub _ c id => x = QReq id /\ c' = c /\ disc (conns s c) = false
+  | Core.CUnsub _ c id k => x = QUnsub id k /\ c' = c /\ disc (conns s c) = false
+  | Core.ConnToken _ c t => x = QToken t /\ c' = c
+  | Core.Disc _ c => x = QDispose /\ c' = c /\ disc (conns s c) = false
   | Core.GrantEs _ => In x (d_esq s (cfold [Conv.RunE upd] (cv s)) c')
   | _ => False
   end.
 Proof.
-  intros s o c' x. d_step_cases s o; d_proj; try (intros H; left; exact H); try d_es_look c'.
-  all: unfold Core.set_conn; d_eqb; d_proj; try (intros H; left; exact H).
-  all: try (rewrite Eq; intros H; left; right; exact H).
-  all: intros H; apply in_app_or in H as [H|H]; [left; exact H|right]; try exact H.
-  all: destruct H as [<-|[]]; auto.
-Qed.
-
-Lemma d_w1_qacc : forall s o, d_W1 s -> forall c' i', In (Core.QAccess i') (cqueue (conns (fst (step s o)) c')) ->
-  i' < next (fst (step s o)) /\ owner (insts (fst (step s o)) i') = c'.
-Proof.
-  intros s o W c' i' H.
-  assert (K : i' < next s /\ owner (insts s i') = c').
-  { apply d_queue_new in H as [H|H]; [apply (a_qacc s W); exact H|].
-    destruct o; try contradiction; try (destruct H as (H & _); discriminate).
-    apply d_in_esq_acc in H as [H1 H2]. split; [|exact H2].
-    apply d_nop_head_in in H1 as [q Hq]. apply (a_nop s W). rewrite Hq. left. reflexivity. }
-  destruct K as [K1 K2]. pose proof (d_next_mono s o). rewrite d_owner_frame by assumption. split; [lia|assumption].
-Qed.
-
-Lemma d_w1_qsub : forall s o, d_W1 s -> forall c' i', In (Core.QSub i') (cqueue (conns (fst (step s o)) c')) ->
-  i' < next (fst (step s o)) /\ owner (insts (fst (step s o)) i') = c'.
-Proof.
-  intros s o W c' i' H.
-  assert (K : i' < next s /\ owner (insts s i') = c').
-  { apply d_queue_new in H as [H|H]; [apply (a_qsub s W); exact H|].
-    destruct o; try contradiction; try (destruct H as (H & _); discriminate).
-    apply d_in_esq_sub in H as (H1 & H2 & _). auto. }
-  destruct K as [K1 K2]. pose proof (d_next_mono s o). rewrite d_owner_frame by assumption. split; [lia|assumption].
-Qed.
-
-Lemma d_w1_nop : forall s o, d_W1 s -> forall j, In (INop j) (cqe (cv (fst (step s o)))) -> j < next (fst (step s o)).
-Proof.
-  intros s o W j H. pose proof (d_next_mono s o) as M. rewrite d_step_cv in H. apply d_fold_qe_back in H as [H|H].
-  - apply (a_nop s W) in H. lia.
-  - revert H M. d_step_cases s o; d_facts W; d_proj; d_acts; rewrite ?d_existsb_map_false by reflexivity; try discriminate.
-    intros H _. apply Nat.eqb_eq in H. subst. exact Flt.
-Qed.
-
-Lemma d_w1_mqsub : forall s o, d_W1 s -> mqsub (fst (step s o)) = false -> next (fst (step s o)) = 0.
-Proof.
-  intros s o W. pose proof (a_mqsub s W) as F. d_step_cases s o; d_proj; try exact F; try discriminate.
-Qed.
-
-Lemma d_w1_step : forall s o, d_W1 s -> d_W1 (fst (step s o)).
-Proof.
-  intros s o W. constructor.
-  - apply d_step_inv, (a_inv s W).
-  - apply d_w1_fresh_inst, W.
-  - apply d_w1_fresh_sub, W.
-  - apply d_w1_sub, W.
-  - apply d_w1_cur, W.
-  - apply d_w1_gone, W.
-  - apply d_w1_qacc, W.
-  - apply d_w1_qsub, W.
-  - apply d_w1_nop, W.
-  - apply d_w1_mqsub, W.
-Qed.
-
-Lemma d_w1_init : forall t, d_W1 (Core.init val upd d t).
-Proof.
-  intros t. constructor; cbn; intros; try discriminate; try contradiction; try lia; auto.
-  apply Conv.init_inv.
-Qed.
-
-Lemma d_w1_exec : forall t ops, d_W1 (fst (exec t ops)).
-Proof.
-  intros t ops. induction ops as [|o ops IH] using rev_ind.
-  - apply d_w1_init.
-  - destruct (d_exec_snoc' t ops o) as [-> _]. apply d_w1_step, IH.
-Qed.
-
-(* ---------- callbacks and verdicts ---------- *)
-Lemma d_set_conn_eq : forall f c x, Core.set_conn f c x c = x.
-Proof. intros. unfold Core.set_conn. rewrite Nat.eqb_refl. reflexivity. Qed.
-Lemma d_set_conn_neq : forall f c x c', c' <> c -> Core.set_conn f c x c' = f c'.
-Proof. intros f c x c' H. unfold Core.set_conn. apply Nat.eqb_neq in H. rewrite H. reflexivity. Qed.
-Lemma d_set_inst_eq : forall f i x, Core.set_inst f i x i = x.
-Proof. intros. unfold Core.set_inst. rewrite Nat.eqb_refl. reflexivity. Qed.
-Lemma d_set_inst_neq : forall f i x i', i' <> i -> Core.set_inst f i x i' = f i'.
-Proof. intros f i x i' H. unfold Core.set_inst. apply Nat.eqb_neq in H. rewrite H. reflexivity. Qed.
-
-Record d_W3 (s : st) : Prop := {
-  c_accans : forall i, acc (insts s i) = Some true -> ans (insts s i) = Some true;
-  c_rcb : forall i, rcb (insts s i) <> [] -> acc (insts s i) = Some true /\ loaded (csubs (cv s) i) = false;
-  c_acb : forall i, acc (insts s i) = Some true -> acb (insts s i) = [];
-  c_D : forall c i, cur (conns s c) = Some i -> acc (insts s i) <> Some true -> direct (conns s c) <= length (acb (insts s i));
-  c_E : forall c i, cur (conns s c) = Some i -> acc (insts s i) <> Some false;
-  c_H : forall c i, cur (conns s c) = Some i -> ans (insts s i) <> None -> acc (insts s i) = None ->
-          In (INop i) (cqe (cv s)) \/ In (Core.QAccess i) (cqueue (conns s c))
-}.
-
-Lemma d_w3_accans : forall s o, d_W1 s -> d_W3 s -> forall j,
-  acc (insts (fst (step s o)) j) = Some true -> ans (insts (fst (step s o)) j) = Some true.
-Proof.
-  intros s o W V j. pose proof (c_accans s V) as F.
-  d_step_cases s o; try apply F; d_facts W; d_proj; unfold Core.set_inst; d_eqb; d_proj; try apply F; try congruence.
-  - intros H. apply F in H. unfold Core.unanswered in Fun. rewrite H in Fun. discriminate.
-  - intros _. apply F. exact Eacc.
-Qed.
-
-Lemma d_w3_acb : forall s o, d_W1 s -> d_W3 s -> forall j,
-  acc (insts (fst (step s o)) j) = Some true -> acb (insts (fst (step s o)) j) = [].
-Proof.
-  intros s o W V j. pose proof (c_acb s V) as F.
-  d_step_cases s o; try apply F; d_facts W; d_proj; unfold Core.set_inst; d_eqb; d_proj; try apply F; try congruence.
-  intros _. apply F. exact Eacc.
+  intros s o c' x Hng. d_ng_cases s o; d_proj; try (intros H; left; exact H); try d_es_look c'.
+  all: try (unfold Core.set_conn; d_eqb; d_proj; try (intros H; left; exact H)).
+  all: try (intros H; apply in_app_or in H as [H|H]; [left; exact H|right]; try exact H; destruct H as [<-|[]]; auto; fail).
+  exfalso. eapply Hng. reflexivity.
 Qed.
 
 Lemma d_not_loaded_fold : forall acts σ j, existsb (d_arunc j) acts = false ->
@@ -740,347 +1324,194 @@ Proof.
   apply d_fold_loaded in E; [congruence|assumption].
 Qed.
 
-Lemma d_w3_rcb : forall s o, d_W1 s -> d_W3 s -> forall j,
-  rcb (insts (fst (step s o)) j) <> [] ->
-  acc (insts (fst (step s o)) j) = Some true /\ loaded (csubs (cv (fst (step s o))) j) = false.
+Lemma d_w1_ng : forall s o, d_nongrant o -> d_W1 s -> d_W1 (fst (step s o)).
 Proof.
-  intros s o W V j. pose proof (c_rcb s V) as F.
-  d_step_cases s o; try apply F; d_facts W; d_proj; unfold Core.set_inst; d_eqb; d_proj; try congruence.
-  all: try (intros H; destruct (F _ H) as [A B]; split; [exact A|]; apply d_not_loaded_fold; [solve [d_acts; d_eqb; try reflexivity; congruence]|exact B]).
-  all: try (intros H; exfalso; apply H; reflexivity).
-  all: try (intros H; destruct (F _ H) as [A B]; unfold Core.is_live in *; congruence).
-  all: try (intros _; split; [reflexivity|cbn [fold_left]; exact Elive]).
-  - intros H. destruct (F _ H) as [A B]. apply (c_accans s V) in A. congruence.
-  - intros H. destruct (F _ H) as [A B]. split; [exact A|].
-    destruct (Nat.eq_dec j i) as [->|Hji].
-    + cbn [fold_left]. unfold Core.is_live in Ewl. rewrite B in Ewl. cbn [negb andb] in Ewl. exact Ewl.
-    + apply d_not_loaded_fold; [|exact B]. d_acts. apply Nat.eqb_neq. congruence.
+  intros s o Hng W.
+  destruct (d_ng_next s o Hng) as [En Em].
+  assert (Hgone : forall j, gone (csubs (cv (fst (step s o))) j) = gone (csubs (cv s) j)).
+  { intros j. rewrite d_step_cv, d_fold_gone. destruct (d_ng_acts s o j Hng) as (-> & _). apply orb_false_r. }
+  assert (Hsub : forall j, subscribed (csubs (cv (fst (step s o))) j) = subscribed (csubs (cv s) j)).
+  { intros j. rewrite d_step_cv, d_fold_subscribed. destruct (d_ng_acts s o j Hng) as (_ & -> & _). apply orb_false_r. }
+  assert (Hown : forall j, owner (insts (fst (step s o)) j) = owner (insts s j)).
+  { intros j. apply (d_ng_inst s o j Hng). }
+  constructor.
+  - apply d_step_inv, (d_a_inv s W).
+  - intros j Hj. rewrite En in Hj. destruct (d_ng_inst s o j Hng) as (_ & _ & _ & _ & _ & _ & _ & _ & [E|E] & _); [|lia].
+    rewrite E. apply (d_a_fresh_inst s W). exact Hj.
+  - intros j Hj. rewrite En in Hj. destruct (d_a_fresh_sub s W j Hj) as (A & B & C). rewrite Hgone, Hsub. repeat split; try assumption.
+    rewrite d_step_cv. destruct (d_ng_acts s o j Hng) as (_ & X1 & X2 & _).
+    rewrite d_fold_cq_unsub; try assumption. apply (d_a_inv s W).
+  - intros j Hj. rewrite En in Hj. rewrite Hsub. apply (d_a_sub s W j Hj).
+  - intros c' i' Hc. destruct (d_ng_conn s o c' Hng) as (Ec & _). rewrite Ec in Hc. destruct (d_a_cur s W c' i' Hc) as (A & B & C).
+    rewrite En, Hown, Hgone. auto.
+  - intros j Hj. rewrite En in Hj. rewrite Hown, Hgone. destruct (d_ng_conn s o (owner (insts s j)) Hng) as (-> & _).
+    apply (d_a_gone s W j Hj).
+  - intros c' i' H. rewrite En, Hown. apply d_queue_new in H as [H|H]; [apply (d_a_qacc s W); exact H| |exact Hng].
+    destruct o; try contradiction; try (destruct H as (H & _); discriminate).
+    apply d_in_esq_acc in H as [H1 H2]. split; [|exact H2].
+    apply d_nop_head_in in H1 as [q Hq]. apply (d_a_nop s W). rewrite Hq. left. reflexivity.
+  - intros c' i' H. rewrite En, Hown. apply d_queue_new in H as [H|H]; [apply (d_a_qsub s W); exact H| |exact Hng].
+    destruct o; try contradiction; try (destruct H as (H & _); discriminate).
+    apply d_in_esq_sub in H as (H1 & H2 & _). auto.
+  - intros j H. rewrite En. rewrite d_step_cv in H. apply d_fold_qe_back in H as [H|H]; [apply (d_a_nop s W); exact H|].
+    apply (d_ng_acts s o j Hng). exact H.
+  - rewrite En, Em. apply (d_a_mqsub s W).
+  - intros j. destruct (d_ng_inst s o j Hng) as (_ & -> & _ & _ & -> & _). apply (d_a_acb s W).
+  - intros j. destruct (d_ng_inst s o j Hng) as (_ & _ & -> & _). intros H. destruct (d_a_rcb s W j H) as [A B]. rewrite Hgone.
+    split; [exact A|]. rewrite d_step_cv. apply d_not_loaded_fold; [apply (d_ng_acts s o j Hng)|exact B].
 Qed.
 
-Lemma d_live_cur : forall s i, d_W1 s -> i < next s -> gone (csubs (cv s) i) = false ->
-  cur (conns s (owner (insts s i))) = Some i.
-Proof. intros s i W Hlt Hg. destruct (a_gone s W i Hlt) as [H|H]; [exact H|congruence]. Qed.
+Lemma d_grant_dec : forall (o : Core.op upd), (exists c, o = GrantConn c) \/ d_nongrant o.
+Proof. intros o. destruct o; try (right; intros c' H; discriminate). left. eauto. Qed.
 
-Lemma d_denied_left : forall s c i q, d_W1 s -> d_W3 s -> cqueue (conns s c) = Core.QAccess i :: q ->
-  Core.is_gone val upd (cv s) i = false -> ans (insts s i) = Some false ->
-  cur (conns s c) = Some i /\ Nat.eqb (direct (conns s c) - length (acb (insts s i))) 0 = true /\ rcb (insts s i) = [].
+(* ---------- a connection grant keeps the structural invariant ---------- *)
+Lemma d_w1_grant : forall s c it q, d_W1 s -> cqueue (conns s c) = it :: q -> d_W1 (fst (step s (GrantConn c))).
 Proof.
-  intros s c i q W V Eq Eg Ea.
-  assert (A : In (Core.QAccess i) (cqueue (conns s c))) by (rewrite Eq; left; reflexivity).
-  apply (a_qacc s W) in A as [Flt Fown]. pose proof (d_live_cur s i W Flt Eg) as Hc. rewrite Fown in Hc.
-  assert (Hacc : acc (insts s i) <> Some true).
-  { intros H. apply (c_accans s V) in H. congruence. }
-  split; [exact Hc|]. split.
-  - apply Nat.eqb_eq. pose proof (c_D s V c i Hc Hacc). lia.
-  - destruct (rcb (insts s i)) eqn:E; [reflexivity|]. exfalso. apply Hacc. apply (c_rcb s V). rewrite E. discriminate.
+  intros s c it q W Eq. pose proof (d_task_summary s c it q W Eq) as Sm.
+  destruct (conn_task s c) as [[[k oi] nx] ms] eqn:Ect. rewrite (d_step_grant s c it q Eq k oi nx ms Ect). cbn [fst].
+  destruct Sm as (Sq & Sd & Sts & Sh).
+  destruct (d_shape_acts s c it q k oi nx ms Sh) as (AE & AR & AN & AS & AC & AD).
+  pose proof (d_shape_next s c it q k oi nx ms Sh) as Hnx.
+  assert (Hle : next s <= nx) by (destruct Hnx as [(-> & _)|(-> & _)]; lia).
+  assert (Hoi : forall i, oi = Some i -> owner (ty k) = c /\ ((i < next s /\ owner (insts s i) = c) \/ (i = next s /\ nx = S (next s)))).
+  { intros i E. apply (d_shape_oi s c it q k oi nx ms i W Sh E). }
+  set (ins' := match oi with Some i => Core.set_inst (insts s) i (ty k) | None => insts s end).
+  assert (Hown : forall j, j < next s -> owner (ins' j) = owner (insts s j)).
+  { intros j Hj. unfold ins'. destruct oi as [i|]; [|reflexivity]. unfold Core.set_inst. destruct (Nat.eqb_spec j i) as [->|Hne]; [|reflexivity].
+    destruct (Hoi i eq_refl) as (H1 & [(_ & H2)|(H2 & _)]); [congruence|lia]. }
+  assert (Hgm : forall j, gone (csubs (cv s) j) = true -> gone (csubs (cfold (ta k) (cv s)) j) = true).
+  { intros j H. rewrite d_fold_gone, H. reflexivity. }
+  assert (Hgo : forall j, j < next s -> owner (insts s j) <> c -> gone (csubs (cfold (ta k) (cv s)) j) = gone (csubs (cv s) j)).
+  { intros j Hj Ho. rewrite d_fold_gone. destruct (existsb (d_adisp j) (ta k)) eqn:E; [|apply orb_false_r]. exfalso.
+    apply AD in E as [(E & _)|(_ & E)].
+    - destruct (Hoi j E) as (_ & [(_ & H2)|(H2 & _)]); [congruence|lia].
+    - apply d_insts_of_in in E as [_ E]. congruence. }
+  assert (Hlt_oi : forall i, oi = Some i -> i < nx).
+  { intros i E. destruct (Hoi i E) as (_ & [(H & _)|(H1 & H2)]); lia. }
+  constructor; d_proj.
+  - apply d_fold_inv, (d_a_inv s W).
+  - intros j Hj. unfold ins'. destruct oi as [i|]; [|apply (d_a_fresh_inst s W); lia].
+    pose proof (Hlt_oi i eq_refl). rewrite d_set_inst_neq by lia. apply (d_a_fresh_inst s W). lia.
+  - intros j Hj. destruct (d_a_fresh_sub s W j) as (A & B & C); [lia|].
+    assert (E1 : existsb (d_asubs j) (ta k) = false).
+    { destruct (existsb (d_asubs j) (ta k)) eqn:E; [|reflexivity]. apply AS in E as [E1 E2]. lia. }
+    assert (E2 : existsb (d_arunc j) (ta k) = false).
+    { destruct (existsb (d_arunc j) (ta k)) eqn:E; [|reflexivity]. apply AC in E.
+      assert (X : In (QSub j) (cqueue (conns s c))) by (rewrite Eq, E; left; reflexivity). apply (d_a_qsub s W) in X. lia. }
+    assert (E3 : existsb (d_adisp j) (ta k) = false).
+    { destruct (existsb (d_adisp j) (ta k)) eqn:E; [|reflexivity]. apply AD in E as [(E & _)|(_ & E)].
+      - apply Hlt_oi in E. lia.
+      - apply d_insts_of_in in E. lia. }
+    rewrite d_fold_subscribed, d_fold_gone, A, C, E1, E3. repeat split; try reflexivity.
+    rewrite d_fold_cq_unsub; try assumption. apply (d_a_inv s W).
+  - intros j Hj. rewrite d_fold_subscribed. destruct (Nat.lt_ge_cases j (next s)) as [Hl|Hg]; [rewrite (d_a_sub s W j Hl); reflexivity|].
+    destruct Hnx as [(-> & _)|(-> & _ & Eoi)]; [lia|]. assert (j = next s) by lia. subst j.
+    destruct Sh as [k Hc Ha Hk Ho Hit|k i0 pre la nx ms Hp Ha Hla Hinv Hown' Ho Hit|k i0 pre Hlt Hown' Hg' Hpre Ha Htx Hty Ho|k Hit Ha Hk Ho Hy]; try discriminate; try lia.
+    + destruct Hp as [(P1 & P2 & P3 & _)|(P1 & _ & P2 & _ & P3 & _)]; [lia|]. rewrite Ha, P3, P1. cbn. rewrite Nat.eqb_refl. apply orb_true_r.
+  - (* d_a_cur *)
+    intros c' i' Hc. destruct (Nat.eq_dec c' c) as [->|Hcc].
+    + rewrite d_set_conn_eq in Hc.
+      destruct Sh as [k Hc0 Ha Hk Ho Hit|k i0 pre la nx ms Hp Ha Hla Hinv Hown' Ho Hit|k i0 pre Hlt Hown' Hg' Hpre Ha Htx Hty Ho|k Hit Ha Hk Ho Hy]; try congruence.
+      * pose proof (d_v_cur i0 k Hinv) as Vc. rewrite Hc in Vc. unfold Core.gone_, Core.me in Vc. rewrite Sts in Vc.
+        destruct (gone (csubs (cfold (ta k) (cv s)) i0)) eqn:Eg; [discriminate|]. injection Vc as ->.
+        split; [apply Hlt_oi; reflexivity|]. unfold ins'. rewrite d_set_inst_eq. auto.
+      * rewrite Htx in Hc. d_projH Hc. destruct (d_a_cur s W c i' Hc) as (A & B & C).
+        assert (Hne : i' <> i0) by congruence.
+        split; [lia|]. unfold ins'. rewrite d_set_inst_neq by exact Hne. split; [exact B|].
+        rewrite Ha, d_fold_gone, C. destruct Hpre as [(_ & ->)|(_ & ->)]; reflexivity.
+    + rewrite d_set_conn_neq in Hc by exact Hcc. destruct (d_a_cur s W c' i' Hc) as (A & B & C).
+      split; [lia|]. rewrite Hown by exact A. split; [exact B|]. rewrite Hgo; try assumption. congruence.
+  - (* d_a_gone *)
+    intros j Hj. destruct (Nat.lt_ge_cases j (next s)) as [Hl|Hg].
+    + rewrite Hown by exact Hl. destruct (Nat.eq_dec (owner (insts s j)) c) as [Hoc|Hoc].
+      * rewrite Hoc, d_set_conn_eq. destruct (d_a_gone s W j Hl) as [G|G]; [|right; apply Hgm; exact G]. rewrite Hoc in G.
+        destruct Sh as [k Hc0 Ha Hk Ho Hit|k i0 pre la nx ms Hp Ha Hla Hinv Hown' Ho Hit|k i0 pre Hlt Hown' Hg' Hpre Ha Htx Hty Ho|k Hit Ha Hk Ho Hy]; try congruence.
+        -- destruct Hp as [(P1 & P2 & _)|(_ & P2 & _)]; [|congruence]. rewrite G in P2. injection P2 as ->.
+           pose proof (d_v_cur i0 k Hinv) as Vc. unfold Core.gone_, Core.me in Vc. rewrite Sts in Vc.
+           destruct (gone (csubs (cfold (ta k) (cv s)) i0)); auto.
+        -- left. rewrite Htx. d_proj. exact G.
+        -- right. rewrite d_fold_gone, Ha, d_disp_map. replace (Conv.mem j (insts_of s c)) with true; [apply orb_true_r|].
+           symmetry. apply Conv.mem_In. apply d_insts_of_in. auto.
+      * rewrite d_set_conn_neq by exact Hoc. destruct (d_a_gone s W j Hl) as [G|G]; [left; exact G|right; apply Hgm; exact G].
+    + destruct Hnx as [(-> & _)|(-> & _ & Eoi)]; [lia|]. assert (j = next s) by lia. subst j.
+      destruct (Hoi _ Eoi) as (Ho & _). unfold ins'. rewrite Eoi, d_set_inst_eq, Ho, d_set_conn_eq.
+      destruct Sh as [k Hc0 Ha Hk Ho' Hit|k i0 pre la nx ms Hp Ha Hla Hinv Hown' Ho' Hit|k i0 pre Hlt Hown' Hg' Hpre Ha Htx Hty Ho'|k Hit Ha Hk Ho' Hy]; try discriminate; try lia.
+      * injection Eoi as ->. pose proof (d_v_cur _ k Hinv) as Vc. unfold Core.gone_, Core.me in Vc. rewrite Sts in Vc.
+        destruct (gone (csubs (cfold (ta k) (cv s)) (next s))); auto.
+  - (* d_a_qacc *)
+    intros c' i' H.
+    assert (H0 : In (QAccess i') (cqueue (conns s c'))).
+    { destruct (Nat.eq_dec c' c) as [->|Hcc]; [rewrite d_set_conn_eq, Sq in H; rewrite Eq; right; exact H|rewrite d_set_conn_neq in H by exact Hcc; exact H]. }
+    destruct (d_a_qacc s W c' i' H0) as [A B]. rewrite Hown by exact A. split; [lia|exact B].
+  - intros c' i' H.
+    assert (H0 : In (QSub i') (cqueue (conns s c'))).
+    { destruct (Nat.eq_dec c' c) as [->|Hcc]; [rewrite d_set_conn_eq, Sq in H; rewrite Eq; right; exact H|rewrite d_set_conn_neq in H by exact Hcc; exact H]. }
+    destruct (d_a_qsub s W c' i' H0) as [A B]. rewrite Hown by exact A. split; [lia|exact B].
+  - intros j H. apply d_fold_qe_back in H as [H|H]; [apply (d_a_nop s W) in H; lia|]. rewrite AN in H. discriminate.
+  - intros Hm. destruct Hnx as [(-> & ->)|(_ & -> & _)]; [apply (d_a_mqsub s W); exact Hm|discriminate].
+  - (* d_a_acb *)
+    intros j. unfold ins'.
+    destruct Sh as [k Hc0 Ha Hk Ho' Hit|k i0 pre la nx ms Hp Ha Hla Hinv Hown' Ho' Hit|k i0 pre Hlt Hown' Hg' Hpre Ha Htx Hty Ho'|k Hit Ha Hk Ho' Hy].
+    + apply (d_a_acb s W).
+    + unfold Core.set_inst. destruct (Nat.eqb_spec j i0) as [->|Hne]; [apply (d_v_acb i0 k Hinv)|apply (d_a_acb s W)].
+    + unfold Core.set_inst. destruct (Nat.eqb_spec j i0) as [->|Hne]; [rewrite Hty|]; apply (d_a_acb s W).
+    + destruct (cur (conns s c)) as [i|] eqn:Ec; [|apply (d_a_acb s W)].
+      unfold Core.set_inst. destruct (Nat.eqb_spec j i) as [->|Hne]; [|apply (d_a_acb s W)].
+      destruct (Hy i eq_refl) as (_ & -> & _). intros X. exfalso. apply X. reflexivity.
+  - (* d_a_rcb *)
+    intros j. unfold ins'.
+    assert (Other : rcb (insts s j) <> [] -> oi <> Some j ->
+              gone (csubs (cfold (ta k) (cv s)) j) = false /\ loaded (csubs (cfold (ta k) (cv s)) j) = false).
+    { intros Hr Hne. destruct (d_a_rcb s W j Hr) as [R1 R2]. split.
+      - rewrite d_fold_gone, R1. destruct (existsb (d_adisp j) (ta k)) eqn:E; [|reflexivity]. exfalso.
+        apply AD in E as [(E & _)|(E1 & E)]; [congruence|]. apply d_insts_of_in in E as [E2 E3].
+        destruct (d_a_gone s W j E2) as [G|G]; [|congruence]. rewrite E3 in G.
+        destruct Sh as [k Hc0 Ha Hk Ho' Hit|k i0 pre la nx ms Hp Ha Hla Hinv Hown' Ho' Hit|k i0 pre Hlt Hown' Hg' Hpre Ha Htx Hty Ho'|k Hit Ha Hk Ho' Hy]; try congruence.
+        destruct Hpre as [(X & _)|(X & _)]; congruence.
+      - apply d_not_loaded_fold; [|exact R2]. destruct (existsb (d_arunc j) (ta k)) eqn:E; [|reflexivity]. exfalso.
+        pose proof (AC j E) as E'. subst it.
+        destruct Sh as [k Hc0 Ha Hk Ho' Hit|k i0 pre la nx ms Hp Ha Hla Hinv Hown' Ho' Hit|k i0 pre Hlt Hown' Hg' Hpre Ha Htx Hty Ho'|k Hit Ha Hk Ho' Hy]; try discriminate.
+        + destruct Hp as [(P1 & P2 & P3 & P4 & [(-> & _)|(P5 & ->)])|(_ & _ & _ & _ & _ & id & X)]; try discriminate.
+          * rewrite Ha in E. cbn [List.app] in E. rewrite (d_hact_noC _ _ _ j Hla) in E. discriminate.
+          * injection P5 as ->. congruence.
+        + destruct Hpre as [(X & _)|(X & _)]; [discriminate|]. injection X as ->. congruence. }
+    destruct Sh as [k Hc0 Ha Hk Ho' Hit|k i0 pre la nx ms Hp Ha Hla Hinv Hown' Ho' Hit|k i0 pre Hlt Hown' Hg' Hpre Ha Htx Hty Ho'|k Hit Ha Hk Ho' Hy].
+    + intros Hr. apply Other; [exact Hr|discriminate].
+    + unfold Core.set_inst. destruct (Nat.eqb_spec j i0) as [->|Hne]; [|intros Hr; apply Other; [exact Hr|congruence]].
+      intros Hr. pose proof (d_v_rcb i0 k Hinv Hr) as V. unfold Core.gone_, Core.loaded_, Core.me in V. rewrite Sts in V. exact V.
+    + unfold Core.set_inst. destruct (Nat.eqb_spec j i0) as [->|Hne]; [|intros Hr; apply Other; [exact Hr|congruence]].
+      rewrite Hty. intros Hr. destruct (d_a_rcb s W i0 Hr) as [R1 _]. congruence.
+    + destruct (cur (conns s c)) as [i|] eqn:Ec; [|intros Hr; apply Other; [exact Hr|discriminate]].
+      unfold Core.set_inst. destruct (Nat.eqb_spec j i) as [->|Hne]; [|intros Hr; apply Other; [exact Hr|congruence]].
+      destruct (Hy i eq_refl) as (_ & _ & -> & _). intros X. exfalso. apply X. reflexivity.
 Qed.
 
-Ltac d_kill_left W V :=
-  try match goal with
-  | Eleft : Nat.eqb (direct (conns ?s ?c) - length (acb (insts ?s ?i))) 0 = false,
-    Eq : cqueue (conns ?s ?c) = Core.QAccess ?i :: ?q, Egone : _, Eans : _ |- _ =>
-      exfalso; destruct (d_denied_left s c i q W V Eq Egone Eans) as (_ & Hkl & _); congruence
-  end.
-
-(* in a branch working on connection c: another connection c' and its current instance are untouched *)
-Ltac d_other W Hc Hcc :=
-  rewrite ?(d_set_conn_neq _ _ _ _ Hcc) in Hc; rewrite ?(d_set_conn_neq _ _ _ _ Hcc);
-  let A1 := fresh "Ao" in let A2 := fresh "Ao" in let A3 := fresh "Ao" in
-  pose proof (a_cur _ W _ _ Hc) as (A1 & A2 & A3);
-  try (rewrite d_set_inst_neq by (first [congruence | lia])).
-
-Lemma d_w3_D : forall s o, d_W1 s -> d_W3 s -> forall c' i', cur (conns (fst (step s o)) c') = Some i' ->
-  acc (insts (fst (step s o)) i') <> Some true ->
-  direct (conns (fst (step s o)) c') <= length (acb (insts (fst (step s o)) i')).
+Lemma d_w1_step : forall s o, d_W1 s -> d_W1 (fst (step s o)).
 Proof.
-  intros s o W V c' i'. pose proof (c_D s V) as F.
-  d_step_cases s o; try apply F; d_kill_left W V; d_facts W; d_proj; try d_es_look c'; try apply F.
-  all: try solve [unfold Core.set_inst; d_eqb; d_proj; apply F].
-  all: intros Hc; destruct (Nat.eq_dec c' c) as [->|Hcc]; [|d_other W Hc Hcc; try (apply F; exact Hc)].
-  all: rewrite ?d_set_conn_eq in Hc; rewrite ?d_set_conn_eq; d_projH Hc; d_proj; try discriminate; try (rewrite Ecur in Hc; injection Hc as <-).
-  all: try (injection Hc as <-).
-  all: rewrite ?d_set_inst_eq; d_proj; rewrite ?app_length; cbn [length]; try congruence.
-  all: try (intros Hac; specialize (F _ _ Ecur); rewrite ?Eacc in F; specialize (F Hac); lia).
-  all: try (apply F; exact Hc).
-  all: try (intros; lia).
-  all: destruct (Nat.eq_dec i' i) as [->|Hii]; [rewrite !d_set_inst_eq | rewrite !d_set_inst_neq by assumption; apply F; exact Hc].
-  all: d_proj; try congruence.
-  all: apply F; exact Hc.
+  intros s o W. destruct (d_grant_dec o) as [[c ->]|Hng]; [|apply d_w1_ng; assumption].
+  destruct (cqueue (conns s c)) as [|it q] eqn:Eq.
+  - cbn [Core.step]. rewrite Eq. exact W.
+  - apply (d_w1_grant s c it q W Eq).
 Qed.
 
-Lemma d_w3_E : forall s o, d_W1 s -> d_W3 s -> forall c' i', cur (conns (fst (step s o)) c') = Some i' ->
-  acc (insts (fst (step s o)) i') <> Some false.
+Lemma d_w1_init : forall t, d_W1 (Core.init val upd d t).
 Proof.
-  intros s o W V c' i'. pose proof (c_E s V) as F.
-  d_step_cases s o; try apply F; d_kill_left W V; d_facts W; d_proj; try d_es_look c'; try apply F.
-  all: try solve [unfold Core.set_inst; d_eqb; d_proj; apply F].
-  all: intros Hc; destruct (Nat.eq_dec c' c) as [->|Hcc]; [|d_other W Hc Hcc; try (apply (F _ _ Hc))].
-  all: rewrite ?d_set_conn_eq in Hc; rewrite ?d_set_conn_eq; d_projH Hc; d_proj; try discriminate; try (rewrite Ecur in Hc; injection Hc as <-).
-  all: try (injection Hc as <-).
-  all: rewrite ?d_set_inst_eq; d_proj; try congruence.
-  all: try (apply (F _ _ Ecur)).
-  all: try (apply (F _ _ Hc)).
-  all: try (destruct (Nat.eq_dec i' i) as [->|Hii]; [rewrite !d_set_inst_eq | rewrite !d_set_inst_neq by assumption; apply (F _ _ Hc)]).
-  all: d_proj; try congruence.
-  all: try (apply (F _ _ Hc)).
-  exfalso; apply (F _ _ Ecur); exact Eacc.
+  intros t. constructor; cbn; intros; try discriminate; try contradiction; try lia; auto.
+  all: try (apply Conv.init_inv).
+  all: try (exfalso; apply H; reflexivity).
 Qed.
 
-Lemma d_queue_keep : forall s o c' x, In x (cqueue (conns s c')) ->
-  In x (cqueue (conns (fst (step s o)) c')) \/ (o = Core.GrantConn upd c' /\ exists q, cqueue (conns s c') = x :: q).
-Proof.
-  intros s o c' x. d_step_cases s o; d_proj; try (intros H; left; exact H); try d_es_look c'.
-  all: try (intros H; left; apply in_or_app; left; exact H).
-  all: unfold Core.set_conn; d_eqb; d_proj; try (intros H; left; exact H).
-  all: try (intros H; left; apply in_or_app; left; exact H).
-  all: rewrite Eq; intros [H|H]; [right; split; [reflexivity|]; subst x; eauto|left; exact H].
-Qed.
-
-Lemma d_qe_keep : forall s o j, d_W1 s -> In (INop j) (cqe (cv s)) ->
-  In (INop j) (cqe (cv (fst (step s o)))) \/ (o = Core.GrantEs upd /\ Core.nop_head val upd (cv s) = Some j).
-Proof.
-  intros s o j W H. rewrite d_step_cv.
-  destruct (existsb d_arune (acts_of s o)) eqn:E; [|left; apply d_fold_qe_fwd; assumption].
-  revert E. d_step_cases s o; d_acts; rewrite ?d_existsb_map_false by reflexivity; try discriminate; intros _.
-  - apply (a_nop s W) in H. rewrite (a_mqsub s W Emq) in H. lia.
-  - apply (a_nop s W) in H. rewrite (a_mqsub s W Emq) in H. lia.
-  - cbn [fold_left]. unfold Core.nop_head. destruct (cqe (cv s)) as [|h q] eqn:Eq; [destruct H|].
-    destruct H as [H|H].
-    + subst h. right. auto.
-    + left. apply d_eff_rune_qe_fwd. rewrite Eq. exact H.
-Qed.
-
-Lemma d_H_old : forall s o c' i', d_W1 s -> d_W3 s -> cur (conns (fst (step s o)) c') = Some i' ->
-  ans (insts (fst (step s o)) i') <> None -> acc (insts (fst (step s o)) i') = None ->
-  cur (conns s c') = Some i' /\ acc (insts s i') = None /\
-  (ans (insts s i') <> None \/ ((exists g, o = Core.MqAccess upd i' g) /\ In (INop i') (cqe (cv (fst (step s o)))))).
-Proof.
-  intros s o c' i' W V.
-  d_step_cases s o; try (intros; auto; fail); d_kill_left W V; d_facts W; d_proj; try d_es_look c'; try (intros; auto; fail).
-  all: intros Hc.
-  all: try solve [ (* MqAccess *) unfold Core.set_inst; destruct (Nat.eqb_spec i' i) as [->|Hii]; d_proj; [|auto];
-    intros _ Hn; split; [exact Hc|]; split; [exact Hn|]; right; split; [eauto|]; cbn [fold_left Conv.step Conv.qe];
-    apply in_or_app; right; left; reflexivity ].
-  all: destruct (Nat.eq_dec c' c) as [->|Hcc]; [|d_other W Hc Hcc; auto].
-  all: rewrite ?d_set_conn_eq in Hc; d_projH Hc; try discriminate; try (rewrite Ecur in Hc; injection Hc as <-).
-  all: try (injection Hc as <-).
-  all: rewrite ?d_set_inst_eq; d_proj; try congruence; auto.
-  all: try (destruct (Nat.eq_dec i' i) as [->|Hii]; [rewrite !d_set_inst_eq | rewrite !d_set_inst_neq by assumption; auto]).
-  all: d_proj; try congruence; auto.
-Qed.
-
-Lemma d_access_handled : forall s c i q, d_W1 s -> d_W3 s -> cqueue (conns s c) = Core.QAccess i :: q ->
-  gone (csubs (cv s) i) = false -> ans (insts s i) <> None ->
-  acc (insts (fst (step s (Core.GrantConn upd c))) i) <> None.
-Proof.
-  intros s c i q W V Eq0 Hg Ha. cbn [Core.step Core.acts_of]. rewrite Eq0. unfold Core.is_gone. rewrite Hg.
-  destruct (ans (insts s i)) as [[|]|] eqn:Eans; [| |congruence].
-  - destruct (Core.is_live val upd (cv s) i); cbn [fst Core.insts]; rewrite d_set_inst_eq; d_proj; discriminate.
-  - cbn [fst Core.insts]; rewrite d_set_inst_eq; d_proj; discriminate.
-Qed.
-
-Lemma d_es_queue : forall s c', 
-  cqueue (conns (fst (step s (Core.GrantEs upd))) c') = cqueue (conns s c') ++ d_esq s (cfold [Conv.RunE upd] (cv s)) c'.
-Proof. intros s c'. cbn [Core.step Core.acts_of fst Core.conns]. d_es_look c'. reflexivity. Qed.
-
-Lemma d_w3_H : forall s o, d_W1 s -> d_W3 s -> forall c' i', cur (conns (fst (step s o)) c') = Some i' ->
-  ans (insts (fst (step s o)) i') <> None -> acc (insts (fst (step s o)) i') = None ->
-  In (INop i') (cqe (cv (fst (step s o)))) \/ In (Core.QAccess i') (cqueue (conns (fst (step s o)) c')).
-Proof.
-  intros s o W V c' i' Hc Ha Hn.
-  destruct (d_H_old s o c' i' W V Hc Ha Hn) as (Hc0 & Hn0 & [Ha0|[_ X]]); [|left; exact X].
-  destruct (a_cur s W c' i' Hc0) as (Flt & Fown & Fng).
-  destruct (c_H s V c' i' Hc0 Ha0 Hn0) as [X|X].
-  - destruct (d_qe_keep s o i' W X) as [Y|[-> Y]]; [left; exact Y|]. right.
-    rewrite d_es_queue. apply in_or_app. right. unfold d_esq. apply in_or_app. right. unfold d_passq. rewrite Y.
-    unfold Core.is_closed. destruct (closed (csubs (cv s) i')) eqn:Ecl.
-    + apply (Conv.icg _ _ _ _ (a_inv s W)) in Ecl. congruence.
-    + rewrite Fown, Nat.eqb_refl. left. reflexivity.
-  - destruct (d_queue_keep s o c' _ X) as [Y|[-> [q Y]]]; [right; exact Y|]. exfalso.
-    apply (d_access_handled s c' i' q W V Y Fng Ha0). exact Hn.
-Qed.
-
-Lemma d_w3_step : forall s o, d_W1 s -> d_W3 s -> d_W3 (fst (step s o)).
-Proof.
-  intros s o W V. constructor.
-  - apply d_w3_accans; assumption.
-  - apply d_w3_rcb; assumption.
-  - apply d_w3_acb; assumption.
-  - apply d_w3_D; assumption.
-  - apply d_w3_E; assumption.
-  - apply d_w3_H; assumption.
-Qed.
-
-Lemma d_w3_init : forall t, d_W3 (Core.init val upd d t).
-Proof. intros t. constructor; cbn; intros; try discriminate; try contradiction; try congruence. Qed.
-
-Lemma d_w3_exec : forall t ops, d_W3 (fst (exec t ops)).
+Lemma d_w1_exec : forall t ops, d_W1 (fst (exec t ops)).
 Proof.
   intros t ops. induction ops as [|o ops IH] using rev_ind.
-  - apply d_w3_init.
-  - destruct (d_exec_snoc' t ops o) as [-> _]. apply d_w3_step; [apply d_w1_exec|exact IH].
-Qed.
-
-(* ---------- E: data only after a grant ---------- *)
-Notation has_data := (Core.has_data val upd).
-Notation respond_ids := (Core.respond_ids val upd app).
-Notation replay_o := (Core.replay_o val upd app).
-Notation proc_o := (Core.proc_o val upd app).
-
-Lemma d_hd_proc : forall c c0 p e o', In o' (snd (proc_o c0 p e)) -> has_data c o' = false.
-Proof.
-  intros c c0 [ver v] e o'. unfold Core.proc_o. destruct (Nat.eqb ver (Conv.e_ver upd e)); [|intros []].
-  destruct (Conv.e_upd upd e); cbn; intros [<-|[]]; reflexivity.
-Qed.
-Lemma d_hd_replay : forall c c0 l p o', In o' (replay_o c0 p l) -> has_data c o' = false.
-Proof.
-  intros c c0 l. induction l as [|e l IH]; intros p o'; cbn [Core.replay_o]; [intros []|].
-  destruct (proc_o c0 p e) as [p' oo] eqn:E. intros H. apply in_app_or in H as [H|H].
-  - apply (d_hd_proc c c0 p e). rewrite E. exact H.
-  - eapply IH. exact H.
-Qed.
-Lemma d_hd_respond : forall c c0 x ids o', In o' (respond_ids c0 x ids) -> has_data c o' = true -> c0 = c /\ ids <> [].
-Proof.
-  intros c c0 x ids o'. unfold Core.respond_ids. destruct ids as [|id r]; [intros []|].
-  intros H Hd. split; [|discriminate]. apply in_app_or in H as [H|H].
-  - destruct (Conv.sent val upd x).
-    + destruct H as [<-|[]]. discriminate.
-    + destruct H as [<-|H]; [cbn in Hd; apply Nat.eqb_eq; exact Hd|].
-      rewrite (d_hd_replay c c0 _ _ _ H) in Hd. discriminate.
-  - apply in_map_iff in H as (id' & <- & _). discriminate.
-Qed.
-
-Lemma d_ans_keep : forall s o j b, j < next s -> ans (insts s j) = Some b -> ans (insts (fst (step s o)) j) = Some b.
-Proof.
-  intros s o j b Hj. d_step_cases s o; d_proj; try (intros H; exact H); unfold Core.set_inst; d_eqb; d_proj; try (intros H; exact H);
-    try lia.
-  intros H. apply andb_prop in Eun as [_ Eun]. unfold Core.unanswered in Eun. rewrite H in Eun. discriminate.
-Qed.
-Lemma d_ans_new : forall s o j b, ans (insts (fst (step s o)) j) = Some b ->
-  ans (insts s j) = Some b \/ o = Core.MqAccess upd j b.
-Proof.
-  intros s o j b. d_step_cases s o; d_proj; try (intros H; left; exact H); unfold Core.set_inst; d_eqb; d_proj;
-    try (intros H; left; exact H); try discriminate.
-  intros H. injection H as ->. right. reflexivity.
-Qed.
-Lemma d_ans_hist : forall t ops j g, ans (insts (fst (exec t ops)) j) = Some g -> In (Core.MqAccess upd j g) ops.
-Proof.
-  intros t ops. induction ops as [|o ops IH] using rev_ind; intros j g.
-  - cbn. discriminate.
-  - destruct (d_exec_snoc' t ops o) as [-> _]. intros H. apply d_ans_new in H as [H|H]; apply in_or_app.
-    + left. apply IH. exact H.
-    + right. left. exact H.
-Qed.
-
-Definition d_granted (s : st) (c : nat) : Prop :=
-  exists i, i < next s /\ owner (insts s i) = c /\ ans (insts s i) = Some true.
-Lemma d_granted_keep : forall s o c, d_granted s c -> d_granted (fst (step s o)) c.
-Proof.
-  intros s o c (i & A & B & C). exists i. pose proof (d_next_mono s o). split; [lia|]. split.
-  - rewrite d_owner_frame by assumption. exact B.
-  - apply d_ans_keep; assumption.
-Qed.
-
-Definition d_evout (c0 : nat) (y : Conv.sub val upd) : list (Core.out val upd) :=
-  match ccq y with
-  | Conv.CEvent _ e :: _ =>
-      if loaded y && negb (Conv.flag val upd y) then snd (proc_o c0 (Conv.sver val upd y, Conv.sval val upd y) e) else []
-  | _ => []
-  end.
-Lemma d_hd_ev : forall c c0 y x, In x (d_evout c0 y) -> has_data c x = false.
-Proof.
-  intros c c0 y x. unfold d_evout. destruct (ccq y) as [|[|e] r]; try (intros []).
-  destruct (loaded y && negb (Conv.flag val upd y)); [|intros []]. apply d_hd_proc.
-Qed.
-
-Lemma d_data_step : forall s o c' x, d_W1 s -> d_W3 s -> In x (snd (step s o)) -> has_data c' x = true -> d_granted s c'.
-Proof.
-  intros s o c' x W V.
-  d_step_cases s o; try solve [intros []]; d_kill_left W V; d_facts W.
-  all: try solve [intros [<-|[]]; discriminate].
-  { destruct (Core.is_add_head val upd (cv s) && negb (getreq s)); [intros [<-|[]]; discriminate|intros []]. }
-  { intros H Hd. destruct (d_hd_respond _ _ _ _ _ H Hd) as [<- _]. exists i. repeat split; try assumption. apply (c_accans s V). exact Eacc. }
-  { intros H Hd. destruct (d_hd_respond _ _ _ _ _ H Hd) as [<- _]. exists i. repeat split; try assumption. apply (c_accans s V). exact Eacc. }
-  { intros H. apply in_app_or in H as [H|[<-|[]]]; [|discriminate]. destruct (mqsub s); [destruct H|destruct H as [<-|[]]; discriminate]. }
-  { intros H Hd. destruct (d_hd_respond _ _ _ _ _ H Hd) as [<- _]. exists i. repeat split; assumption. }
-  { intros H Hd. destruct (d_hd_respond _ _ _ _ _ H Hd) as [<- _]. exists i. repeat split; assumption. }
-  { intros H. apply in_map_iff in H as (id' & <- & _). discriminate. }
-  all: change (In x (d_evout c (csubs (cv s) i) ++ ?r) -> ?G) with (In x (d_evout c (csubs (cv s) i) ++ r) -> G).
-  all: intros H Hd; apply in_app_or in H as [H|H]; [rewrite (d_hd_ev _ _ _ _ H) in Hd; discriminate|]; try (destruct H).
-  all: destruct (d_hd_respond _ _ _ _ _ H Hd) as [<- Hr]; exists i; repeat split; try assumption.
-  all: apply (c_accans s V); apply (c_rcb s V); exact Hr.
-Qed.
-
-Theorem core_data_needs_grant : forall t ops c o,
-  let s := fst (exec t ops) in let outs := snd (exec t ops) in
-  In o outs -> Core.has_data val upd c o = true ->
-  exists i, i < Core.next val upd s /\ Core.owner (insts s i) = c /\ Core.ans (insts s i) = Some true /\ In (Core.MqAccess upd i true) ops.
-Proof.
-  intros t ops c o s outs Hin Hd.
-  assert (G : d_granted s c).
-  { subst s outs. revert Hin. induction ops as [|o1 ops IH] using rev_ind.
-    - cbn. intros [].
-    - destruct (d_exec_snoc' t ops o1) as [-> ->]. intros H. apply in_app_or in H as [H|H].
-      + apply d_granted_keep. apply IH. exact H.
-      + apply d_granted_keep. eapply d_data_step; [apply d_w1_exec|apply d_w3_exec|exact H|exact Hd]. }
-  destruct G as (i & A & B & C). exists i. repeat split; try assumption. eapply d_ans_hist. exact C.
-Qed.
-
-(* ---------- D: nothing is dropped without unsubscribe requests and disconnects ---------- *)
-Definition d_isbad (x : Core.qitem) : bool := match x with Core.QUnsub _ _ | Core.QDispose => true | _ => false end.
-Definition d_quiet_op (o : Core.op upd) : Prop := match o with Core.CUnsub _ _ _ _ | Core.Disc _ _ => False | _ => True end.
-Definition d_nolost (s : st) : Prop :=
-  (forall c x, In x (cqueue (conns s c)) -> d_isbad x = false) /\ (forall j, lost (insts s j) = []).
-
-Lemma d_nolost_step : forall s o, d_W1 s -> d_W3 s -> d_quiet_op o -> d_nolost s -> d_nolost (fst (step s o)).
-Proof.
-  intros s o W V Hq [P1 P2]. split.
-  - intros c' x H. apply d_queue_new in H as [H|H]; [apply (P1 _ _ H)|].
-    destruct o; try contradiction; try (destruct H as (-> & _); reflexivity).
-    apply d_in_esq_other in H as [j [->| ->]]; reflexivity.
-  - intros j. revert Hq. d_step_cases s o; try (intros _; apply P2); try contradiction; d_kill_left W V; intros _; d_proj.
-    all: try (assert (Hb : d_isbad (Core.QUnsub id k) = false) by (apply (P1 c); rewrite Eq; left; reflexivity); discriminate).
-    all: try (assert (Hb : d_isbad Core.QDispose = false) by (apply (P1 c); rewrite Eq; left; reflexivity); discriminate).
-    all: unfold Core.set_inst; d_eqb; d_proj; try apply P2.
-    all: try reflexivity.
-    all: rewrite P2; destruct (d_denied_left s c i q W V Eq Egone Eans) as (_ & _ & ->); reflexivity.
-Qed.
-
-Theorem core_nothing_dropped_without_unsubscribe : forall t ops c,
-  (forall o, In o ops -> match o with Core.CUnsub _ _ _ _ | Core.Disc _ _ => False | _ => True end) ->
-  Core.dropped val upd (fst (exec t ops)) c = [].
-Proof.
-  intros t ops c H.
-  assert (N : d_nolost (fst (exec t ops))).
-  { induction ops as [|o ops IH] using rev_ind.
-    - split; cbn; intros; [contradiction|reflexivity].
-    - destruct (d_exec_snoc' t ops o) as [-> _]. apply d_nolost_step.
-      + apply d_w1_exec.
-      + apply d_w3_exec.
-      + apply (H o). apply in_or_app. right. left. reflexivity.
-      + apply IH. intros o' Ho'. apply H. apply in_or_app. left. exact Ho'. }
-  destruct N as [_ N]. unfold Core.dropped. induction (Core.insts_of val upd (fst (exec t ops)) c) as [|i l IH]; [reflexivity|].
-  cbn [flat_map]. rewrite N, IH. reflexivity.
-Qed.
-
-Theorem core_every_request_answered_refuted :
-  exists ops : list (Core.op nat),
-    let s := fst (Core.exec nat nat (fun u v => u + v) (fun u v => Some u) 0 0 ops) in
-    let outs := snd (Core.exec nat nat (fun u v => u + v) (fun u v => Some u) 0 0 ops) in
-    NoDup (Core.reqs nat 0 ops) /\ Core.reqs nat 0 ops = [1; 2] /\ Core.resps nat nat 0 outs = [2] /\
-    Core.dropped nat nat s 0 = [1] /\ Core.cqueue (Core.conns nat nat s 0) = [] /\ Conv.qe nat nat (Core.cv nat nat s) = [] /\
-    Core.disc (Core.conns nat nat s 0) = false.
-Proof.
-  exists [Core.CSub nat 0 1; Core.GrantConn nat 0; Core.CUnsub nat 0 2 1; Core.GrantConn nat 0; Core.GrantEs nat; Core.MqGet nat;
-          Core.GrantEs nat; Core.GrantConn nat 0; Core.GrantEs nat; Core.MqAccess nat 0 true; Core.GrantEs nat; Core.GrantConn nat 0].
-  vm_compute. repeat split.
-  repeat constructor; cbn; intuition discriminate.
+  - apply d_w1_init.
+  - destruct (d_exec_snoc' t ops o) as [-> _]. apply d_w1_step, IH.
 Qed.
 
 (* ---------- connection queues and the subscribers' task queues; disposal tasks ---------- *)
 Definition d_isqsub (j : nat) (x : Core.qitem) : bool := match x with Core.QSub i => Nat.eqb i j | _ => false end.
 Definition d_isdisp (x : Core.qitem) : bool := match x with Core.QDispose => true | _ => false end.
-Definition d_istask (x : Core.qitem) : bool := match x with Core.QAccess _ | Core.QSub _ => true | _ => false end.
+Definition d_istask (x : Core.qitem) : bool := match x with Core.QAccess _ | Core.QSub _ | Core.QToken _ => true | _ => false end.
 Fixpoint d_okq (q : list Core.qitem) : bool :=
   match q with
   | [] => true
@@ -1110,7 +1541,7 @@ Proof.
 Qed.
 
 Lemma d_cnt_qsub_seq : forall j (P : nat -> bool) n,
-  Conv.cnt (d_isqsub j) (map Core.QSub (filter P (seq 0 n))) = if Nat.ltb j n && P j then 1 else 0.
+  Conv.cnt (d_isqsub j) (map QSub (filter P (seq 0 n))) = if Nat.ltb j n && P j then 1 else 0.
 Proof.
   intros j P n. induction n as [|n IH]; [reflexivity|].
   rewrite seq_S, filter_app, map_app, Conv.cnt_app, IH. cbn [plus filter].
@@ -1141,54 +1572,41 @@ Lemma d_length_tl : forall (A : Type) (l : list A), length (tl l) = length l - 1
 Proof. intros A [|a l]; cbn; lia. Qed.
 
 Record d_W2 (s : st) : Prop := {
-  b_cq : forall j, j < next s -> Conv.cnt (d_isqsub j) (cqueue (conns s (owner (insts s j)))) = length (ccq (csubs (cv s) j));
-  b_getreq : getreq s = false -> Conv.rs_subs val upd (cv s) = [];
-  b_disc : forall c, disc (conns s c) = false -> existsb d_isdisp (cqueue (conns s c)) = false;
-  b_okq : forall c, d_okq (cqueue (conns s c)) = true
+  d_b_cq : forall j, j < next s -> Conv.cnt (d_isqsub j) (cqueue (conns s (owner (insts s j)))) = length (ccq (csubs (cv s) j));
+  d_b_getreq : getreq s = false -> Conv.rs_subs val upd (cv s) = [];
+  d_b_disc : forall c, disc (conns s c) = false -> existsb d_isdisp (cqueue (conns s c)) = false;
+  d_b_okq : forall c, d_okq (cqueue (conns s c)) = true
 }.
 
 Lemma d_cnt_snoc_other : forall j q x, d_isqsub j x = false -> Conv.cnt (d_isqsub j) (q ++ [x]) = Conv.cnt (d_isqsub j) q.
 Proof. intros j q x H. rewrite Conv.cnt_app, Conv.cnt_cons, H. cbn. lia. Qed.
 
-Lemma d_w2_cq : forall s o, d_W1 s -> d_W2 s -> forall j, j < next (fst (step s o)) ->
+Lemma d_w2_cq_ng : forall s o, d_nongrant o -> d_W1 s -> d_W2 s -> forall j, j < next (fst (step s o)) ->
   Conv.cnt (d_isqsub j) (cqueue (conns (fst (step s o)) (owner (insts (fst (step s o)) j)))) =
   length (ccq (csubs (cv (fst (step s o))) j)).
 Proof.
-  intros s o W U j Hj. pose proof (b_cq s U) as F.
-  destruct (Nat.lt_ge_cases j (next s)) as [Hlt|Hge].
-  - rewrite (d_owner_frame s o j Hlt). specialize (F j Hlt). revert Hj.
-    d_step_cases s o; try (intros _; exact F); d_facts W; d_proj; intros _; try d_es_look (owner (insts s j)).
-    all: try (rewrite d_fold_cq by (d_acts; d_eqb; reflexivity)).
-    all: try exact F.
-    all: try (destruct (Nat.eq_dec (owner (insts s j)) c) as [Hoc|Hoc];
-              [rewrite Hoc in *; rewrite d_set_conn_eq; d_proj|rewrite d_set_conn_neq by exact Hoc]).
-    all: try exact F.
-    all: try (rewrite d_cnt_snoc_other by reflexivity; exact F).
-    all: try (rewrite Eq, Conv.cnt_cons in F; cbn [d_isqsub Conv.b2n] in F; exact F).
-    all: try (rewrite (a_mqsub s W Emq) in Hlt; lia).
-    { rewrite Conv.cnt_app, d_cnt_esq, F by exact Hlt. cbn [fold_left]. rewrite d_grew_rune. reflexivity. }
-    all: cbn [fold_left]; rewrite ?d_eff_cq by reflexivity; rewrite d_eff_runc.
-    all: try (rewrite Eq, Conv.cnt_cons in F; cbn [d_isqsub] in F; rewrite (Nat.eqb_sym j i);
-              destruct (Nat.eqb_spec i j); cbn [Conv.b2n] in F; rewrite ?d_length_tl; lia).
-    all: destruct (Nat.eqb_spec j i); [congruence|exact F].
-  - revert Hj. d_step_cases s o; d_proj; try lia.
-    intros Hj. assert (j = next s) by lia. subst j. rewrite d_set_inst_eq. d_proj. rewrite d_set_conn_eq. d_proj.
-    rewrite d_fold_cq by reflexivity. destruct (a_fresh_sub s W (next s)) as (_ & -> & _); [lia|].
-    destruct (Conv.cnt (d_isqsub (next s)) q) eqn:E; [reflexivity|]. exfalso.
-    assert (In (Core.QSub (next s)) q).
-    { clear -E. induction q as [|h q IH]; [discriminate|]. rewrite Conv.cnt_cons in E. destruct h; cbn [d_isqsub] in E; try (right; apply IH; exact E).
-      destruct (Nat.eqb_spec i (next s)) as [->|]; [left; reflexivity|right; apply IH; exact E]. }
-    assert (X : In (Core.QSub (next s)) (cqueue (conns s c))) by (rewrite Eq; right; assumption).
-    apply (a_qsub s W) in X. lia.
+  intros s o Hng W U j Hj. pose proof (d_b_cq s U) as F.
+  destruct (d_ng_next s o Hng) as [En _]. rewrite En in Hj.
+  destruct (d_ng_inst s o j Hng) as (Eo & _). cbv zeta in Eo. rewrite Eo. specialize (F j Hj). clear Eo En.
+  d_ng_cases s o; try exact F; d_proj; try d_es_look (owner (insts s j)).
+  all: try (rewrite d_fold_cq by (d_acts; d_eqb; reflexivity)).
+  all: try exact F.
+  all: try (destruct (Nat.eq_dec (owner (insts s j)) c) as [Hoc|Hoc];
+            [rewrite Hoc in *; rewrite d_set_conn_eq; d_proj|rewrite d_set_conn_neq by exact Hoc]).
+  all: try exact F.
+  all: try (cbn [fold_left]; rewrite d_cnt_snoc_other by reflexivity; exact F).
+  all: try (rewrite (d_a_mqsub s W Emq) in Hj; lia).
+  - rewrite Conv.cnt_app, d_cnt_esq, F by exact Hj. cbn [fold_left]. rewrite d_grew_rune. reflexivity.
+  - exfalso. eapply Hng. reflexivity.
 Qed.
 
 Lemma d_no_add_head : forall s, d_W1 s -> next s = 0 -> forall x,
-  Core.is_add_head val upd (cstep (cv s) x) = true -> d_arune x = true \/ d_asubs 0 x = true \/ exists j, x = Conv.Subscribe upd j.
+  Core.is_add_head val upd (cstep (cv s) x) = true -> d_arune x = true \/ exists j, x = Conv.Subscribe upd j.
 Proof.
   intros s W Hn x. unfold Core.is_add_head.
   assert (Hno : forall j q, cqe (cv s) <> Conv.IAddSub val upd j :: q).
-  { intros j q E. destruct (a_fresh_sub s W j) as (Hs & _); [lia|].
-    destruct (d_mem_false (cv s) j (a_inv s W) Hs) as [_ Hc]. rewrite E, Conv.cnt_cons in Hc. cbn [Conv.is_add] in Hc.
+  { intros j q E. destruct (d_a_fresh_sub s W j) as (Hs & _); [lia|].
+    destruct (d_mem_false (cv s) j (d_a_inv s W) Hs) as [_ Hc]. rewrite E, Conv.cnt_cons in Hc. cbn [Conv.is_add] in Hc.
     rewrite Nat.eqb_refl in Hc. cbn in Hc. lia. }
   destruct x; cbn [Conv.step d_arune]; auto.
   - cbn [Conv.qe]. destruct (cqe (cv s)) as [|[] q] eqn:E; cbn; try discriminate. exfalso. eapply Hno; reflexivity.
@@ -1196,7 +1614,8 @@ Proof.
   - destruct (Conv.answered val upd (cv s)); cbn [Conv.qe]; destruct (cqe (cv s)) as [|[] q] eqn:E; cbn; try discriminate;
       exfalso; eapply Hno; reflexivity.
   - cbn [Conv.qe]. destruct (cqe (cv s)) as [|[] q] eqn:E; cbn; try discriminate. exfalso. eapply Hno; reflexivity.
-  - intros _. right. right. eauto.
+  - cbn [Conv.qe]. destruct (cqe (cv s)) as [|[] q] eqn:E; cbn; try discriminate. exfalso. eapply Hno; reflexivity.
+  - intros _. right. eauto.
   - destruct (gone (csubs (cv s) s0)); [destruct cl|]; cbn [Conv.qe]; try destruct (loaded (csubs (cv s) s0));
       destruct (cqe (cv s)) as [|[] q] eqn:E; cbn; try discriminate; exfalso; eapply Hno; reflexivity.
   - destruct (ccq (csubs (cv s) s0)) as [|[] r]; try destruct (gone (csubs (cv s) s0)); cbn [Conv.qe];
@@ -1209,59 +1628,135 @@ Proof.
       destruct (cqe (cv s)) as [|[] q] eqn:E; cbn; try discriminate; exfalso; eapply Hno; reflexivity.
 Qed.
 
-Lemma d_w2_getreq : forall s o, d_W1 s -> d_W2 s -> getreq (fst (step s o)) = false ->
+Lemma d_w2_getreq_ng : forall s o, d_nongrant o -> d_W1 s -> d_W2 s -> getreq (fst (step s o)) = false ->
   Conv.rs_subs val upd (cv (fst (step s o))) = [].
 Proof.
-  intros s o W U. pose proof (b_getreq s U) as F.
-  d_step_cases s o; try exact F; d_proj; intros Hg.
+  intros s o Hng W U. pose proof (d_b_getreq s U) as F.
+  d_ng_cases s o; try exact F; d_proj; intros Hg.
   all: try (rewrite d_fold_rssubs by (d_acts; reflexivity); apply F; exact Hg).
   - cbn [fold_left]. apply d_eff_rune_rssubs; [rewrite d_eff_rssubs by reflexivity; apply F; exact Hg|].
     destruct (Core.is_add_head val upd (cstep (cv s) (Conv.SvcUpdate upd u))) eqn:E; [|reflexivity].
-    apply (d_no_add_head s W (a_mqsub s W Emq)) in E as [E|[E|[j E]]]; discriminate.
+    apply (d_no_add_head s W (d_a_mqsub s W Emq)) in E as [E|[j E]]; discriminate.
   - cbn [fold_left]. apply d_eff_rune_rssubs; [rewrite d_eff_rssubs by reflexivity; apply F; exact Hg|].
     destruct (Core.is_add_head val upd (cstep (cv s) (Conv.SvcCustom upd))) eqn:E; [|reflexivity].
-    apply (d_no_add_head s W (a_mqsub s W Emq)) in E as [E|[E|[j E]]]; discriminate.
+    apply (d_no_add_head s W (d_a_mqsub s W Emq)) in E as [E|[j E]]; discriminate.
+  - cbn [fold_left]. apply d_eff_rune_rssubs; [rewrite d_eff_rssubs by reflexivity; apply F; exact Hg|].
+    destruct (Core.is_add_head val upd (cstep (cv s) (Conv.SvcReacc upd))) eqn:E; [|reflexivity].
+    apply (d_no_add_head s W (d_a_mqsub s W Emq)) in E as [E|[j E]]; discriminate.
   - apply orb_false_elim in Hg as [Hg1 Hg2]. cbn [fold_left]. apply d_eff_rune_rssubs; [apply F; exact Hg1|exact Hg2].
+  - exfalso. eapply Hng. reflexivity.
 Qed.
 
-Lemma d_disc_mono : forall s o c', disc (conns (fst (step s o)) c') = false -> disc (conns s c') = false.
-Proof.
-  intros s o c'. d_step_cases s o; d_proj; try (intros H; exact H); try d_es_look c'; try (intros H; exact H).
-  all: unfold Core.set_conn; d_eqb; d_proj; try (intros H; exact H); try discriminate.
-Qed.
-
-Lemma d_in_isdisp : forall q, existsb d_isdisp q = true -> In Core.QDispose q.
+Lemma d_in_isdisp : forall q, existsb d_isdisp q = true -> In QDispose q.
 Proof. induction q as [|[] q IH]; cbn; intros H; try discriminate; auto. Qed.
 
-Lemma d_w2_disc : forall s o, d_W2 s -> forall c', disc (conns (fst (step s o)) c') = false ->
+Lemma d_w2_disc_ng : forall s o, d_nongrant o -> d_W2 s -> forall c', disc (conns (fst (step s o)) c') = false ->
   existsb d_isdisp (cqueue (conns (fst (step s o)) c')) = false.
 Proof.
-  intros s o U c' H. pose proof (d_disc_mono s o c' H) as H0. pose proof (b_disc s U c' H0) as F.
+  intros s o Hng U c' H.
+  assert (H0 : disc (conns s c') = false).
+  { destruct (disc (conns s c')) eqn:E; [|reflexivity]. destruct (d_ng_conn s o c' Hng) as (_ & _ & X & _). rewrite (X E) in H. discriminate. }
+  pose proof (d_b_disc s U c' H0) as F.
   destruct (existsb d_isdisp (cqueue (conns (fst (step s o)) c'))) eqn:E; [|reflexivity]. exfalso.
-  apply d_in_isdisp in E. apply d_queue_new in E as [E|E].
-  - assert (X : existsb d_isdisp (cqueue (conns s c')) = true) by (apply existsb_exists; exists Core.QDispose; auto). congruence.
+  apply d_in_isdisp in E. apply d_queue_new in E as [E|E]; [| |exact Hng].
+  - assert (X : existsb d_isdisp (cqueue (conns s c')) = true) by (apply existsb_exists; exists QDispose; auto). congruence.
   - destruct o; try contradiction; try (destruct E as (E & _); discriminate).
     + destruct E as (_ & -> & E). revert H. cbn [Core.step]. rewrite E. cbn [fst Core.conns]. rewrite d_set_conn_eq. discriminate.
     + apply d_in_esq_other in E as [j [E|E]]; discriminate.
 Qed.
 
-Lemma d_w2_okq : forall s o, d_W2 s -> forall c', d_okq (cqueue (conns (fst (step s o)) c')) = true.
+Lemma d_w2_okq_ng : forall s o, d_nongrant o -> d_W2 s -> forall c', d_okq (cqueue (conns (fst (step s o)) c')) = true.
 Proof.
-  intros s o U c'. pose proof (b_okq s U) as F.
-  d_step_cases s o; d_proj; try apply F; try d_es_look c'.
+  intros s o Hng U c'. pose proof (d_b_okq s U) as F.
+  d_ng_cases s o; d_proj; try apply F; try d_es_look c'.
   all: try (apply d_okq_app_tasks; [apply F|apply d_esq_tasks]).
-  all: unfold Core.set_conn; d_eqb; d_proj; try apply F.
-  all: try (apply d_okq_app_any; apply (b_disc s U); exact Edisc).
-  all: specialize (F c); rewrite Eq in F; apply d_okq_tl in F; exact F.
+  all: try (unfold Core.set_conn; d_eqb; d_proj; try apply F).
+  all: try (apply d_okq_app_any; apply (d_b_disc s U); exact Edisc).
+  - (* token *)
+    unfold Core.is_done in Edone. destruct (disc (conns s c)) eqn:Ed; cbn [andb] in Edone.
+    + apply negb_false_iff in Edone. apply d_okq_app_tasks; [apply F|reflexivity].
+    + apply d_okq_app_any. apply (d_b_disc s U); exact Ed.
+  - exfalso. eapply Hng. reflexivity.
+Qed.
+
+Lemma d_w2_ng : forall s o, d_nongrant o -> d_W1 s -> d_W2 s -> d_W2 (fst (step s o)).
+Proof.
+  intros s o Hng W U. constructor.
+  - apply d_w2_cq_ng; assumption.
+  - apply d_w2_getreq_ng; assumption.
+  - apply d_w2_disc_ng; assumption.
+  - apply d_w2_okq_ng; assumption.
+Qed.
+
+Lemma d_shape_cq : forall s c it q k oi nx ms, d_shape s c it q k oi nx ms -> forall j,
+  ccq (csubs (cfold (ta k) (cv s)) j) = if d_isqsub j it then tl (ccq (csubs (cv s) j)) else ccq (csubs (cv s) j).
+Proof.
+  intros s c it q k oi nx ms Sh j.
+  destruct Sh as [k Hc Ha Hk Ho Hit|k i pre la nx ms Hp Ha Hla Hinv Hown Ho Hit|k i pre Hlt Hown Hg Hpre Ha Htx Hty Ho|k Hit Ha Hk Ho Hy].
+  - rewrite Ha. destruct it; try discriminate; reflexivity.
+  - rewrite Ha, fold_left_app, d_fold_cq by (first [apply (d_hact_noC _ _ _ _ Hla)|apply (d_hact_noE _ _ _ Hla)]).
+    destruct Hp as [(_ & _ & _ & _ & [(-> & P)|(-> & ->)])|(_ & _ & _ & _ & -> & id & ->)].
+    + cbn [fold_left]. destruct it; try reflexivity. exfalso. eapply P. reflexivity.
+    + cbn [fold_left d_isqsub]. rewrite d_eff_runc, (Nat.eqb_sym i j). reflexivity.
+    + cbn [fold_left d_isqsub]. apply d_eff_cq; reflexivity.
+  - rewrite Ha. destruct Hpre as [(-> & ->)|(-> & ->)]; [reflexivity|].
+    cbn [fold_left d_isqsub]. rewrite d_eff_runc, (Nat.eqb_sym i j). reflexivity.
+  - rewrite Ha, Hit. cbn [d_isqsub]. apply d_fold_cq; apply d_existsb_map_false; reflexivity.
+Qed.
+
+Lemma d_cnt_zero_notin : forall j q, (forall i, In (QSub i) q -> i <> j) -> Conv.cnt (d_isqsub j) q = 0.
+Proof.
+  intros j q. induction q as [|h q IH]; intros H; [reflexivity|]. rewrite Conv.cnt_cons, IH by (intros; apply H; right; assumption).
+  destruct h; cbn [d_isqsub Conv.b2n]; try reflexivity. destruct (Nat.eqb_spec i j) as [->|]; [|reflexivity].
+  exfalso. apply (H j); [left; reflexivity|reflexivity].
+Qed.
+
+Lemma d_w2_grant : forall s c it q, d_W1 s -> d_W2 s -> cqueue (conns s c) = it :: q -> d_W2 (fst (step s (GrantConn c))).
+Proof.
+  intros s c it q W U Eq. pose proof (d_task_summary s c it q W Eq) as Sm.
+  destruct (conn_task s c) as [[[k oi] nx] ms] eqn:Ect. rewrite (d_step_grant s c it q Eq k oi nx ms Ect). cbn [fst].
+  destruct Sm as (Sq & Sd & Sts & Sh).
+  destruct (d_shape_acts s c it q k oi nx ms Sh) as (AE & AR & AN & AS & AC & AD).
+  pose proof (d_shape_next s c it q k oi nx ms Sh) as Hnx.
+  pose proof (d_shape_cq s c it q k oi nx ms Sh) as Hcq.
+  assert (Hoi : forall i, oi = Some i -> owner (ty k) = c /\ ((i < next s /\ owner (insts s i) = c) \/ (i = next s /\ nx = S (next s)))).
+  { intros i E. apply (d_shape_oi s c it q k oi nx ms i W Sh E). }
+  set (ins' := match oi with Some i => Core.set_inst (insts s) i (ty k) | None => insts s end).
+  assert (Hown : forall j, j < next s -> owner (ins' j) = owner (insts s j)).
+  { intros j Hj. unfold ins'. destruct oi as [i|]; [|reflexivity]. unfold Core.set_inst. destruct (Nat.eqb_spec j i) as [->|Hne]; [|reflexivity].
+    destruct (Hoi i eq_refl) as (H1 & [(_ & H2)|(H2 & _)]); [congruence|lia]. }
+  constructor; d_proj.
+  - intros j Hj. rewrite Hcq. destruct (Nat.lt_ge_cases j (next s)) as [Hl|Hg].
+    + rewrite Hown by exact Hl. pose proof (d_b_cq s U j Hl) as F.
+      destruct (Nat.eq_dec (owner (insts s j)) c) as [Hoc|Hoc].
+      * rewrite Hoc in *. rewrite d_set_conn_eq, Sq. rewrite Eq, Conv.cnt_cons in F.
+        destruct (d_isqsub j it); cbn [Conv.b2n] in F; rewrite ?d_length_tl; lia.
+      * rewrite d_set_conn_neq by exact Hoc. rewrite F.
+        destruct (d_isqsub j it) eqn:E; [|reflexivity]. exfalso. destruct it; try discriminate. cbn in E. apply Nat.eqb_eq in E. subst i.
+        assert (X : In (QSub j) (cqueue (conns s c))) by (rewrite Eq; left; reflexivity). apply (d_a_qsub s W) in X as [_ X]. congruence.
+    + destruct Hnx as [(-> & _)|(-> & _ & Eoi)]; [lia|]. assert (j = next s) by lia. subst j.
+      destruct (Hoi _ Eoi) as (Ho & _). unfold ins'. rewrite Eoi, d_set_inst_eq, Ho, d_set_conn_eq, Sq.
+      destruct (d_a_fresh_sub s W (next s) (le_n _)) as (_ & Fc & _). rewrite Fc.
+      assert (Z : Conv.cnt (d_isqsub (next s)) q = 0).
+      { apply d_cnt_zero_notin. intros i Hi. assert (X : In (QSub i) (cqueue (conns s c))) by (rewrite Eq; right; exact Hi).
+        apply (d_a_qsub s W) in X. lia. }
+      rewrite Z. destruct (d_isqsub (next s) it); reflexivity.
+  - intros Hg. rewrite d_fold_rssubs by exact AE. apply (d_b_getreq s U Hg).
+  - intros c' Hd. destruct (Nat.eq_dec c' c) as [->|Hcc].
+    + rewrite d_set_conn_eq in *. rewrite Sq. rewrite Sd in Hd. pose proof (d_b_disc s U c Hd) as F. rewrite Eq in F. cbn [existsb] in F.
+      apply orb_false_elim in F. apply F.
+    + rewrite d_set_conn_neq in * by exact Hcc. apply (d_b_disc s U c' Hd).
+  - intros c'. destruct (Nat.eq_dec c' c) as [->|Hcc].
+    + rewrite d_set_conn_eq, Sq. pose proof (d_b_okq s U c) as F. rewrite Eq in F. apply d_okq_tl in F. exact F.
+    + rewrite d_set_conn_neq by exact Hcc. apply (d_b_okq s U c').
 Qed.
 
 Lemma d_w2_step : forall s o, d_W1 s -> d_W2 s -> d_W2 (fst (step s o)).
 Proof.
-  intros s o W U. constructor.
-  - apply d_w2_cq; assumption.
-  - apply d_w2_getreq; assumption.
-  - apply d_w2_disc; assumption.
-  - apply d_w2_okq; assumption.
+  intros s o W U. destruct (d_grant_dec o) as [[c ->]|Hng]; [|apply d_w2_ng; assumption].
+  destruct (cqueue (conns s c)) as [|it q] eqn:Eq.
+  - cbn [Core.step]. rewrite Eq. exact U.
+  - apply (d_w2_grant s c it q W U Eq).
 Qed.
 Lemma d_w2_init : forall t, d_W2 (Core.init val upd d t).
 Proof. intros t. constructor; cbn; intros; try reflexivity; try lia. Qed.
@@ -1276,14 +1771,14 @@ Qed.
 Lemma d_quiet_cq : forall s j, d_W1 s -> d_W2 s -> quiescent s -> ccq (csubs (cv s) j) = [].
 Proof.
   intros s j W U (_ & Hq & _). destruct (Nat.lt_ge_cases j (next s)) as [Hlt|Hge].
-  - pose proof (b_cq s U j Hlt) as H. rewrite Hq in H. cbn in H. destruct (ccq (csubs (cv s) j)); [reflexivity|discriminate].
-  - apply (a_fresh_sub s W j Hge).
+  - pose proof (d_b_cq s U j Hlt) as H. rewrite Hq in H. cbn in H. destruct (ccq (csubs (cv s) j)); [reflexivity|discriminate].
+  - apply (d_a_fresh_sub s W j Hge).
 Qed.
 Lemma d_quiet_loaded : forall s, d_W2 s -> CInv (cv s) -> quiescent s -> Conv.rs_subs val upd (cv s) <> [] ->
   Conv.rs_loaded val upd (cv s) = true.
 Proof.
   intros s U HI (Hqe & _ & Hg & _) Hne.
-  destruct (getreq s) eqn:Eg; [|exfalso; apply Hne; apply (b_getreq s U Eg)].
+  destruct (getreq s) eqn:Eg; [|exfalso; apply Hne; apply (d_b_getreq s U Eg)].
   pose proof (Conv.i2 _ _ _ _ HI) as H2. rewrite Hqe, (Hg eq_refl) in H2. cbn in H2.
   destruct (Conv.rs_loaded val upd (cv s)); [reflexivity|discriminate].
 Qed.
@@ -1296,8 +1791,8 @@ Theorem core_cleanup : forall t ops i,
 Proof.
   intros t ops i s Hq Hlt Hc.
   pose proof (d_w1_exec t ops) as W. pose proof (d_w2_exec t ops) as U. fold s in W, U.
-  pose proof (a_inv s W) as HI.
-  assert (Hg : gone (csubs (cv s) i) = true) by (destruct (a_gone s W i Hlt) as [H|H]; [contradiction|exact H]).
+  pose proof (d_a_inv s W) as HI.
+  assert (Hg : gone (csubs (cv s) i) = true) by (destruct (d_a_gone s W i Hlt) as [H|H]; [contradiction|exact H]).
   pose proof (Conv.igl _ _ _ _ HI i Hg) as Hl.
   split; [|split; [exact Hl|apply (Conv.i7 _ _ _ _ HI); exact Hl]].
   destruct (Conv.mem i (Conv.rs_subs val upd (cv s))) eqn:Em; [|reflexivity]. exfalso.
@@ -1309,52 +1804,43 @@ Proof.
 Qed.
 
 (* ---------- F: nothing for a connection after its disposal task ran ---------- *)
-Notation for_conn := (Core.for_conn val upd).
-Notation OConnUnsub := (Core.OConnUnsub val upd).
+Lemma d_plain_for : forall c c' x, d_plain c x = true -> for_conn c' x = true -> c' = c.
+Proof.
+  intros c c' x. destruct x; cbn; try discriminate; intros H1 H2; apply Nat.eqb_eq in H1; apply Nat.eqb_eq in H2; congruence.
+Qed.
+Lemma d_plain_not_unsub : forall c c', d_plain c (OConnUnsub c') = false.
+Proof. reflexivity. Qed.
 
-Lemma d_fc_proc : forall c c0 p e x, In x (snd (proc_o c0 p e)) -> for_conn c x = Nat.eqb c0 c.
+Lemma d_ng_out : forall s o x, d_nongrant o -> In x (snd (step s o)) -> x = Core.OGetReq val upd.
 Proof.
-  intros c c0 [ver v] e x. unfold Core.proc_o. destruct (Nat.eqb ver (Conv.e_ver upd e)); [|intros []].
-  destruct (Conv.e_upd upd e); cbn; intros [<-|[]]; reflexivity.
-Qed.
-Lemma d_fc_replay : forall c c0 l p x, In x (replay_o c0 p l) -> for_conn c x = Nat.eqb c0 c.
-Proof.
-  intros c c0 l. induction l as [|e l IH]; intros p x; cbn [Core.replay_o]; [intros []|].
-  destruct (proc_o c0 p e) as [p' oo] eqn:E. intros H. apply in_app_or in H as [H|H].
-  - apply (d_fc_proc c c0 p e). rewrite E. exact H.
-  - eapply IH. exact H.
-Qed.
-Lemma d_fc_respond : forall c c0 y ids x, In x (respond_ids c0 y ids) -> for_conn c x = Nat.eqb c0 c.
-Proof.
-  intros c c0 y ids x. unfold Core.respond_ids. destruct ids as [|id r]; [intros []|].
-  intros H. apply in_app_or in H as [H|H].
-  - destruct (Conv.sent val upd y).
-    + destruct H as [<-|[]]. reflexivity.
-    + destruct H as [<-|H]; [reflexivity|]. eapply d_fc_replay. exact H.
-  - apply in_map_iff in H as (id' & <- & _). reflexivity.
-Qed.
-Lemma d_fc_ev : forall c c0 y x, In x (d_evout c0 y) -> for_conn c x = Nat.eqb c0 c.
-Proof.
-  intros c c0 y x. unfold d_evout. destruct (ccq y) as [|[|e] r]; try (intros []).
-  destruct (loaded y && negb (Conv.flag val upd y)); [|intros []]. apply d_fc_proc.
+  intros s o x Hng. d_ng_cases s o; try (intros []).
+  - destruct (Core.is_add_head val upd (cv s) && negb (getreq s)); [intros [<-|[]]; reflexivity|intros []].
+  - exfalso. eapply Hng. reflexivity.
 Qed.
 
-(* every frame is tagged with the connection whose worker emitted it *)
-Lemma d_tag : forall s o c' x, In x (snd (step s o)) -> for_conn c' x = true -> o = Core.GrantConn upd c'.
+(* the outputs of a grant, by shape *)
+Lemma d_shape_out : forall s c it q k oi nx ms, d_shape s c it q k oi nx ms ->
+  forallb (d_plain c) (tout k) = true \/ (it = QDispose /\ tout k = [OConnUnsub c]).
 Proof.
-  intros s o c' x.
-  d_step_cases s o; try solve [intros []].
-  all: try solve [intros [<-|[]]; cbn [Core.for_conn]; try discriminate; intros H; apply Nat.eqb_eq in H; subst; reflexivity].
-  { destruct (Core.is_add_head val upd (cv s) && negb (getreq s)); [intros [<-|[]]; discriminate|intros []]. }
-  all: try solve [intros H Hf; rewrite (d_fc_respond _ _ _ _ _ H) in Hf; apply Nat.eqb_eq in Hf; subst; reflexivity].
-  { intros H. apply in_app_or in H as [H|[<-|[]]].
-    - destruct (mqsub s); [destruct H|destruct H as [<-|[]]; discriminate].
-    - cbn [Core.for_conn]. intros H; apply Nat.eqb_eq in H; subst; reflexivity. }
-  all: try solve [intros H; apply in_map_iff in H as (id' & <- & _); cbn [Core.for_conn]; intros H; apply Nat.eqb_eq in H; subst; reflexivity].
-  all: change (In x (d_evout c (csubs (cv s) i) ++ ?r) -> ?G) with (In x (d_evout c (csubs (cv s) i) ++ r) -> G).
-  all: intros H Hf; apply in_app_or in H as [H|H];
-       [rewrite (d_fc_ev _ _ _ _ H) in Hf; apply Nat.eqb_eq in Hf; subst; reflexivity|]; try (destruct H).
-  all: rewrite (d_fc_respond _ _ _ _ _ H) in Hf; apply Nat.eqb_eq in Hf; subst; reflexivity.
+  intros s c it q k oi nx ms Sh.
+  destruct Sh as [k Hc Ha Hk Ho Hit|k i pre la nx ms Hp Ha Hla Hinv Hown Ho Hit|k i pre Hlt Hown Hg Hpre Ha Htx Hty Ho|k Hit Ha Hk Ho Hy].
+  - left. apply d_forallb_nd_plain, Ho.
+  - left. exact Ho.
+  - left. rewrite Ho. reflexivity.
+  - right. auto.
+Qed.
+
+Lemma d_tag : forall s o c' x, d_W1 s -> In x (snd (step s o)) -> for_conn c' x = true -> o = GrantConn c'.
+Proof.
+  intros s o c' x W H Hf. destruct (d_grant_dec o) as [[c ->]|Hng].
+  - destruct (cqueue (conns s c)) as [|it q] eqn:Eq.
+    + revert H. cbn [Core.step]. rewrite Eq. intros [].
+    + pose proof (d_task_summary s c it q W Eq) as Sm.
+      destruct (conn_task s c) as [[[k oi] nx] ms] eqn:Ect. rewrite (d_step_grant s c it q Eq k oi nx ms Ect) in H. cbn [snd] in H.
+      destruct Sm as (_ & _ & _ & Sh). destruct (d_shape_out s c it q k oi nx ms Sh) as [P|(_ & P)].
+      * rewrite forallb_forall in P. rewrite (d_plain_for c c' x (P x H) Hf). reflexivity.
+      * rewrite P in H. destruct H as [<-|[]]. discriminate.
+  - rewrite (d_ng_out s o x Hng H) in Hf. discriminate.
 Qed.
 
 Definition d_done (s : st) (c : nat) : Prop :=
@@ -1364,88 +1850,88 @@ Definition d_done (s : st) (c : nat) : Prop :=
 Lemma d_gone_keep : forall s o j, gone (csubs (cv s) j) = true -> gone (csubs (cv (fst (step s o))) j) = true.
 Proof. intros s o j H. rewrite d_step_cv, d_fold_gone, H. reflexivity. Qed.
 
-Lemma d_runc_gone : forall σ j, CInv σ -> gone (csubs σ j) = true -> loaded (csubs (cstep σ (Conv.RunC upd j)) j) = false.
+(* a grant of a closed connection: the shapes that remain *)
+Lemma d_done_shape : forall s c it q k oi nx ms, d_W1 s -> d_done s c -> cqueue (conns s c) = it :: q ->
+  d_shape s c it q k oi nx ms ->
+  tout k = [] /\ cur (tx k) = None /\ nx = next s /\
+  (forall j, j < next s -> owner (match oi with Some i => Core.set_inst (insts s) i (ty k) | None => insts s end j) = owner (insts s j)).
 Proof.
-  intros σ j HI Hg. apply (Conv.igl _ _ _ _ (Conv.step_inv _ _ _ _ norm_none norm_some σ (Conv.RunC upd j) HI)).
-  destruct (d_eff_static σ (Conv.RunC upd j) j) as [-> _]. rewrite Hg. reflexivity.
+  intros s c it q k oi nx ms W (D1 & D2 & D3 & D4) Eq Sh.
+  rewrite Eq in D3. cbn [forallb] in D3. apply andb_prop in D3 as [D3 _].
+  destruct Sh as [k Hc Ha Hk Ho Hit Htok|k i pre la nx ms Hp Ha Hla Hinv Hown Ho Hit|k i pre Hlt Hown Hg Hpre Ha Htx Hty Ho|k Hit Ha Hk Ho Hy].
+  - destruct it; try discriminate. rewrite (Htok t eq_refl). auto.
+  - exfalso. destruct Hp as [(_ & P & _)|(_ & _ & _ & _ & _ & id & ->)]; [congruence|discriminate].
+  - rewrite Htx. d_proj. repeat split; auto. intros j Hj. unfold Core.set_inst. destruct (Nat.eqb_spec j i) as [->|]; [rewrite Hty|]; reflexivity.
+  - subst it. discriminate.
 Qed.
 
 Lemma d_done_quiet : forall s o c' x, d_W1 s -> d_done s c' -> In x (snd (step s o)) -> for_conn c' x = false.
 Proof.
-  intros s o c' x W (D1 & D2 & D3 & D4) H. destruct (for_conn c' x) eqn:Ef; [|reflexivity]. exfalso.
-  pose proof (d_tag s o c' x H Ef) as ->. revert H.
-  cbn [Core.step Core.acts_of]. destruct (cqueue (conns s c')) as [|[id|id k|i|i|] q] eqn:Eq; try discriminate; cbn [snd]; try (intros []).
-  - assert (A : In (Core.QAccess i) (cqueue (conns s c'))) by (rewrite Eq; left; reflexivity).
-    apply (a_qacc s W) in A as [A1 A2]. unfold Core.is_gone. rewrite (D4 i A1 A2). cbn [snd]. intros [].
-  - assert (A : In (Core.QSub i) (cqueue (conns s c'))) by (rewrite Eq; left; reflexivity).
-    apply (a_qsub s W) in A as [A1 A2]. pose proof (D4 i A1 A2) as Hg.
-    pose proof (Conv.igl _ _ _ _ (a_inv s W) i Hg) as Hl. unfold Core.is_live.
-    rewrite (d_runc_gone (cv s) i (a_inv s W) Hg), andb_false_r. rewrite Hl. cbn [snd andb].
-    destruct (ccq (csubs (cv s) i)) as [|[|e] r]; intros [].
+  intros s o c' x W D H. destruct (for_conn c' x) eqn:Ef; [|reflexivity]. exfalso.
+  pose proof (d_tag s o c' x W H Ef) as ->.
+  destruct (cqueue (conns s c')) as [|it q] eqn:Eq.
+  - revert H. cbn [Core.step]. rewrite Eq. intros [].
+  - pose proof (d_task_summary s c' it q W Eq) as Sm.
+    destruct (conn_task s c') as [[[k oi] nx] ms] eqn:Ect. rewrite (d_step_grant s c' it q Eq k oi nx ms Ect) in H. cbn [snd] in H.
+    destruct Sm as (_ & _ & _ & Sh). destruct (d_done_shape s c' it q k oi nx ms W D Eq Sh) as (E & _). rewrite E in H. destruct H.
 Qed.
 
 Lemma d_done_keep : forall s o c', d_W1 s -> d_done s c' -> d_done (fst (step s o)) c'.
 Proof.
-  intros s o c' W (D1 & D2 & D3 & D4).
-  assert (K : cur (conns (fst (step s o)) c') = None /\ disc (conns (fst (step s o)) c') = true /\
-              forallb d_istask (cqueue (conns (fst (step s o)) c')) = true /\
-              (forall j, j < next (fst (step s o)) -> owner (insts (fst (step s o)) j) = c' -> j < next s)).
-  { d_step_cases s o; d_proj; try (repeat split; auto; fail); try d_es_look c'.
-    all: try (split; [exact D1|split; [exact D2|split; [rewrite forallb_app, D3; apply d_esq_tasks|auto]]]).
-    all: destruct (Nat.eq_dec c' c) as [->|Hcc];
-         [|rewrite !d_set_conn_neq by exact Hcc; split; [exact D1|split; [exact D2|split; [exact D3|]]]].
-    all: try congruence.
-    all: try (rewrite Eq in D3; cbn in D3; discriminate).
-    all: try (intros j Hj; unfold Core.set_inst; d_eqb; d_proj; intros; try congruence; lia).
-    all: try (intros; assumption).
-    all: rewrite !d_set_conn_eq; d_proj; rewrite Eq in D3; cbn [forallb] in D3; apply andb_prop in D3 as [_ D3].
-    all: try (split; [exact D1|split; [exact D2|split; [exact D3|intros; assumption]]]).
-    all: split; [reflexivity|split; [exact D2|split; [exact D3|intros; assumption]]]. }
-  destruct K as (K1 & K2 & K3 & K4). split; [exact K1|]. split; [exact K2|]. split; [exact K3|].
-  intros j Hj Ho. pose proof (K4 j Hj Ho) as Hlt. rewrite d_owner_frame in Ho by exact Hlt.
-  apply d_gone_keep. apply D4; assumption.
-Qed.
-
-Lemma d_unsub_not_respond : forall c c0 y ids, ~ In (OConnUnsub c) (respond_ids c0 y ids).
-Proof.
-  intros c c0 y ids H. pose proof (d_fc_respond c c0 y ids _ H) as E. cbn in E.
-  unfold Core.respond_ids in H. destruct ids as [|id r]; [destruct H|]. apply in_app_or in H as [H|H].
-  - destruct (Conv.sent val upd y); [destruct H as [H|[]]; discriminate|]. destruct H as [H|H]; [discriminate|].
-    clear E. revert H. generalize (Conv.sver val upd y, Conv.sval val upd y). induction (Conv.eq val upd y) as [|e l IH]; intros p; cbn [Core.replay_o]; [intros []|].
-    destruct (proc_o c0 p e) as [p' oo] eqn:Ep. intros H. apply in_app_or in H as [H|H]; [|eapply IH; exact H].
-    destruct p as [ver v]. unfold Core.proc_o in Ep. destruct (Nat.eqb ver (Conv.e_ver upd e)); [destruct (Conv.e_upd upd e)|];
-      injection Ep as _ <-; cbn in H; intuition discriminate.
-  - apply in_map_iff in H as (id' & E' & _). discriminate.
-Qed.
-Lemma d_unsub_not_ev : forall c c0 y, ~ In (OConnUnsub c) (d_evout c0 y).
-Proof.
-  intros c c0 y. unfold d_evout. destruct (ccq y) as [|[|e] r]; try (intros []).
-  destruct (loaded y && negb (Conv.flag val upd y)); [|intros []].
-  unfold Core.proc_o. destruct (Nat.eqb (Conv.sver val upd y) (Conv.e_ver upd e)); [destruct (Conv.e_upd upd e)|]; cbn; intuition discriminate.
+  intros s o c' W D. pose proof D as (D1 & D2 & D3 & D4). destruct (d_grant_dec o) as [[c ->]|Hng].
+  - destruct (cqueue (conns s c)) as [|it q] eqn:Eq.
+    + cbn [Core.step]. rewrite Eq. exact D.
+    + pose proof (d_task_summary s c it q W Eq) as Sm.
+      destruct (conn_task s c) as [[[k oi] nx] ms] eqn:Ect. rewrite (d_step_grant s c it q Eq k oi nx ms Ect). cbn [fst].
+      destruct Sm as (Sq & Sd & Sts & Sh). unfold d_done. d_proj.
+      destruct (Nat.eq_dec c' c) as [->|Hcc].
+      * destruct (d_done_shape s c it q k oi nx ms W D Eq Sh) as (E1 & E2 & E3 & E4). rewrite d_set_conn_eq, Sq, Sd, E3.
+        rewrite Eq in D3. cbn [forallb] in D3. apply andb_prop in D3 as [_ D3].
+        repeat split; try assumption. intros j Hj Ho. rewrite E4 in Ho by exact Hj. rewrite d_fold_gone, (D4 j Hj Ho). reflexivity.
+      * rewrite d_set_conn_neq by exact Hcc. repeat split; try assumption. intros j Hj Ho.
+        pose proof (d_shape_next s c it q k oi nx ms Sh) as Hnx.
+        assert (Hlt : j < next s).
+        { destruct Hnx as [(-> & _)|(-> & _ & ->)]; [exact Hj|]. destruct (Nat.eq_dec j (next s)) as [->|]; [|lia].
+          rewrite d_set_inst_eq in Ho. destruct (d_shape_oi s c it q k _ _ _ (next s) W Sh eq_refl) as (X & _). congruence. }
+        assert (Ho' : owner (insts s j) = c').
+        { destruct oi as [i|]; [|exact Ho]. unfold Core.set_inst in Ho. destruct (Nat.eqb_spec j i) as [->|]; [|exact Ho].
+          destruct (d_shape_oi s c it q k _ _ _ i W Sh eq_refl) as (X & [(_ & Y)|(Y & _)]); [congruence|lia]. }
+        rewrite d_fold_gone, (D4 j Hlt Ho'). reflexivity.
+  - destruct (d_ng_next s o Hng) as [En _]. destruct (d_ng_conn s o c' Hng) as (Ec & _ & Ed & _).
+    unfold d_done. rewrite Ec, En, (Ed D2). repeat split; try assumption.
+    + apply forallb_forall. intros x Hx. apply d_queue_new in Hx as [Hx|Hx]; [rewrite forallb_forall in D3; apply D3; exact Hx| |exact Hng].
+      destruct o; try contradiction; try (destruct Hx as (_ & -> & Hx); congruence).
+      * destruct Hx as (-> & _). reflexivity.
+      * apply d_in_esq_other in Hx as [j [->| ->]]; reflexivity.
+    + intros j Hj Ho. destruct (d_ng_inst s o j Hng) as (Eo & _). cbv zeta in Eo. rewrite Eo in Ho. apply d_gone_keep. apply D4; assumption.
 Qed.
 
 Lemma d_done_new : forall s o c', d_W1 s -> d_W2 s -> In (OConnUnsub c') (snd (step s o)) ->
   snd (step s o) = [OConnUnsub c'] /\ d_done (fst (step s o)) c'.
 Proof.
-  intros s o c' W U.
-  d_step_cases s o; try solve [intros []].
-  all: try solve [intros [H|[]]; discriminate].
-  all: try solve [intros H; exfalso; eapply d_unsub_not_respond; exact H].
-  { destruct (Core.is_add_head val upd (cv s) && negb (getreq s)); [intros [H|[]]; discriminate|intros []]. }
-  { intros H. apply in_app_or in H as [H|[H|[]]]; [|discriminate]. destruct (mqsub s); [destruct H|destruct H as [H|[]]; discriminate]. }
-  all: try solve [intros H; apply in_map_iff in H as (id' & E' & _); discriminate].
-  all: try solve [change (In (OConnUnsub c') (d_evout c (csubs (cv s) i) ++ ?r) -> ?G) with (In (OConnUnsub c') (d_evout c (csubs (cv s) i) ++ r) -> G);
-       intros H; exfalso; apply in_app_or in H as [H|H]; [eapply d_unsub_not_ev; exact H|]; try (destruct H);
-       eapply d_unsub_not_respond; exact H].
-  all: intros [H|[]]; injection H as ->; (split; [reflexivity|]).
-  all: pose proof (b_okq s U c') as Ok; rewrite Eq in Ok; cbn [d_okq] in Ok.
-  all: assert (Hd : disc (conns s c') = true) by
-         (destruct (disc (conns s c')) eqn:E; [reflexivity|]; pose proof (b_disc s U c' E) as X; rewrite Eq in X; discriminate).
-  all: d_proj; unfold d_done; d_proj; rewrite d_set_conn_eq; d_proj; (split; [reflexivity|split; [exact Hd|split; [exact Ok|]]]).
-  all: intros j Hj Ho; rewrite d_fold_gone, d_disp_map.
-  all: replace (Conv.mem j (Core.insts_of val upd s c')) with true; [apply orb_true_r|].
-  all: symmetry; apply Conv.mem_In; apply d_insts_of_in; split; [exact Hj|].
-  all: revert Ho; unfold Core.set_inst; d_eqb; d_proj; auto.
+  intros s o c' W U H. destruct (d_grant_dec o) as [[c ->]|Hng]; [|apply (d_ng_out s o _ Hng) in H; discriminate].
+  destruct (cqueue (conns s c)) as [|it q] eqn:Eq.
+  - revert H. cbn [Core.step]. rewrite Eq. intros [].
+  - pose proof (d_task_summary s c it q W Eq) as Sm.
+    destruct (conn_task s c) as [[[k oi] nx] ms] eqn:Ect. rewrite (d_step_grant s c it q Eq k oi nx ms Ect) in *. cbn [fst snd] in *.
+    destruct Sm as (Sq & Sd & Sts & Sh).
+    destruct (d_shape_out s c it q k oi nx ms Sh) as [P|(Hit & P)].
+    + rewrite forallb_forall in P. apply P in H. discriminate.
+    + rewrite P in H. destruct H as [H|[]]. injection H as ->. split; [exact P|]. subst it.
+      pose proof (d_b_okq s U c') as Ok. rewrite Eq in Ok. cbn [d_okq] in Ok.
+      assert (Hd : disc (conns s c') = true).
+      { destruct (disc (conns s c')) eqn:E; [reflexivity|]. pose proof (d_b_disc s U c' E) as X. rewrite Eq in X. discriminate. }
+      unfold d_done. d_proj. rewrite d_set_conn_eq, Sq, Sd.
+      assert (Hk : cur (tx k) = None /\ nx = next s /\ ta k = map (fun j => Conv.Dispose upd j true) (insts_of s c')).
+      { destruct Sh as [k Hc Ha Hk Ho Hit Htok|k i pre la nx ms Hp Ha Hla Hinv Hown Ho Hit|k i pre Hlt Hown Hg Hpre Ha Htx Hty Ho|k Hit Ha Hk Ho Hy]; try discriminate; try congruence.
+        all: try (destruct Hpre as [(X & _)|(X & _)]; discriminate).
+        all: auto. }
+      destruct Hk as (K1 & K2 & K3). rewrite K2. repeat split; try assumption.
+      intros j Hj Ho. rewrite d_fold_gone, K3, d_disp_map.
+      replace (Conv.mem j (insts_of s c')) with true; [apply orb_true_r|].
+      symmetry. apply Conv.mem_In. apply d_insts_of_in. split; [exact Hj|].
+      destruct oi as [i|]; [|exact Ho]. unfold Core.set_inst in Ho. destruct (Nat.eqb_spec j i) as [->|]; [|exact Ho].
+      destruct (d_shape_oi s c' QDispose q k _ _ _ i W Sh eq_refl) as (X & [(_ & Y)|(Y & _)]); [congruence|lia].
 Qed.
 
 Lemma d_app_split : forall (A : Type) (l1 l2 pre post : list A) (x : A), l1 ++ l2 = pre ++ x :: post ->
@@ -1481,24 +1967,180 @@ Proof.
   intros pre post H. apply (K pre post H).
 Qed.
 
-(* ---------- D: responses ---------- *)
+(* ---------- D: responses: counting request ids ---------- *)
 Definition d_co (id : nat) (l : list nat) : nat := count_occ Nat.eq_dec l id.
 Notation co := d_co.
 Lemma d_co_app : forall id l1 l2, co id (l1 ++ l2) = co id l1 + co id l2.
 Proof. intros. unfold d_co. apply count_occ_app. Qed.
 Lemma d_co_nil : forall id, co id [] = 0.
 Proof. reflexivity. Qed.
-Lemma d_co_one : forall id x, co id [x] = if Nat.eqb x id then 1 else 0.
-Proof. intros id x. unfold d_co. cbn. destruct (Nat.eq_dec x id) as [->|H]; [rewrite Nat.eqb_refl|apply Nat.eqb_neq in H; rewrite H]; reflexivity. Qed.
 Lemma d_co_cons : forall id x l, co id (x :: l) = co id [x] + co id l.
 Proof. intros id x l. change (x :: l) with ([x] ++ l). apply d_co_app. Qed.
 Notation reqs := (Core.reqs upd).
 Notation dropped := (Core.dropped val upd).
 
+Lemma d_resps_app : forall c l1 l2, resps c (l1 ++ l2) = resps c l1 ++ resps c l2.
+Proof. intros. unfold Core.resps. apply flat_map_app. Qed.
+Lemma d_resps_nd_proc : forall c c0 p e, resps c (snd (proc_o c0 p e)) = [].
+Proof.
+  intros c c0 [ver v] e. unfold Core.proc_o. destruct (Nat.eqb ver (Conv.e_ver upd e)); [|reflexivity].
+  destruct (Conv.e_upd upd e); reflexivity.
+Qed.
+Lemma d_resps_replay : forall c c0 l p, resps c (replay_o c0 p l) = [].
+Proof.
+  intros c c0 l. induction l as [|e l IH]; intros p; cbn [Core.replay_o]; [reflexivity|].
+  pose proof (d_resps_nd_proc c c0 p e) as H. destruct (proc_o c0 p e) as [p' oo]. cbn [snd] in H.
+  rewrite d_resps_app, H, IH. reflexivity.
+Qed.
+Lemma d_resps_drained : forall c c0 x, resps c (drained c0 x) = [].
+Proof. intros. apply d_resps_replay. Qed.
+Lemma d_resps_map_resp : forall c ids, resps c (map (fun id' => Core.OResp val upd c id' None) ids) = ids.
+Proof. intros c ids. induction ids as [|a l IH]; [reflexivity|]. cbn [map Core.resps flat_map]. rewrite Nat.eqb_refl. cbn. f_equal. exact IH. Qed.
+Lemma d_ids_app : forall l1 l2, ids_of (l1 ++ l2) = ids_of l1 ++ ids_of l2.
+Proof. intros. unfold Core.ids_of. apply flat_map_app. Qed.
+
+Definition d_w (rid : nat) (y : Core.inst) : nat := co rid (ids_of (acb y)) + co rid (rcb y) + co rid (lost y).
+
+Section d_Task2.
+Variables (c i rid : nat).
+Notation dispose_t := (Core.dispose_t val upd app norm i).
+Notation remove_direct := (Core.remove_direct val upd app norm i).
+Notation unsubscribe_direct := (Core.unsubscribe_direct val upd app norm c i).
+Notation load_access := (Core.load_access val upd c i).
+Notation handle_reaccess := (Core.handle_reaccess val upd app norm c i).
+Notation reaccess := (Core.reaccess val upd app norm c i).
+Notation respond := (Core.respond val upd app norm c i).
+Notation on_ready := (Core.on_ready val upd app norm c i).
+Notation unqueue_reaccess := (Core.unqueue_reaccess val upd app norm c i).
+Notation run_cb := (Core.run_cb val upd app norm c i).
+
+Definition d_m (k : tk) : nat := d_w rid (ty k) + co rid (resps c (tout k)).
+
+Ltac d_m_crush :=
+  unfold d_m, d_w; d_tkred; cbn [Core.upd_y Core.acb Core.rcb Core.lost];
+  rewrite ?d_resps_app, ?d_ids_app, ?d_co_app, ?d_resps_drained, ?d_resps_map_resp; cbn [Core.resps flat_map Core.ids_of List.app];
+  rewrite ?Nat.eqb_refl; cbn [List.app]; rewrite ?d_co_nil; try lia.
+
+Lemma d_m_setx : forall k x, d_m (setx k x) = d_m k.
+Proof. reflexivity. Qed.
+Lemma d_m_act : forall k a, d_m (act k a) = d_m k.
+Proof. reflexivity. Qed.
+Lemma d_m_dispose : forall k, d_m (dispose_t k) = d_m k.
+Proof. intros k. unfold Core.dispose_t. cbv zeta. destruct (Core.gone_ val upd i k); [reflexivity|]. d_m_crush. Qed.
+Lemma d_m_remove : forall k n, d_m (remove_direct k n) = d_m k.
+Proof.
+  intros k n. unfold Core.remove_direct. cbv zeta. destruct (Nat.eqb (direct (tx k)) 0); [reflexivity|].
+  destruct (Nat.eqb _ 0); [rewrite d_m_dispose|]; reflexivity.
+Qed.
+Lemma d_m_unsubd : forall k, d_m (unsubscribe_direct k) = d_m k.
+Proof.
+  intros k. unfold Core.unsubscribe_direct. destruct (Nat.ltb 0 (direct (tx k))); [|reflexivity].
+  transitivity (d_m (remove_direct k (direct (tx k)))); [|apply d_m_remove]. d_m_crush.
+Qed.
+Lemma d_m_load : forall k b, d_m (load_access k b) = d_m k + co rid (ids_of [b]).
+Proof. intros k b. unfold Core.load_access. cbv zeta. destruct (inflight (ty k)); d_m_crush. Qed.
+Lemma d_m_hre : forall k, d_m (handle_reaccess k) = d_m k.
+Proof.
+  intros k. unfold Core.handle_reaccess. cbv zeta. destruct (Nat.eqb _ 0); [d_m_crush|].
+  rewrite d_m_load. d_m_crush.
+Qed.
+Lemma d_m_reaccess : forall k, d_m (reaccess k) = d_m k.
+Proof.
+  intros k. unfold Core.reaccess. cbv zeta. destruct (Core.gone_ val upd i k); [reflexivity|].
+  destruct (Core.flag_ val upd i k); [d_m_crush|apply d_m_hre].
+Qed.
+Lemma d_m_unq : forall k, d_m (unqueue_reaccess k) = d_m k.
+Proof.
+  intros k. unfold Core.unqueue_reaccess. cbv zeta. destruct (Core.gone_ val upd i _); [d_m_crush|].
+  destruct (reflag _); [rewrite d_m_hre|]; d_m_crush.
+Qed.
+Lemma d_m_respond : forall k ids, d_m (respond k ids) = d_m k + co rid ids.
+Proof.
+  intros k ids. unfold Core.respond. destruct ids as [|id r]; [rewrite d_co_nil; lia|]. cbv zeta.
+  rewrite (d_co_cons rid id r).
+  match goal with |- d_m (emit ?K ?o) = _ =>
+    assert (X : d_m K = d_m k + co rid [id]); [|transitivity (d_m K + co rid r); [d_m_crush|lia]] end.
+  destruct (Core.sent_ val upd i k); [d_m_crush|].
+  match goal with |- context [if reflag ?y then _ else _] => destruct (reflag y) end; [rewrite d_m_hre|]; d_m_crush.
+Qed.
+Lemma d_m_onready : forall k id, d_m (on_ready k id) = d_m k + co rid [id].
+Proof.
+  intros k id. unfold Core.on_ready. cbv zeta. destruct (Core.loaded_ val upd i k); [apply d_m_respond|d_m_crush].
+Qed.
+Lemma d_m_runcb : forall g k b, (g = true -> Core.gone_ val upd i k = false) -> d_m (run_cb g k b) = d_m k + co rid (ids_of [b]).
+Proof.
+  intros g k [id|] Hg; cbn [Core.run_cb]; destruct g.
+  - rewrite (Hg eq_refl). apply d_m_onready.
+  - rewrite d_m_remove. d_m_crush.
+  - rewrite d_m_unq. d_m_crush.
+  - rewrite d_m_unq, d_m_unsubd. d_m_crush.
+Qed.
+Lemma d_m_fold : forall g l k, (g = true -> Core.gone_ val upd i k = false) ->
+  d_m (fold_left (run_cb g) l k) = d_m k + co rid (ids_of l).
+Proof.
+  intros g l. induction l as [|b l IH]; intros k Hg; cbn [fold_left]; [d_m_crush|].
+  rewrite IH.
+  - rewrite d_m_runcb by assumption. change (b :: l) with ([b] ++ l). rewrite d_ids_app, d_co_app. lia.
+  - intros ->. rewrite (d_rel_gone_false i _ _ _ (d_runcb_true_rel c i k b)). apply Hg. reflexivity.
+Qed.
+End d_Task2.
+
 Definition d_qid (x : Core.qitem) : list nat := match x with Core.QReq id | Core.QUnsub id _ => [id] | _ => [] end.
-Definition d_queued (s : st) (c : nat) : list nat := flat_map d_qid (cqueue (conns s c)).
-Definition d_waiting (s : st) (c : nat) : list nat :=
-  match cur (conns s c) with Some i => acb (insts s i) ++ rcb (insts s i) | None => [] end.
+
+Ltac d_mcalc :=
+  unfold d_m, d_w; d_tkred; cbn [Core.upd_y Core.acb Core.rcb Core.lost Core.owner];
+  rewrite ?d_resps_app, ?d_ids_app, ?d_co_app, ?d_resps_drained, ?d_resps_map_resp, ?d_resps_nd_proc;
+  cbn [Core.resps flat_map Core.ids_of List.app d_qid];
+  rewrite ?Nat.eqb_refl; cbn [List.app]; rewrite ?d_co_nil; try lia.
+
+Lemma d_task_measure : forall rid s c it q, d_W1 s -> cqueue (conns s c) = it :: q ->
+  let '(k, oi, nx, ms) := conn_task s c in
+  match oi with
+  | Some i => d_m c rid k = (if Nat.ltb i (next s) then d_w rid (insts s i) else 0) + co rid (d_qid it)
+  | None => co rid (resps c (tout k)) = co rid (d_qid it)
+  end.
+Proof.
+  intros rid s c it q W Eq. d_ct_unfold Eq. destruct it as [id|id cnt|t|i|i|].
+  - (* request *)
+    cbn [Core.cur Core.with_q]. destruct (cur (conns s c)) as [i|] eqn:Ecur.
+    + destruct (d_a_cur s W c i Ecur) as (Flt & _ & Fng). apply Nat.ltb_lt in Flt. rewrite Flt.
+      d_tkred. destruct (acc (insts s i)) as [[|]|].
+      * rewrite d_m_onready. d_mcalc.
+      * rewrite d_m_remove. d_mcalc.
+      * rewrite d_m_load. d_mcalc.
+    + rewrite Nat.ltb_irrefl. rewrite d_m_load. destruct (mqsub s); d_mcalc.
+  - (* unsubscribe *)
+    cbn [Core.cur Core.with_q]. destruct (cur (conns s c)) as [i|] eqn:Ecur.
+    + destruct (d_a_cur s W c i Ecur) as (Flt & _ & Fng). apply Nat.ltb_lt in Flt. rewrite Flt.
+      destruct (Nat.eqb cnt 0); [d_mcalc|]. destruct (Nat.leb cnt _); [|d_mcalc].
+      rewrite d_m_remove. destruct (Nat.eqb _ 0); d_mcalc.
+    + d_mcalc.
+  - (* token *)
+    cbn [Core.cur Core.with_q]. destruct (cur (conns s c)) as [i|] eqn:Ecur.
+    + destruct (d_a_cur s W c i Ecur) as (Flt & _ & Fng). apply Nat.ltb_lt in Flt. rewrite Flt.
+      destruct (tokset _); [rewrite d_m_reaccess|]; d_mcalc.
+    + d_mcalc.
+  - (* access answer *)
+    assert (A : In (QAccess i) (cqueue (conns s c))) by (rewrite Eq; left; reflexivity).
+    apply (d_a_qacc s W) in A as (Flt & Fown). apply Nat.ltb_lt in Flt. rewrite Flt.
+    unfold Core.is_gone. destruct (gone (csubs (cv s) i)) eqn:Eg; [d_mcalc|].
+    destruct (ans (insts s i)) as [g|]; [|d_mcalc].
+    rewrite d_m_fold; [d_mcalc|]. intros _. exact Eg.
+  - (* subscription task *)
+    assert (A : In (QSub i) (cqueue (conns s c))) by (rewrite Eq; left; reflexivity).
+    apply (d_a_qsub s W) in A as (Flt & Fown). apply Nat.ltb_lt in Flt. rewrite Flt.
+    destruct (ccq (csubs (cv s) i)) as [|[|e|] r]; [d_mcalc| | |].
+    + destruct (gone (csubs (cv s) i)); [d_mcalc|]. rewrite d_m_respond. d_mcalc.
+    + destruct (_ && _); d_mcalc.
+    + rewrite d_m_reaccess. d_mcalc.
+  - (* disposal *)
+    cbn [Core.cur Core.with_q].
+    match goal with |- context [fold_left (Core.act val upd app norm) ?l ?k] => destruct (d_fold_act l k) as (A & B & C & D & E) end.
+    destruct (cur (conns s c)) as [i|] eqn:Ecur.
+    + destruct (d_a_cur s W c i Ecur) as (Flt & _ & Fng). apply Nat.ltb_lt in Flt. rewrite Flt.
+      unfold d_m, d_w. d_tkred. rewrite D, E. d_mcalc.
+    + d_tkred. rewrite E. d_mcalc.
+Qed.
 
 (* sum over the instances of a connection *)
 Fixpoint d_sum (own : nat -> nat) (w : nat -> nat) (c n : nat) : nat :=
@@ -1519,45 +2161,21 @@ Proof.
   rewrite IH; [|intros; apply H1; lia|intros; apply H2; auto; lia]. rewrite (H1 n) by lia.
   destruct (Nat.eqb_spec (own n) c); [rewrite H2 by (auto; lia)|]; reflexivity.
 Qed.
-Lemma d_sum_upd : forall own own' w w' c n i0 e,
-  (forall j, j < n -> own' j = own j) -> (forall j, j < n -> j <> i0 -> w' j = w j) -> i0 < n -> w' i0 = w i0 + e ->
-  d_sum own' w' c n = d_sum own w c n + (if Nat.eqb (own i0) c then e else 0).
+Lemma d_sum_upd : forall own own' w w' c n i0,
+  (forall j, j < n -> own' j = own j) -> (forall j, j < n -> j <> i0 -> w' j = w j) -> i0 < n -> own i0 = c ->
+  d_sum own' w' c n + w i0 = d_sum own w c n + w' i0.
 Proof.
-  intros own own' w w' c n i0 e. induction n as [|n IH]; intros H1 H2 H3 H4; [lia|]. cbn [d_sum].
+  intros own own' w w' c n i0. induction n as [|n IH]; intros H1 H2 H3 H4; [lia|]. cbn [d_sum].
   rewrite (H1 n) by lia. destruct (Nat.eq_dec i0 n) as [->|Hne].
-  - rewrite (d_sum_ext own own' w w' c n); [|intros; apply H1; lia|intros; apply H2; lia]. rewrite H4.
-    destruct (Nat.eqb (own n) c); lia.
-  - rewrite IH; [|intros; apply H1; lia|intros; apply H2; lia|lia|exact H4]. rewrite (H2 n) by lia.
-    destruct (Nat.eqb (own n) c); destruct (Nat.eqb (own i0) c); lia.
+  - rewrite (d_sum_ext own own' w w' c n); [|intros; apply H1; lia|intros; apply H2; lia]. rewrite H4, Nat.eqb_refl. lia.
+  - assert (X : d_sum own' w' c n + w i0 = d_sum own w c n + w' i0) by (apply IH; [intros; apply H1; lia|intros; apply H2; lia|lia|exact H4]).
+    rewrite (H2 n) by lia. destruct (Nat.eqb (own n) c); lia.
 Qed.
 
-Lemma d_next_le : forall s o, next (fst (step s o)) <= S (next s).
-Proof. intros s o. d_step_cases s o; d_proj; lia. Qed.
-Lemma d_new_lost : forall s o, next (fst (step s o)) = S (next s) -> lost (insts (fst (step s o)) (next s)) = [].
-Proof. intros s o. d_step_cases s o; d_proj; try lia. intros _. rewrite d_set_inst_eq. reflexivity. Qed.
-
-Lemma d_dropped_frame : forall id s o c',
-  (forall j, j < next s -> owner (insts s j) = c' -> lost (insts (fst (step s o)) j) = lost (insts s j)) ->
-  co id (dropped (fst (step s o)) c') = co id (dropped s c').
-Proof.
-  intros id s o c' H. rewrite !d_co_dropped. pose proof (d_next_mono s o) as M1. pose proof (d_next_le s o) as M2.
-  assert (E : next (fst (step s o)) = next s \/ next (fst (step s o)) = S (next s)) by lia. destruct E as [E|E]; rewrite E.
-  - apply d_sum_ext; [intros; apply d_owner_frame; assumption|]. intros j Hj Ho. rewrite H by assumption. reflexivity.
-  - cbn [d_sum]. rewrite (d_new_lost s o E), d_co_nil.
-    replace (if Nat.eqb (owner (insts (fst (step s o)) (next s))) c' then 0 else 0) with 0 by (destruct (Nat.eqb _ _); reflexivity).
-    rewrite Nat.add_0_r. apply d_sum_ext; [intros; apply d_owner_frame; assumption|]. intros j Hj Ho. rewrite H by assumption. reflexivity.
-Qed.
-
-Lemma d_dropped_upd : forall id s o c' i0 e, next (fst (step s o)) = next s -> i0 < next s ->
-  (forall j, j < next s -> j <> i0 -> lost (insts (fst (step s o)) j) = lost (insts s j)) ->
-  co id (lost (insts (fst (step s o)) i0)) = co id (lost (insts s i0)) + e ->
-  co id (dropped (fst (step s o)) c') = co id (dropped s c') + (if Nat.eqb (owner (insts s i0)) c' then e else 0).
-Proof.
-  intros id s o c' i0 e E Hi H1 H2. rewrite !d_co_dropped, E.
-  apply (d_sum_upd (fun i => owner (insts s i)) _ (fun i => co id (lost (insts s i)))); try assumption.
-  - intros; apply d_owner_frame; assumption.
-  - intros j Hj Hne. rewrite H1 by assumption. reflexivity.
-Qed.
+Definition d_queued (s : st) (c : nat) : list nat := flat_map d_qid (cqueue (conns s c)).
+(* ids queued, waiting at an instance, or dropped *)
+Definition d_total (id : nat) (s : st) (c : nat) : nat :=
+  co id (d_queued s c) + d_sum (fun i => owner (insts s i)) (fun i => d_w id (insts s i)) c (next s).
 
 Lemma d_resps_none : forall c' l, (forall x, In x l -> for_conn c' x = false) -> resps c' l = [].
 Proof.
@@ -1574,142 +2192,95 @@ Proof.
   apply IH. intros y Hy. apply H. right. exact Hy.
 Qed.
 
-(* ops other than the grant of c' *)
-Lemma d_fr_queued : forall s o c', o <> Core.GrantConn upd c' ->
+Lemma d_fr_queued : forall s o c', d_nongrant o ->
   d_queued (fst (step s o)) c' = d_queued s c' ++ (if disc (conns s c') then [] else reqs c' [o]).
 Proof.
-  intros s o c'. unfold d_queued.
-  d_step_cases s o; d_proj; intros Hne; try d_es_look c'; cbn [Core.reqs flat_map].
+  intros s o c' Hng. unfold d_queued.
+  d_ng_cases s o; d_proj; try d_es_look c'; cbn [Core.reqs flat_map].
   all: try (destruct (disc (conns s c')); rewrite ?app_nil_r; reflexivity).
   all: try (rewrite flat_map_app, d_qid_esq; destruct (disc (conns s c')); rewrite ?app_nil_r; reflexivity).
-  all: unfold Core.set_conn; destruct (Nat.eqb_spec c' c) as [->|Hcc]; try congruence; d_proj.
-  all: rewrite ?(proj2 (Nat.eqb_neq c c') (not_eq_sym Hcc)), ?Nat.eqb_refl, ?Edisc, ?flat_map_app; cbn [flat_map d_qid]; rewrite ?app_nil_r; try reflexivity.
-  all: try (destruct (disc (conns s c')); rewrite ?app_nil_r; reflexivity).
+  all: try (unfold Core.set_conn; destruct (Nat.eqb_spec c' c) as [->|Hcc]; d_proj;
+            rewrite ?(proj2 (Nat.eqb_neq c c') (not_eq_sym Hcc)), ?Nat.eqb_refl, ?Edisc, ?flat_map_app; cbn [flat_map d_qid]; rewrite ?app_nil_r; try reflexivity;
+            destruct (disc (conns s c')); rewrite ?app_nil_r; reflexivity).
+  all: try (unfold Core.set_conn; destruct (Nat.eqb_spec c' c) as [->|Hcc]; d_proj;
+            rewrite ?flat_map_app; cbn [flat_map d_qid]; rewrite ?app_nil_r;
+            match goal with |- context [if ?b then _ else _] => destruct b end; rewrite ?app_nil_r; reflexivity).
+  exfalso. eapply Hng. reflexivity.
 Qed.
 
-Lemma d_fr_conn : forall s o c', o <> Core.GrantConn upd c' ->
-  cur (conns (fst (step s o)) c') = cur (conns s c').
-Proof.
-  intros s o c'. d_step_cases s o; d_proj; intros Hne; try d_es_look c'; try reflexivity.
-  all: unfold Core.set_conn; destruct (Nat.eqb_spec c' c) as [->|Hcc]; try congruence; d_proj; reflexivity.
-Qed.
-
-Lemma d_fr_inst : forall s o c' j, d_W1 s -> o <> Core.GrantConn upd c' -> j < next s -> owner (insts s j) = c' ->
-  acb (insts (fst (step s o)) j) = acb (insts s j) /\ rcb (insts (fst (step s o)) j) = rcb (insts s j) /\
-  lost (insts (fst (step s o)) j) = lost (insts s j).
-Proof.
-  intros s o c' j W. d_step_cases s o; d_proj; intros Hne Hj Ho; auto; d_facts W.
-  all: try (rewrite d_set_inst_neq by lia; auto; fail).
-  all: unfold Core.set_inst; destruct (Nat.eqb_spec j i) as [->|Hji]; d_proj; auto; try congruence.
-Qed.
-
-Lemma d_resps_app : forall c l1 l2, resps c (l1 ++ l2) = resps c l1 ++ resps c l2.
-Proof. intros. unfold Core.resps. apply flat_map_app. Qed.
-Lemma d_resps_proc : forall c c0 p e, resps c (snd (proc_o c0 p e)) = [].
-Proof.
-  intros c c0 [ver v] e. unfold Core.proc_o. destruct (Nat.eqb ver (Conv.e_ver upd e)); [|reflexivity].
-  destruct (Conv.e_upd upd e); reflexivity.
-Qed.
-Lemma d_resps_replay : forall c c0 l p, resps c (replay_o c0 p l) = [].
-Proof.
-  intros c c0 l. induction l as [|e l IH]; intros p; cbn [Core.replay_o]; [reflexivity|].
-  pose proof (d_resps_proc c c0 p e) as H. destruct (proc_o c0 p e) as [p' oo]. cbn [snd] in H.
-  rewrite d_resps_app, H, IH. reflexivity.
-Qed.
-Lemma d_resps_ev : forall c c0 y, resps c (d_evout c0 y) = [].
-Proof.
-  intros c c0 y. unfold d_evout. destruct (ccq y) as [|[|e] r]; try reflexivity.
-  destruct (loaded y && negb (Conv.flag val upd y)); [apply d_resps_proc|reflexivity].
-Qed.
-Lemma d_resps_map_resp : forall c ids, resps c (map (fun id' => Core.OResp val upd c id' None) ids) = ids.
-Proof. intros c ids. induction ids as [|a l IH]; [reflexivity|]. cbn [map Core.resps flat_map]. rewrite Nat.eqb_refl. cbn. f_equal. exact IH. Qed.
-Lemma d_resps_map_err : forall c e ids, resps c (map (fun id' => Core.OErr val upd c id' e) ids) = ids.
-Proof. intros c e ids. induction ids as [|a l IH]; [reflexivity|]. cbn [map Core.resps flat_map]. rewrite Nat.eqb_refl. cbn. f_equal. exact IH. Qed.
-Lemma d_resps_respond : forall c y ids, resps c (respond_ids c y ids) = ids.
-Proof.
-  intros c y ids. unfold Core.respond_ids. destruct ids as [|id r]; [reflexivity|].
-  rewrite d_resps_app, d_resps_map_resp. destruct (Conv.sent val upd y).
-  - cbn [Core.resps flat_map]. rewrite Nat.eqb_refl. reflexivity.
-  - change (Core.OResp val upd c id (Some (Conv.sval val upd y)) :: ?l) with ([Core.OResp val upd c id (Some (Conv.sval val upd y))] ++ l).
-    rewrite d_resps_app, d_resps_replay. cbn [Core.resps flat_map]. rewrite Nat.eqb_refl. reflexivity.
-Qed.
-
-Definition d_total (id : nat) (s : st) (c : nat) : nat :=
-  co id (d_queued s c) + co id (d_waiting s c) + co id (dropped s c).
-
-Lemma d_count_other : forall id s o c', d_W1 s -> o <> Core.GrantConn upd c' ->
+Lemma d_count_ng : forall id s o c', d_W1 s -> d_nongrant o ->
   d_total id (fst (step s o)) c' + co id (resps c' (snd (step s o))) =
   d_total id s c' + co id (if disc (conns s c') then [] else reqs c' [o]).
 Proof.
-  intros id s o c' W Hne. unfold d_total.
-  rewrite (d_fr_queued s o c' Hne), d_co_app.
-  assert (Hw : d_waiting (fst (step s o)) c' = d_waiting s c').
-  { unfold d_waiting. rewrite (d_fr_conn s o c' Hne). destruct (cur (conns s c')) as [i|] eqn:Ec; [|reflexivity].
-    destruct (a_cur s W c' i Ec) as (A & B & _). destruct (d_fr_inst s o c' i W Hne A B) as (-> & -> & _). reflexivity. }
+  intros id s o c' W Hng. unfold d_total.
+  rewrite (d_fr_queued s o c' Hng), d_co_app.
+  destruct (d_ng_next s o Hng) as [En _]. rewrite En.
   assert (Hr : resps c' (snd (step s o)) = []).
-  { apply d_resps_none. intros x Hx. destruct (for_conn c' x) eqn:E; [|reflexivity]. exfalso. apply Hne. eapply d_tag; eassumption. }
-  assert (Hd : co id (dropped (fst (step s o)) c') = co id (dropped s c')).
-  { apply d_dropped_frame. intros j Hj Ho. apply (d_fr_inst s o c' j W Hne Hj Ho). }
-  rewrite Hw, Hr, Hd, d_co_nil. lia.
+  { apply d_resps_none. intros x Hx. rewrite (d_ng_out s o x Hng Hx). reflexivity. }
+  rewrite Hr, d_co_nil.
+  rewrite (d_sum_ext (fun i => owner (insts s i)) (fun i => owner (insts (fst (step s o)) i)) (fun i => d_w id (insts s i))); [lia| |].
+  - intros j _. apply (d_ng_inst s o j Hng).
+  - intros j _ _. destruct (d_ng_inst s o j Hng) as (_ & E1 & E2 & _ & _ & _ & _ & E3 & _). cbv zeta in *. unfold d_w. rewrite E1, E2, E3. reflexivity.
 Qed.
 
-Lemma d_dropped_same : forall rid s s' c', next s' = next s ->
-  (forall j, j < next s -> owner (insts s' j) = owner (insts s j)) ->
-  (forall j, j < next s -> lost (insts s' j) = lost (insts s j)) ->
-  co rid (dropped s' c') = co rid (dropped s c').
+Lemma d_count_grant : forall id s c c', d_W1 s ->
+  d_total id (fst (step s (GrantConn c))) c' + co id (resps c' (snd (step s (GrantConn c)))) = d_total id s c'.
 Proof.
-  intros rid s s' c' E H1 H2. rewrite !d_co_dropped, E. apply d_sum_ext; [exact H1|]. intros j Hj _. rewrite H2 by exact Hj. reflexivity.
-Qed.
-Lemma d_dropped_upd' : forall rid s s' c' i0 e, next s' = next s -> i0 < next s ->
-  (forall j, j < next s -> owner (insts s' j) = owner (insts s j)) ->
-  (forall j, j < next s -> j <> i0 -> lost (insts s' j) = lost (insts s j)) ->
-  co rid (lost (insts s' i0)) = co rid (lost (insts s i0)) + e ->
-  co rid (dropped s' c') = co rid (dropped s c') + (if Nat.eqb (owner (insts s i0)) c' then e else 0).
-Proof.
-  intros rid s s' c' i0 e E Hi H0 H1 H2. rewrite !d_co_dropped, E.
-  apply (d_sum_upd (fun i => owner (insts s i)) _ (fun i => co rid (lost (insts s i)))); try assumption.
-  intros j Hj Hne. rewrite H1 by assumption. reflexivity.
-Qed.
-Lemma d_dropped_new' : forall rid s s' c', next s' = S (next s) ->
-  (forall j, j < next s -> owner (insts s' j) = owner (insts s j)) ->
-  (forall j, j < next s -> lost (insts s' j) = lost (insts s j)) -> lost (insts s' (next s)) = [] ->
-  co rid (dropped s' c') = co rid (dropped s c').
-Proof.
-  intros rid s s' c' E H1 H2 H3. rewrite !d_co_dropped, E. cbn [d_sum]. rewrite H3, d_co_nil.
-  replace (if Nat.eqb (owner (insts s' (next s))) c' then 0 else 0) with 0 by (destruct (Nat.eqb _ _); reflexivity).
-  rewrite Nat.add_0_r. apply d_sum_ext; [exact H1|]. intros j Hj _. rewrite H2 by exact Hj. reflexivity.
-Qed.
-
-Ltac d_inst_frame := intros; d_proj; unfold Core.set_inst; d_eqb; d_proj; try reflexivity; try lia; try congruence.
-
-Lemma d_wl_live : forall σ j, CInv σ -> Core.is_live val upd (cstep σ (Conv.RunC upd j)) j = true -> gone (csubs σ j) = false.
-Proof.
-  intros σ j HI H. destruct (gone (csubs σ j)) eqn:E; [|reflexivity]. unfold Core.is_live in H.
-  rewrite (d_runc_gone σ j HI E) in H. discriminate.
-Qed.
-
-Lemma d_count_grant : forall rid s o c', d_W1 s -> d_W3 s -> o = Core.GrantConn upd c' ->
-  d_total rid (fst (step s o)) c' + co rid (resps c' (snd (step s o))) = d_total rid s c'.
-Proof.
-  intros rid s o c' W V. unfold d_total.
-  d_step_cases s o; try discriminate; d_kill_left W V; d_facts W; intros Ho; injection Ho as <-.
-  all: try (assert (Hcur : cur (conns s c) = Some i) by
-         (rewrite <- Fown; apply d_live_cur; [exact W|exact Flt|first [exact Egone | apply d_wl_live; [apply (a_inv s W)|]; apply andb_prop in Ewl; apply Ewl]])).
-  all: unfold d_queued, d_waiting; d_proj; rewrite ?d_set_conn_eq; d_proj; rewrite ?Eq, ?Ecur, ?Hcur; cbn [flat_map d_qid].
-  all: rewrite ?d_set_inst_eq; d_proj.
-  all: try (change (resps c (?e ++ ?r)) with (resps c (d_evout c (csubs (cv s) i) ++ r)); rewrite d_resps_app, d_resps_ev).
-  all: try (erewrite (d_dropped_same rid s _ c); [|reflexivity|solve [d_inst_frame]|solve [d_inst_frame]]).
-  all: try (erewrite (d_dropped_new' rid s _ c); [|reflexivity|solve [d_inst_frame]|solve [d_inst_frame]|d_proj; rewrite d_set_inst_eq; reflexivity]).
-  all: try (erewrite (d_dropped_upd' rid s _ c i); [|reflexivity|exact Flt|solve [d_inst_frame]|solve [d_inst_frame]
-              |d_proj; rewrite d_set_inst_eq; d_proj; rewrite d_co_app; reflexivity]; rewrite Fown, Nat.eqb_refl).
-  all: rewrite ?d_resps_respond, ?d_resps_map_err; rewrite ?d_co_app, ?d_co_nil; cbn [Core.resps flat_map]; rewrite ?Nat.eqb_refl, ?d_co_nil;
-       cbn [List.app]; rewrite ?d_co_app, ?d_co_nil; try lia.
-  destruct (mqsub s); cbn [List.app Core.resps flat_map]; rewrite d_co_nil; lia.
+  intros id s c c' W. destruct (cqueue (conns s c)) as [|it q] eqn:Eq.
+  { cbn [Core.step]. rewrite Eq. cbn [fst snd Core.resps flat_map]. rewrite d_co_nil. lia. }
+  pose proof (d_task_summary s c it q W Eq) as Sm. pose proof (d_task_measure id s c it q W Eq) as Ms.
+  destruct (conn_task s c) as [[[k oi] nx] ms] eqn:Ect. rewrite (d_step_grant s c it q Eq k oi nx ms Ect). cbn [fst snd].
+  destruct Sm as (Sq & Sd & Sts & Sh).
+  pose proof (d_shape_next s c it q k oi nx ms Sh) as Hnx.
+  assert (Hoi : forall i, oi = Some i -> owner (ty k) = c /\ ((i < next s /\ owner (insts s i) = c) \/ (i = next s /\ nx = S (next s)))).
+  { intros i E. apply (d_shape_oi s c it q k oi nx ms i W Sh E). }
+  unfold d_total, d_queued. d_proj.
+  destruct (Nat.eq_dec c' c) as [->|Hcc].
+  - rewrite d_set_conn_eq, Sq, Eq. cbn [flat_map]. rewrite d_co_app.
+    destruct oi as [i|].
+    + destruct (Hoi i eq_refl) as (Ho & [(Hl & Hoo)|(-> & ->)]).
+      * destruct Hnx as [(-> & _)|(_ & _ & X)]; [|injection X as ->; lia]. assert (El : Nat.ltb i (next s) = true) by (apply Nat.ltb_lt; exact Hl). rewrite El in Ms.
+        pose proof (d_sum_upd (fun j => owner (insts s j)) (fun j => owner (Core.set_inst (insts s) i (ty k) j))
+                      (fun j => d_w id (insts s j)) (fun j => d_w id (Core.set_inst (insts s) i (ty k) j)) c (next s) i) as X.
+        cbv beta in X. rewrite d_set_inst_eq in X. unfold d_m in Ms.
+        assert (X' := X (fun j _ => ltac:(unfold Core.set_inst; destruct (Nat.eqb_spec j i) as [->|]; [congruence|reflexivity]))
+                        (fun j _ Hne => ltac:(rewrite d_set_inst_neq by exact Hne; reflexivity)) Hl Hoo). lia.
+      * rewrite Nat.ltb_irrefl in Ms. cbn [d_sum]. rewrite !d_set_inst_eq, Ho, Nat.eqb_refl. unfold d_m in Ms.
+        rewrite (d_sum_ext (fun j => owner (insts s j)) (fun j => owner (Core.set_inst (insts s) (next s) (ty k) j)) (fun j => d_w id (insts s j))); [lia| |].
+        -- intros j Hj. rewrite d_set_inst_neq by lia. reflexivity.
+        -- intros j Hj _. rewrite d_set_inst_neq by lia. reflexivity.
+    + destruct Hnx as [(-> & _)|(_ & _ & X)]; [|discriminate]. lia.
+  - rewrite d_set_conn_neq by exact Hcc.
+    assert (Hr : resps c' (tout k) = []).
+    { apply d_resps_none. intros x Hx. destruct (for_conn c' x) eqn:Ef; [|reflexivity]. exfalso.
+      destruct (d_shape_out s c it q k oi nx ms Sh) as [P|(_ & P)].
+      - rewrite forallb_forall in P. apply Hcc. apply (d_plain_for c c' x (P x Hx) Ef).
+      - rewrite P in Hx. destruct Hx as [<-|[]]. discriminate. }
+    rewrite Hr, d_co_nil.
+    destruct oi as [i|].
+    + destruct (Hoi i eq_refl) as (Ho & [(Hl & Hoo)|(-> & ->)]).
+      * destruct Hnx as [(-> & _)|(_ & _ & X)]; [|injection X as ->; lia].
+        rewrite (d_sum_ext (fun j => owner (insts s j)) (fun j => owner (Core.set_inst (insts s) i (ty k) j)) (fun j => d_w id (insts s j))); [lia| |].
+        -- intros j Hj. unfold Core.set_inst. destruct (Nat.eqb_spec j i) as [->|]; [congruence|reflexivity].
+        -- intros j Hj Hjo. unfold Core.set_inst. destruct (Nat.eqb_spec j i) as [->|]; [congruence|reflexivity].
+      * cbn [d_sum]. rewrite !d_set_inst_eq, Ho. apply Nat.eqb_neq in Hcc. rewrite (Nat.eqb_sym c c'), Hcc.
+        rewrite (d_sum_ext (fun j => owner (insts s j)) (fun j => owner (Core.set_inst (insts s) (next s) (ty k) j)) (fun j => d_w id (insts s j))); [lia| |].
+        -- intros j Hj. rewrite d_set_inst_neq by lia. reflexivity.
+        -- intros j Hj _. rewrite d_set_inst_neq by lia. reflexivity.
+    + destruct Hnx as [(-> & _)|(_ & _ & X)]; [|discriminate]. lia.
 Qed.
 
-Lemma d_grant_dec : forall (o : Core.op upd) c, {o = Core.GrantConn upd c} + {o <> Core.GrantConn upd c}.
+Lemma d_disc_mono : forall s o c', d_W1 s -> disc (conns (fst (step s o)) c') = false -> disc (conns s c') = false.
 Proof.
-  intros o c. destruct o; try (right; discriminate). destruct (Nat.eq_dec c0 c) as [->|H]; [left; reflexivity|right; congruence].
+  intros s o c' W H. destruct (disc (conns s c')) eqn:E; [|reflexivity]. destruct (d_grant_dec o) as [[c ->]|Hng].
+  - destruct (cqueue (conns s c)) as [|it q] eqn:Eq.
+    + revert H. cbn [Core.step]. rewrite Eq. cbn [fst]. congruence.
+    + pose proof (d_task_summary s c it q W Eq) as Sm.
+      destruct (conn_task s c) as [[[k oi] nx] ms] eqn:Ect. rewrite (d_step_grant s c it q Eq k oi nx ms Ect) in H. cbn [fst Core.conns] in H.
+      destruct Sm as (_ & Sd & _).
+      destruct (Nat.eq_dec c' c) as [->|Hcc]; [|rewrite d_set_conn_neq in H by exact Hcc; congruence].
+      rewrite d_set_conn_eq in H. congruence.
+  - destruct (d_ng_conn s o c' Hng) as (_ & _ & X & _). rewrite (X E) in H. discriminate.
 Qed.
 
 Lemma d_count_inv : forall t ops c rid,
@@ -1720,41 +2291,38 @@ Proof.
   intros t ops c rid. induction ops as [|o ops IH] using rev_ind.
   - cbn. split; [|intros _]; reflexivity.
   - cbv zeta in *. destruct (d_exec_snoc' t ops o) as [-> ->].
-    pose proof (d_w1_exec t ops) as W. pose proof (d_w3_exec t ops) as V.
+    pose proof (d_w1_exec t ops) as W.
     set (s := fst (exec t ops)) in *. set (outs := snd (exec t ops)) in *.
     destruct IH as [I1 I2].
     assert (Er : reqs c (ops ++ [o]) = reqs c ops ++ reqs c [o]) by (unfold Core.reqs; apply flat_map_app).
     rewrite Er, d_resps_app, !d_co_app.
-    destruct (d_grant_dec o c) as [Eo|Eo].
-    + pose proof (d_count_grant rid s o c W V Eo) as K.
-      assert (Z : reqs c [o] = []) by (subst o; reflexivity). rewrite Z, d_co_nil.
-      split; [lia|]. intros Hd. apply d_disc_mono in Hd. specialize (I2 Hd). lia.
-    + pose proof (d_count_other rid s o c W Eo) as K.
+    destruct (d_grant_dec o) as [[c0 ->]|Hng].
+    + pose proof (d_count_grant rid s c0 c W) as K.
+      assert (Z : reqs c [GrantConn c0] = []) by reflexivity. rewrite Z, d_co_nil.
+      split; [lia|]. intros Hd. apply d_disc_mono in Hd; [|exact W]. specialize (I2 Hd). lia.
+    + pose proof (d_count_ng rid s o c W Hng) as K.
       split.
       * destruct (disc (conns s c)); rewrite ?d_co_nil in K; lia.
-      * intros Hd. apply d_disc_mono in Hd. specialize (I2 Hd). rewrite Hd in K. lia.
+      * intros Hd. apply d_disc_mono in Hd; [|exact W]. specialize (I2 Hd). rewrite Hd in K. lia.
 Qed.
 
-Lemma d_quiet_waiting : forall s c, d_W1 s -> d_W2 s -> d_W3 s -> quiescent s -> d_waiting s c = [].
+(* nothing waits once everything is quiet *)
+Lemma d_quiet_w : forall s j rid, d_W1 s -> d_W2 s -> quiescent s -> j < next s -> d_w rid (insts s j) = co rid (lost (insts s j)).
 Proof.
-  intros s c W U V Hq. unfold d_waiting. destruct (cur (conns s c)) as [i|] eqn:Ec; [|reflexivity].
-  destruct (a_cur s W c i Ec) as (Hlt & Hown & Hg). pose proof (a_inv s W) as HI.
-  pose proof Hq as (Hqe & Hqc & _ & Hun).
-  assert (Ha : ans (insts s i) <> None).
-  { specialize (Hun i Hlt). unfold Core.unanswered in Hun. destruct (ans (insts s i)); [discriminate|discriminate]. }
-  assert (Hacc : acc (insts s i) = Some true).
-  { destruct (acc (insts s i)) as [[|]|] eqn:E; [reflexivity| |].
-    - exfalso. apply (c_E s V c i Ec). exact E.
-    - exfalso. destruct (c_H s V c i Ec Ha E) as [X|X]; [rewrite Hqe in X|rewrite Hqc in X]; destruct X. }
-  rewrite (c_acb s V i Hacc). cbn [List.app].
-  destruct (rcb (insts s i)) eqn:Er; [reflexivity|]. exfalso.
-  assert (Hr : rcb (insts s i) <> []) by (rewrite Er; discriminate).
-  destruct (c_rcb s V i Hr) as [_ Hl].
-  pose proof (Conv.i3 _ _ _ _ HI i Hg) as H3. rewrite Hqe, (a_sub s W i Hlt) in H3. cbn in H3.
-  assert (Hm : Conv.mem i (Conv.rs_subs val upd (cv s)) = true) by (destruct (Conv.mem i (Conv.rs_subs val upd (cv s))); [reflexivity|discriminate]).
-  assert (Hne : Conv.rs_subs val upd (cv s) <> []) by (intros E; rewrite E in Hm; discriminate).
-  pose proof (d_quiet_loaded s U HI Hq Hne) as Hrl.
-  pose proof (Conv.i4 _ _ _ _ HI i) as H4. rewrite (d_quiet_cq s i W U Hq), Hl, Hm, Hrl, Hqe in H4. cbn in H4. discriminate.
+  intros s j rid W U Hq Hlt. pose proof (d_a_inv s W) as HI. pose proof Hq as (Hqe & Hqc & _ & Hfl).
+  assert (Ha : acb (insts s j) = []).
+  { destruct (acb (insts s j)) eqn:E; [reflexivity|]. exfalso.
+    assert (X : acb (insts s j) <> []) by (rewrite E; discriminate). apply (d_a_acb s W) in X. rewrite (Hfl j Hlt) in X. discriminate. }
+  assert (Hr : rcb (insts s j) = []).
+  { destruct (rcb (insts s j)) eqn:Er; [reflexivity|]. exfalso.
+    assert (X : rcb (insts s j) <> []) by (rewrite Er; discriminate).
+    destruct (d_a_rcb s W j X) as [Hg Hl].
+    pose proof (Conv.i3 _ _ _ _ HI j Hg) as H3. rewrite Hqe, (d_a_sub s W j Hlt) in H3. cbn in H3.
+    assert (Hm : Conv.mem j (Conv.rs_subs val upd (cv s)) = true) by (destruct (Conv.mem j (Conv.rs_subs val upd (cv s))); [reflexivity|discriminate]).
+    assert (Hne : Conv.rs_subs val upd (cv s) <> []) by (intros E; rewrite E in Hm; discriminate).
+    pose proof (d_quiet_loaded s U HI Hq Hne) as Hrl.
+    pose proof (Conv.i4 _ _ _ _ HI j) as H4. rewrite (d_quiet_cq s j W U Hq), Hl, Hm, Hrl, Hqe in H4. cbn in H4. discriminate. }
+  unfold d_w. rewrite Ha, Hr. cbn. reflexivity.
 Qed.
 
 Theorem core_responses : forall t ops c,
@@ -1771,22 +2339,551 @@ Proof.
   { intros rid. apply (d_count_inv t ops c rid). }
   assert (L : forall rid, co rid (reqs c ops) <= 1).
   { intros rid. unfold d_co. apply (proj1 (NoDup_count_occ Nat.eq_dec (reqs c ops)) Hnd). }
+  assert (Dr : forall rid, co rid (dropped s c) <= d_total rid s c).
+  { intros rid. rewrite d_co_dropped. unfold d_total.
+    assert (X : forall n, d_sum (fun i => owner (insts s i)) (fun i => co rid (lost (insts s i))) c n <=
+                          d_sum (fun i => owner (insts s i)) (fun i => d_w rid (insts s i)) c n).
+    { induction n as [|n IH]; [reflexivity|]. cbn [d_sum]. unfold d_w at 2. destruct (Nat.eqb _ c); lia. }
+    specialize (X (next s)). lia. }
   split; [|split; [|split]].
   - apply (NoDup_count_occ Nat.eq_dec). intros rid. destruct (K rid) as [K1 _]. specialize (L rid). unfold d_co in *. lia.
   - intros rid Hin. apply (count_occ_In Nat.eq_dec) in Hin. destruct (K rid) as [K1 _].
     apply (count_occ_In Nat.eq_dec). unfold d_co in *. lia.
   - intros rid Hin Hdr. apply (count_occ_In Nat.eq_dec) in Hin. apply (count_occ_In Nat.eq_dec) in Hdr.
-    destruct (K rid) as [K1 _]. specialize (L rid). unfold d_total, d_co in *. lia.
+    destruct (K rid) as [K1 _]. specialize (L rid). specialize (Dr rid). unfold d_co in *. lia.
   - intros Hq Hd rid Hin. apply (count_occ_In Nat.eq_dec) in Hin. destruct (K rid) as [_ K2]. specialize (K2 Hd).
-    pose proof (d_quiet_waiting s c (d_w1_exec t ops) (d_w2_exec t ops) (d_w3_exec t ops) Hq) as Hw.
-    unfold d_total in K2. rewrite Hw in K2. unfold d_queued in K2. destruct Hq as (_ & Hqc & _). rewrite Hqc in K2.
-    cbn [flat_map] in K2. rewrite !d_co_nil in K2. unfold d_co in *.
+    pose proof (d_w1_exec t ops) as W. pose proof (d_w2_exec t ops) as U. fold s in W, U.
+    assert (Tq : d_total rid s c = co rid (dropped s c)).
+    { rewrite d_co_dropped. unfold d_total, d_queued. destruct Hq as (Hqe & Hqc & Hq3 & Hq4). rewrite Hqc. cbn [flat_map]. rewrite d_co_nil. cbn [plus].
+      apply d_sum_ext; [reflexivity|]. intros j Hj _. apply d_quiet_w; try assumption. repeat split; assumption. }
+    rewrite Tq in K2. unfold d_co in *.
     destruct (count_occ Nat.eq_dec (resps c outs) rid) eqn:E1.
     + right. apply (count_occ_In Nat.eq_dec). lia.
     + left. apply (count_occ_In Nat.eq_dec). lia.
 Qed.
 
+(* ---------- E: data only after a grant ---------- *)
+Lemma d_next_mono : forall s o, d_W1 s -> next s <= next (fst (step s o)).
+Proof.
+  intros s o W. destruct (d_grant_dec o) as [[c ->]|Hng]; [|destruct (d_ng_next s o Hng) as [-> _]; lia].
+  destruct (cqueue (conns s c)) as [|it q] eqn:Eq.
+  - cbn [Core.step]. rewrite Eq. cbn [fst]. lia.
+  - pose proof (d_task_summary s c it q W Eq) as Sm.
+    destruct (conn_task s c) as [[[k oi] nx] ms] eqn:Ect. rewrite (d_step_grant s c it q Eq k oi nx ms Ect). cbn [fst Core.next].
+    destruct Sm as (_ & _ & _ & Sh). destruct (d_shape_next s c it q k oi nx ms Sh) as [(-> & _)|(-> & _)]; lia.
+Qed.
+Lemma d_owner_frame : forall s o j, d_W1 s -> j < next s -> owner (insts (fst (step s o)) j) = owner (insts s j).
+Proof.
+  intros s o j W Hj. destruct (d_grant_dec o) as [[c ->]|Hng]; [|apply (d_ng_inst s o j Hng)].
+  destruct (cqueue (conns s c)) as [|it q] eqn:Eq.
+  - cbn [Core.step]. rewrite Eq. reflexivity.
+  - pose proof (d_task_summary s c it q W Eq) as Sm.
+    destruct (conn_task s c) as [[[k oi] nx] ms] eqn:Ect. rewrite (d_step_grant s c it q Eq k oi nx ms Ect). cbn [fst Core.insts].
+    destruct Sm as (_ & _ & _ & Sh). destruct oi as [i|]; [|reflexivity].
+    unfold Core.set_inst. destruct (Nat.eqb_spec j i) as [->|]; [|reflexivity].
+    destruct (d_shape_oi s c it q k _ _ _ i W Sh eq_refl) as (X & [(_ & Y)|(Y & _)]); [congruence|lia].
+Qed.
+
+Section d_Task3.
+Variables (c i : nat).
+Notation dispose_t := (Core.dispose_t val upd app norm i).
+Notation remove_direct := (Core.remove_direct val upd app norm i).
+Notation unsubscribe_direct := (Core.unsubscribe_direct val upd app norm c i).
+Notation load_access := (Core.load_access val upd c i).
+Notation handle_reaccess := (Core.handle_reaccess val upd app norm c i).
+Notation reaccess := (Core.reaccess val upd app norm c i).
+Notation unqueue_reaccess := (Core.unqueue_reaccess val upd app norm c i).
+Notation run_cb := (Core.run_cb val upd app norm c i).
+
+(* handlers that send no data: the cached verdict is kept or forgotten, the waiting requests are kept or dropped *)
+Definition d_ar (k k' : tk) : Prop :=
+  (acc (ty k') = acc (ty k) \/ acc (ty k') = None) /\ (rcb (ty k') = rcb (ty k) \/ rcb (ty k') = []).
+Lemma d_ar_refl : forall k, d_ar k k.
+Proof. intros k. split; left; reflexivity. Qed.
+Lemma d_ar_trans : forall k1 k2 k3, d_ar k1 k2 -> d_ar k2 k3 -> d_ar k1 k3.
+Proof.
+  intros k1 k2 k3 [[A|A] [B|B]] [[A'|A'] [B'|B']]; split; try (right; assumption); try (left; congruence); try (right; congruence).
+Qed.
+Lemma d_ar_same : forall k k', ty k' = ty k -> d_ar k k'.
+Proof. intros k k' H. unfold d_ar. rewrite H. split; left; reflexivity. Qed.
+Lemma d_ar_sety : forall k y, (acc y = acc (ty k) \/ acc y = None) -> (rcb y = rcb (ty k) \/ rcb y = []) -> d_ar k (sety k y).
+Proof. intros k y H1 H2. split; assumption. Qed.
+
+Ltac d_apeel tac :=
+  lazymatch goal with
+  | |- d_ar ?k ?k => apply d_ar_refl
+  | |- d_ar ?k (Core.setx _ _ ?K _) => apply (d_ar_trans k K); [d_apeel tac | apply d_ar_same; reflexivity]
+  | |- d_ar ?k (Core.sety _ _ ?K _) => apply (d_ar_trans k K); [d_apeel tac | apply d_ar_sety; cbn; auto]
+  | |- d_ar ?k (Core.emit _ _ ?K _) => apply (d_ar_trans k K); [d_apeel tac | apply d_ar_same; reflexivity]
+  | |- d_ar ?k (Core.act _ _ _ _ ?K _) => apply (d_ar_trans k K); [d_apeel tac | apply d_ar_same; reflexivity]
+  | |- d_ar _ (if ?b then _ else _) => destruct b eqn:?; d_apeel tac
+  | |- _ => tac
+  end.
+
+Lemma d_ar_dispose : forall k, d_ar k (dispose_t k).
+Proof. intros k. unfold Core.dispose_t. cbv zeta. d_apeel idtac. Qed.
+Ltac d_a1 :=
+  lazymatch goal with
+  | |- d_ar ?k (Core.dispose_t _ _ _ _ _ ?K) => apply (d_ar_trans k K); [d_apeel ltac:(idtac; d_a1) | apply d_ar_dispose]
+  end.
+Lemma d_ar_remove : forall k n, d_ar k (remove_direct k n).
+Proof. intros k n. unfold Core.remove_direct. cbv zeta. d_apeel ltac:(idtac; d_a1). Qed.
+Ltac d_a2 :=
+  lazymatch goal with
+  | |- d_ar ?k (Core.remove_direct _ _ _ _ _ ?K _) => apply (d_ar_trans k K); [d_apeel ltac:(idtac; d_a2) | apply d_ar_remove]
+  end.
+Lemma d_ar_unsubd : forall k, d_ar k (unsubscribe_direct k).
+Proof. intros k. unfold Core.unsubscribe_direct. d_apeel ltac:(idtac; d_a2). Qed.
+Lemma d_ar_load : forall k b, d_ar k (load_access k b).
+Proof. intros k b. unfold Core.load_access. cbv zeta. d_apeel idtac. Qed.
+Ltac d_a3 :=
+  lazymatch goal with
+  | |- d_ar ?k (Core.load_access _ _ _ _ ?K _) => apply (d_ar_trans k K); [d_apeel ltac:(idtac; d_a3) | apply d_ar_load]
+  end.
+Lemma d_ar_hre : forall k, d_ar k (handle_reaccess k).
+Proof. intros k. unfold Core.handle_reaccess. cbv zeta. d_apeel ltac:(idtac; d_a3). Qed.
+Ltac d_a4 :=
+  lazymatch goal with
+  | |- d_ar ?k (Core.handle_reaccess _ _ _ _ _ _ ?K) => apply (d_ar_trans k K); [d_apeel ltac:(idtac; d_a4) | apply d_ar_hre]
+  end.
+Lemma d_ar_reaccess : forall k, d_ar k (reaccess k).
+Proof. intros k. unfold Core.reaccess. cbv zeta. d_apeel ltac:(idtac; d_a4). Qed.
+Lemma d_ar_unq : forall k, d_ar k (unqueue_reaccess k).
+Proof. intros k. unfold Core.unqueue_reaccess. cbv zeta. d_apeel ltac:(idtac; d_a4). Qed.
+Lemma d_ar_runcb_false : forall k b, d_ar k (run_cb false k b).
+Proof.
+  intros k [id|]; cbn [Core.run_cb].
+  - d_apeel ltac:(idtac; d_a2).
+  - eapply d_ar_trans; [apply d_ar_unsubd|apply d_ar_unq].
+Qed.
+Lemma d_ar_fold_false : forall l k, d_ar k (fold_left (run_cb false) l k).
+Proof.
+  induction l as [|b l IH]; intros k; cbn [fold_left]; [apply d_ar_refl|].
+  eapply d_ar_trans; [apply d_ar_runcb_false|apply IH].
+Qed.
+
+(* the verdict and the waiting requests of the instance are backed by a grant *)
+Definition d_eg (G : Prop) (k : tk) : Prop := (acc (ty k) = Some true -> G) /\ (rcb (ty k) <> [] -> G).
+Lemma d_eg_ar : forall G k k', d_ar k k' -> d_eg G k -> d_eg G k'.
+Proof.
+  intros G k k' [[A|A] [B|B]] [E1 E2]; split; rewrite ?A, ?B; try assumption; try discriminate; intros X; exfalso; apply X; reflexivity.
+Qed.
+Lemma d_eg_triv : forall (G : Prop) k, G -> d_eg G k.
+Proof. intros G k H. split; intros _; exact H. Qed.
+
+Definition d_nodata (l : list out) : Prop := forall x, In x l -> d_isdata x = false.
+Lemma d_rel_nodata : forall dz k k', d_rel i dz (d_nd c) k k' -> d_nodata (tout k) -> d_nodata (tout k').
+Proof.
+  intros dz k k' [_ (lo & B1 & B2) _ _ _ _ _ _] H x Hx. rewrite B1 in Hx. apply in_app_or in Hx as [Hx|Hx]; [apply H; exact Hx|].
+  rewrite forallb_forall in B2. apply B2 in Hx. unfold d_nd in Hx. apply andb_prop in Hx as [_ Hx]. apply negb_true_iff in Hx. exact Hx.
+Qed.
+End d_Task3.
+
+Definition d_E (s : st) (G : nat -> Prop) : Prop :=
+  forall j, (ans (insts s j) = Some true -> G j) /\ (acc (insts s j) = Some true -> G j) /\ (rcb (insts s j) <> [] -> G j).
+
+Definition d_Egoal (G : nat -> Prop) (s : st) (k : tk) (oi : option nat) : Prop :=
+  (forall x, In x (tout k) -> d_isdata x = true -> exists i, oi = Some i /\ i < next s /\ G i) /\
+  (forall i, oi = Some i -> (ans (ty k) = Some true -> G i) /\ d_eg (G i) k).
+
+Lemma d_Egoal_nd : forall (G : nat -> Prop) s k i, d_nodata (tout k) -> (ans (ty k) = Some true -> G i) -> d_eg (G i) k -> d_Egoal G s k (Some i).
+Proof.
+  intros G s k i H1 H2 H3. split.
+  - intros x Hx Hd. rewrite (H1 x Hx) in Hd. discriminate.
+  - intros i' E. injection E as <-. auto.
+Qed.
+Lemma d_Egoal_G : forall (G : nat -> Prop) s k i, i < next s -> G i -> d_Egoal G s k (Some i).
+Proof.
+  intros G s k i H1 H2. split.
+  - intros x _ _. exists i. auto.
+  - intros i' E. injection E as <-. split; [auto|apply d_eg_triv; exact H2].
+Qed.
+Lemma d_Egoal_none : forall (G : nat -> Prop) s k, d_nodata (tout k) -> d_Egoal G s k None.
+Proof.
+  intros G s k H1. split.
+  - intros x Hx Hd. rewrite (H1 x Hx) in Hd. discriminate.
+  - intros i' E. discriminate.
+Qed.
+(* a task made of handlers that send no data *)
+Lemma d_Egoal_rel : forall (G : nat -> Prop) s c i dz K1 k, d_rel i dz (d_nd c) K1 k -> d_ar K1 k ->
+  d_nodata (tout K1) -> (ans (ty K1) = Some true -> G i) -> d_eg (G i) K1 -> d_Egoal G s k (Some i).
+Proof.
+  intros G s c i dz K1 k R A H1 H2 H3. apply d_Egoal_nd.
+  - apply (d_rel_nodata c i dz K1 k R H1).
+  - rewrite (d_r_ans i dz _ K1 k R). exact H2.
+  - apply (d_eg_ar _ K1 k A H3).
+Qed.
+Lemma d_nodata_nil : d_nodata [].
+Proof. intros x []. Qed.
+Lemma d_eg_inst : forall (G : nat -> Prop) s i (K : tk), d_E s G -> ty K = insts s i -> d_eg (G i) K /\ (ans (ty K) = Some true -> G i).
+Proof. intros G s i K E H. rewrite H. unfold d_eg. rewrite H. destruct (E i) as (A & B & C). auto. Qed.
+
+Lemma d_task_E : forall (G : nat -> Prop) s c it q, d_W1 s -> d_E s G -> cqueue (conns s c) = it :: q ->
+  let '(k, oi, nx, ms) := conn_task s c in d_Egoal G s k oi.
+Proof.
+  intros G s c it q W E Eq. d_ct_unfold Eq. destruct it as [id|id cnt|t|i|i|].
+  - (* request *)
+    cbn [Core.cur Core.with_q]. destruct (cur (conns s c)) as [i|] eqn:Ecur.
+    + destruct (d_a_cur s W c i Ecur) as (Flt & _ & Fng).
+      set (K1 := {| Core.ts := cv s; Core.ta := []; Core.tx := Core.with_cd (Core.with_q (conns s c) q) (Some i) (S (direct (Core.with_q (conns s c) q)));
+                    Core.ty := insts s i; Core.to := [] |}).
+      destruct (d_eg_inst G s i K1 E eq_refl) as [E1 E2].
+      destruct (acc (ty K1)) as [[|]|] eqn:Ea.
+      * apply d_Egoal_G; [exact Flt|]. apply (proj1 (proj2 (E i))). exact Ea.
+      * apply (d_Egoal_rel G s c i true K1); try assumption; try apply d_nodata_nil.
+        -- eapply d_rel_trans; [|apply d_remove_rel]. apply d_rel_emit; d_side.
+        -- eapply d_ar_trans; [|apply d_ar_remove]. apply d_ar_same; reflexivity.
+      * apply (d_Egoal_rel G s c i true K1); try assumption; try apply d_nodata_nil.
+        -- apply (d_rel_weak _ _ (d_nd c)); [auto|apply d_load_rel].
+        -- apply d_ar_load.
+    + match goal with |- d_Egoal _ _ (Core.load_access _ _ _ _ ?K _) _ => set (K1 := K) end.
+      apply (d_Egoal_rel G s c (next s) true K1).
+      * apply (d_rel_weak _ _ (d_nd c)); [auto|apply d_load_rel].
+      * apply d_ar_load.
+      * unfold K1. d_tkred. cbn [List.app]. destruct (mqsub s); [apply d_nodata_nil|]. intros x [<-|[]]. reflexivity.
+      * unfold K1. d_tkred. cbn. discriminate.
+      * unfold K1. split; d_tkred; cbn; [discriminate|intros X; exfalso; apply X; reflexivity].
+  - (* unsubscribe *)
+    cbn [Core.cur Core.with_q]. destruct (cur (conns s c)) as [i|] eqn:Ecur.
+    + set (K1 := {| Core.ts := cv s; Core.ta := []; Core.tx := Core.with_q (conns s c) q; Core.ty := insts s i; Core.to := [] |}).
+      destruct (d_eg_inst G s i K1 E eq_refl) as [E1 E2].
+      apply (d_Egoal_rel G s c i true K1); try assumption; try apply d_nodata_nil.
+      * destruct (Nat.eqb cnt 0); [apply d_rel_emit; d_side|].
+        destruct (Nat.leb cnt _); [|apply d_rel_emit; d_side].
+        eapply d_rel_trans; [|apply d_remove_rel].
+        destruct (Nat.eqb _ 0).
+        -- apply (d_rel_trans _ _ _ _ (emit K1 [Core.OAck val upd c id cnt])); [apply d_rel_emit; d_side|]. apply d_rel_sety; reflexivity.
+        -- apply d_rel_emit; d_side.
+      * destruct (Nat.eqb cnt 0); [apply d_ar_same; reflexivity|].
+        destruct (Nat.leb cnt _); [|apply d_ar_same; reflexivity].
+        eapply d_ar_trans; [|apply d_ar_remove].
+        destruct (Nat.eqb _ 0); split; left; reflexivity.
+    + apply d_Egoal_none. d_tkred. cbn [List.app]. intros x [<-|[]]. reflexivity.
+  - (* token *)
+    cbn [Core.cur Core.with_q]. destruct (cur (conns s c)) as [i|] eqn:Ecur.
+    + match goal with |- d_Egoal _ _ (if _ then Core.reaccess _ _ _ _ _ _ ?K else _) _ => set (K1 := K) end.
+      destruct (d_eg_inst G s i K1 E eq_refl) as [E1 E2].
+      apply (d_Egoal_rel G s c i true K1); try assumption; try apply d_nodata_nil.
+      * destruct (tokset _); [|apply d_rel_refl]. apply (d_rel_weak _ _ (d_nd c)); [auto|apply d_reaccess_rel].
+      * destruct (tokset _); [|apply d_ar_refl]. apply d_ar_reaccess.
+    + apply d_Egoal_none. apply d_nodata_nil.
+  - (* access answer *)
+    assert (A : In (QAccess i) (cqueue (conns s c))) by (rewrite Eq; left; reflexivity).
+    apply (d_a_qacc s W) in A as (Flt & Fown).
+    set (K0 := {| Core.ts := cv s; Core.ta := []; Core.tx := Core.with_q (conns s c) q; Core.ty := insts s i; Core.to := [] |}).
+    destruct (d_eg_inst G s i K0 E eq_refl) as [E1 E2].
+    destruct (Core.is_gone val upd (cv s) i).
+    { apply (d_Egoal_rel G s c i true K0); try assumption; try apply d_nodata_nil; [apply d_rel_refl|apply d_ar_refl]. }
+    destruct (ans (insts s i)) as [[|]|] eqn:Ea.
+    + apply d_Egoal_G; [exact Flt|]. apply (proj1 (E i)). exact Ea.
+    + match goal with |- d_Egoal _ _ (fold_left _ _ ?K) _ => set (K1 := K) end.
+      apply (d_Egoal_rel G s c i true K1); try apply d_nodata_nil.
+      * apply d_fold_false_rel.
+      * apply d_ar_fold_false.
+      * unfold K1. d_tkred. cbn. discriminate.
+      * unfold K1. split; d_tkred; cbn; [discriminate|]. apply (proj2 (proj2 (E i))).
+    + apply (d_Egoal_rel G s c i true K0); try assumption; try apply d_nodata_nil; [apply d_rel_refl|apply d_ar_refl].
+  - (* subscription task *)
+    assert (A : In (QSub i) (cqueue (conns s c))) by (rewrite Eq; left; reflexivity).
+    apply (d_a_qsub s W) in A as (Flt & Fown).
+    set (K0 := {| Core.ts := cv s; Core.ta := []; Core.tx := Core.with_q (conns s c) q; Core.ty := insts s i; Core.to := [] |}).
+    set (K1 := act K0 (Conv.RunC upd i)).
+    destruct (d_eg_inst G s i K1 E eq_refl) as [E1 E2].
+    destruct (ccq (csubs (cv s) i)) as [|[|e|] r].
+    + apply (d_Egoal_rel G s c i true K1); try assumption; try apply d_nodata_nil; [apply d_rel_refl|apply d_ar_refl].
+    + destruct (gone (csubs (cv s) i)).
+      { apply (d_Egoal_rel G s c i true K1); try assumption; try apply d_nodata_nil; [apply d_rel_refl|apply d_ar_refl]. }
+      destruct (rcb (ty K1)) as [|id r'] eqn:Er.
+      * cbn [Core.respond]. apply (d_Egoal_rel G s c i true K1); try assumption; try apply d_nodata_nil.
+        -- apply d_rel_sety; reflexivity.
+        -- apply d_ar_sety; cbn; auto.
+      * apply d_Egoal_G; [exact Flt|]. apply (proj2 (proj2 (E i))). change (rcb (insts s i)) with (rcb (ty K1)). rewrite Er. discriminate.
+    + apply (d_Egoal_rel G s c i true K1); try assumption; try apply d_nodata_nil.
+      * apply d_rel_emit. destruct (_ && _); [apply d_plain_proc|reflexivity].
+      * apply d_ar_same. reflexivity.
+    + apply (d_Egoal_rel G s c i true K1); try assumption; try apply d_nodata_nil.
+      * apply (d_rel_weak _ _ (d_nd c)); [auto|apply d_reaccess_rel].
+      * apply d_ar_reaccess.
+  - (* disposal *)
+    cbn [Core.cur Core.with_q].
+    match goal with |- context [fold_left (Core.act val upd app norm) ?l ?k] => destruct (d_fold_act l k) as (A & B & C & D & F) end.
+    destruct (cur (conns s c)) as [i|] eqn:Ecur.
+    + apply d_Egoal_nd.
+      * d_tkred. rewrite F. d_tkred. cbn [List.app]. intros x [<-|[]]. reflexivity.
+      * d_tkred. rewrite D. d_tkred. cbn [Core.upd_y Core.ans]. apply (proj1 (E i)).
+      * unfold d_eg. d_tkred. rewrite D. d_tkred. cbn [Core.upd_y Core.acc Core.rcb]. split; [apply (proj1 (proj2 (E i)))|intros X; exfalso; apply X; reflexivity].
+    + apply d_Egoal_none. d_tkred. rewrite F. d_tkred. cbn [List.app]. intros x [<-|[]]. reflexivity.
+Qed.
+
+Lemma d_isdata_has : forall c x, has_data c x = true -> d_isdata x = true /\ for_conn c x = true.
+Proof. intros c x. destruct x; cbn; try discriminate. destruct v; [auto|discriminate]. Qed.
+
+Lemma d_E_mono : forall s (G G' : nat -> Prop), (forall j, G j -> G' j) -> d_E s G -> d_E s G'.
+Proof. intros s G G' H E j. destruct (E j) as (A & B & C). repeat split; intros X; apply H; auto. Qed.
+
+Lemma d_E_step : forall s o (G : nat -> Prop), d_W1 s -> d_E s G -> (forall j, o = Core.MqAccess upd j true -> G j) ->
+  d_E (fst (step s o)) G.
+Proof.
+  intros s o G W E Ho. destruct (d_grant_dec o) as [[c ->]|Hng].
+  - destruct (cqueue (conns s c)) as [|it q] eqn:Eq.
+    + cbn [Core.step]. rewrite Eq. exact E.
+    + pose proof (d_task_E G s c it q W E Eq) as T.
+      destruct (conn_task s c) as [[[k oi] nx] ms] eqn:Ect. rewrite (d_step_grant s c it q Eq k oi nx ms Ect). cbn [fst].
+      destruct T as [_ T]. intros j. d_proj. destruct oi as [i|]; [|apply E].
+      unfold Core.set_inst. destruct (Nat.eqb_spec j i) as [->|]; [|apply E].
+      destruct (T i eq_refl) as (T1 & T2 & T3). auto.
+  - intros j. destruct (d_ng_inst s o j Hng) as (_ & _ & E1 & E2 & _ & _ & _ & _ & _ & E3). cbv zeta in *.
+    rewrite E1, E2. destruct (E j) as (A & B & C). repeat split; try assumption.
+    destruct E3 as [->|(g & -> & E3 & _)]; [exact A|]. rewrite E3. intros X. injection X as ->. apply Ho. reflexivity.
+Qed.
+
+Lemma d_data_step : forall s o (G : nat -> Prop) c' x, d_W1 s -> d_E s G -> In x (snd (step s o)) -> has_data c' x = true ->
+  exists i, i < next s /\ owner (insts s i) = c' /\ G i.
+Proof.
+  intros s o G c' x W E Hx Hd. apply d_isdata_has in Hd as [Hd Hf].
+  pose proof (d_tag s o c' x W Hx Hf) as ->.
+  destruct (cqueue (conns s c')) as [|it q] eqn:Eq.
+  - revert Hx. cbn [Core.step]. rewrite Eq. intros [].
+  - pose proof (d_task_E G s c' it q W E Eq) as T. pose proof (d_task_summary s c' it q W Eq) as Sm.
+    destruct (conn_task s c') as [[[k oi] nx] ms] eqn:Ect. rewrite (d_step_grant s c' it q Eq k oi nx ms Ect) in Hx. cbn [snd] in Hx.
+    destruct T as [T _]. destruct (T x Hx Hd) as (i & -> & Hi & HG). exists i. split; [exact Hi|]. split; [|exact HG].
+    destruct Sm as (_ & _ & _ & Sh). destruct (d_shape_oi s c' it q k _ _ _ i W Sh eq_refl) as (_ & [(_ & Y)|(Y & _)]); [exact Y|lia].
+Qed.
+
+Theorem core_data_needs_grant : forall t ops c o,
+  let s := fst (exec t ops) in let outs := snd (exec t ops) in
+  In o outs -> Core.has_data val upd c o = true ->
+  exists i, i < Core.next val upd s /\ Core.owner (insts s i) = c /\ In (Core.MqAccess upd i true) ops.
+Proof.
+  intros t ops c o s outs. subst s outs.
+  assert (K : d_E (fst (exec t ops)) (fun i => In (Core.MqAccess upd i true) ops) /\
+              (In o (snd (exec t ops)) -> has_data c o = true ->
+               exists i, i < next (fst (exec t ops)) /\ owner (insts (fst (exec t ops)) i) = c /\ In (Core.MqAccess upd i true) ops)).
+  { induction ops as [|o1 ops IH] using rev_ind.
+    - split; [|intros []]. intros j. cbn. repeat split; try discriminate. intros X. exfalso. apply X. reflexivity.
+    - destruct (d_exec_snoc' t ops o1) as [-> ->]. pose proof (d_w1_exec t ops) as W. destruct IH as [IE ID].
+      assert (IE' : d_E (fst (exec t ops)) (fun i => In (Core.MqAccess upd i true) (ops ++ [o1]))).
+      { eapply d_E_mono; [|exact IE]. intros j Hj. apply in_or_app. left. exact Hj. }
+      split.
+      + apply d_E_step; try assumption. intros j ->. apply in_or_app. right. left. reflexivity.
+      + intros Hin Hd.
+        assert (X : exists i, i < next (fst (exec t ops)) /\ owner (insts (fst (exec t ops)) i) = c /\ In (Core.MqAccess upd i true) (ops ++ [o1])).
+        { apply in_app_or in Hin as [Hin|Hin].
+          - destruct (ID Hin Hd) as (i & A & B & C). exists i. repeat split; try assumption. apply in_or_app. left. exact C.
+          - apply (d_data_step _ o1 _ c o W IE' Hin Hd). }
+        destruct X as (i & A & B & C). exists i. pose proof (d_next_mono (fst (exec t ops)) o1 W). split; [lia|].
+        rewrite d_owner_frame by assumption. auto. }
+  apply K.
+Qed.
+
+(* ---------- D: nothing is dropped without unsubscribe requests, disconnects, token and reaccess events ---------- *)
+Notation IReacc := (Conv.IReacc val upd).
+Notation CReacc := (Conv.CReacc upd).
+Definition d_noreacc (σ : cst) : Prop := ~ In IReacc (cqe σ) /\ forall j, ~ In CReacc (ccq (csubs σ j)).
+
+Lemma d_pushall_noreacc : forall f l it j, it <> CReacc -> ~ In CReacc (ccq (f j)) -> ~ In CReacc (ccq (Conv.push_all val upd f l it j)).
+Proof.
+  intros f l it j Hit H. unfold Conv.push_all. destruct (_ && _); [|exact H]. unfold Conv.push_c. cbn [Conv.cq].
+  intros X. apply in_app_or in X as [X|[X|[]]]; [apply H; exact X|congruence].
+Qed.
+Lemma d_refused_noreacc : forall f l, ~ In IReacc (Conv.refused val upd f l).
+Proof. intros f l H. unfold Conv.refused in H. apply in_map_iff in H as (x & Hx & _). discriminate. Qed.
+
+Lemma d_noreacc_step : forall σ a, d_areacc a = false -> d_noreacc σ -> d_noreacc (cstep σ a).
+Proof.
+  intros σ a Ha [H1 H2].
+  assert (Hsnoc : forall x, x <> IReacc -> ~ In IReacc (cqe σ ++ [x])).
+  { intros x Hx X. apply in_app_or in X as [X|[X|[]]]; [apply H1; exact X|congruence]. }
+  d_conv_destruct σ a; try discriminate Ha; try (split; assumption).
+  all: split; cbn [Conv.qe Conv.subs]; try assumption; try (apply Hsnoc; discriminate).
+  all: try (intros j; unfold Conv.set_sub; destruct (Nat.eqb j s0) eqn:Ej; [|apply H2]; cbn [Conv.cq]).
+  all: try (apply Nat.eqb_eq in Ej; subst j).
+  all: try (apply H2).
+  all: d_drain.
+  all: try (rewrite Eqe in H1).
+  all: try (intros X; apply H1; right; exact X).
+  all: try (intros j; apply d_pushall_noreacc; [discriminate|apply H2]).
+  all: try (exfalso; apply H1; left; reflexivity).
+  all: try (unfold Conv.dispose; cbn [Conv.cq]; apply H2).
+  all: try (destruct (loaded (csubs σ s0)); [apply Hsnoc; discriminate|exact H1]).
+  all: try (intros X; apply in_app_or in X as [X|X]; [apply H1; right; exact X|eapply d_refused_noreacc; exact X]).
+  all: try (destruct (_ && _); [intros X; apply in_app_or in X as [X|[X|[]]]; [apply H1; right; exact X|discriminate X]|intros X; apply H1; right; exact X]).
+  all: try (intros j; destruct (_ && _); [|apply H2]; unfold Conv.set_sub; destruct (Nat.eqb j s1); [|apply H2];
+            unfold Conv.push_c; cbn [Conv.cq]; intros X; apply in_app_or in X as [X|[X|[]]]; [eapply H2; exact X|discriminate X]).
+  all: try (intros j; destruct (Conv.rs_loaded val upd σ); [apply d_pushall_noreacc; [discriminate|apply H2]|apply H2]).
+  all: try (specialize (H2 s0); rewrite Ecq in H2; intros X; apply H2; right; exact X).
+  all: try (match goal with |- ~ In _ (ccq ?x) => assert (Ecx : ccq x = q) by (d_if_all; reflexivity); rewrite Ecx end;
+            specialize (H2 s0); rewrite Ecq in H2; intros X; apply H2; right; exact X).
+  all: try (match goal with H : ccq ?x = ccq ?y |- ~ In _ (ccq ?x) => rewrite H; apply H2 end).
+  all: try (rewrite Eqe; exact H1).
+Qed.
+
+Lemma d_noreacc_fold : forall acts σ, existsb d_areacc acts = false -> d_noreacc σ -> d_noreacc (cfold acts σ).
+Proof.
+  induction acts as [|a acts IH]; intros σ H N; cbn [fold_left]; [exact N|]. cbn [existsb] in H. apply orb_false_elim in H as [H1 H2].
+  apply IH; [exact H2|]. apply d_noreacc_step; assumption.
+Qed.
+
+(* an instance that has never seen a re-access trigger *)
+Definition d_qi (y : Core.inst) : Prop :=
+  lost y = [] /\ (rcb y <> [] -> acc y = Some true) /\ (inflight y = true -> acc y = None) /\ (ans y <> None -> inflight y = true) /\
+  reflag y = false /\ ~ In AVal (acb y).
+
+Section d_Task4.
+Variables (c i : nat).
+Notation dispose_t := (Core.dispose_t val upd app norm i).
+Notation remove_direct := (Core.remove_direct val upd app norm i).
+Notation load_access := (Core.load_access val upd c i).
+Notation respond := (Core.respond val upd app norm c i).
+Notation on_ready := (Core.on_ready val upd app norm c i).
+Notation run_cb := (Core.run_cb val upd app norm c i).
+
+Lemma d_rcb_nil : forall y, d_qi y -> acc y <> Some true -> rcb y = [].
+Proof.
+  intros y (_ & Q2 & _) H. destruct (rcb y) eqn:E; [reflexivity|]. exfalso. apply H. apply Q2. discriminate.
+Qed.
+Lemma d_qi_dispose : forall k, d_qi (ty k) -> acc (ty k) <> Some true -> d_qi (ty (dispose_t k)) /\ acc (ty (dispose_t k)) = acc (ty k).
+Proof.
+  intros k Q H. unfold Core.dispose_t. destruct (Core.gone_ val upd i k); [auto|]. cbv zeta. d_tkred.
+  pose proof (d_rcb_nil _ Q H) as Er. destruct Q as (Q1 & Q2 & Q3 & Q4 & Q5 & Q6).
+  split; [|reflexivity]. unfold d_qi. cbn [Core.upd_y Core.lost Core.rcb Core.acc Core.inflight Core.ans Core.reflag Core.acb].
+  rewrite Q1, Er. repeat split; auto; try (intros X; exfalso; apply X; reflexivity).
+Qed.
+Lemma d_qi_remove : forall k n, d_qi (ty k) -> acc (ty k) <> Some true -> d_qi (ty (remove_direct k n)) /\ acc (ty (remove_direct k n)) = acc (ty k).
+Proof.
+  intros k n Q H. unfold Core.remove_direct. cbv zeta. destruct (Nat.eqb (direct (tx k)) 0); [auto|].
+  destruct (Nat.eqb _ 0); [|auto]. apply (d_qi_dispose (setx k _)); assumption.
+Qed.
+Lemma d_qi_load : forall k id, d_qi (ty k) -> acc (ty k) = None -> d_qi (ty (load_access k (AReq id))).
+Proof.
+  intros k id (Q1 & Q2 & Q3 & Q4 & Q5 & Q6) H. unfold Core.load_access. cbv zeta.
+  assert (Hn : ~ In AVal (acb (ty k) ++ [AReq id])).
+  { intros X. apply in_app_or in X as [X|[X|[]]]; [auto|discriminate]. }
+  destruct (inflight (ty k)) eqn:Ef; d_tkred; unfold d_qi; cbn [Core.upd_y Core.lost Core.rcb Core.acc Core.inflight Core.ans Core.reflag Core.acb];
+    repeat split; auto.
+Qed.
+Lemma d_qi_respond : forall k ids, reflag (ty k) = false -> ty (respond k ids) = ty k.
+Proof.
+  intros k ids H. unfold Core.respond. destruct ids as [|id r]; [reflexivity|]. cbv zeta. d_tkred.
+  destruct (Core.sent_ val upd i k); [reflexivity|]. d_tkred. rewrite H. reflexivity.
+Qed.
+Lemma d_qi_onready : forall k id, d_qi (ty k) -> acc (ty k) = Some true -> d_qi (ty (on_ready k id)) /\ acc (ty (on_ready k id)) = Some true.
+Proof.
+  intros k id Q H. unfold Core.on_ready. cbv zeta. destruct (Core.loaded_ val upd i k).
+  - rewrite d_qi_respond; [auto|apply Q].
+  - d_tkred. destruct Q as (Q1 & Q2 & Q3 & Q4 & Q5 & Q6). split; [|exact H].
+    unfold d_qi; cbn [Core.upd_y Core.lost Core.rcb Core.acc Core.inflight Core.ans Core.reflag Core.acb]. repeat split; auto.
+Qed.
+Lemma d_qi_runcb : forall g k id, d_qi (ty k) -> acc (ty k) = Some g ->
+  d_qi (ty (run_cb g k (AReq id))) /\ acc (ty (run_cb g k (AReq id))) = Some g.
+Proof.
+  intros g k id Q H. cbn [Core.run_cb]. destruct g.
+  - destruct (Core.gone_ val upd i k); [auto|]. apply d_qi_onready; assumption.
+  - destruct (d_qi_remove (emit k [Core.OErr val upd c id Core.EDenied]) 1) as [A B]; [exact Q|d_tkred; rewrite H; discriminate|].
+    split; [exact A|]. rewrite B. exact H.
+Qed.
+Lemma d_qi_fold : forall g l k, ~ In AVal l -> d_qi (ty k) -> acc (ty k) = Some g -> d_qi (ty (fold_left (run_cb g) l k)).
+Proof.
+  intros g l. induction l as [|b l IH]; intros k Hl Q H; cbn [fold_left]; [exact Q|].
+  destruct b as [id|]; [|exfalso; apply Hl; left; reflexivity].
+  destruct (d_qi_runcb g k id Q H) as [A B]. apply IH; try assumption. intros X. apply Hl. right. exact X.
+Qed.
+End d_Task4.
+
+Definition d_isbad (x : Core.qitem) : bool := match x with Core.QUnsub _ _ | Core.QDispose | Core.QToken _ => true | _ => false end.
+Definition d_quiet_op (o : Core.op upd) : Prop :=
+  match o with Core.CUnsub _ _ _ _ | Core.Disc _ _ | Core.ConnToken _ _ _ | Core.MqReacc _ => False | _ => True end.
+Record d_Q (s : st) : Prop := {
+  d_q_items : forall c x, In x (cqueue (conns s c)) -> d_isbad x = false;
+  d_q_noreacc : d_noreacc (cv s);
+  d_q_inst : forall j, d_qi (insts s j)
+}.
+
+Lemma d_Q_ng : forall s o, d_nongrant o -> d_quiet_op o -> d_Q s -> d_Q (fst (step s o)).
+Proof.
+  intros s o Hng Hq [P1 P2 P3]. constructor.
+  - intros c' x H. apply d_queue_new in H as [H|H]; [apply (P1 _ _ H)| |exact Hng].
+    destruct o; try contradiction; try (destruct H as (-> & _); reflexivity).
+    apply d_in_esq_other in H as [j [->| ->]]; reflexivity.
+  - rewrite d_step_cv. apply d_noreacc_fold; [|exact P2].
+    destruct (existsb d_areacc (acts_of s o)) eqn:E; [|reflexivity]. apply (d_ng_acts s o 0 Hng) in E. subst o. contradiction.
+  - intros j. destruct (d_ng_inst s o j Hng) as (_ & E1 & E2 & E3 & E4 & E5 & _ & E6 & _ & E7). cbv zeta in *.
+    destruct (P3 j) as (Q1 & Q2 & Q3 & Q4 & Q5 & Q6). unfold d_qi. rewrite E1, E2, E3, E4, E5, E6. repeat split; auto.
+    destruct E7 as [->|(g & _ & _ & E7 & _)]; [exact Q4|]. intros _. unfold Core.unanswered in E7. apply andb_prop in E7. apply E7.
+Qed.
+
+Lemma d_Q_grant : forall s c it q, d_W1 s -> d_Q s -> cqueue (conns s c) = it :: q -> d_Q (fst (step s (GrantConn c))).
+Proof.
+  intros s c it q W [P1 P2 P3] Eq. pose proof (d_task_summary s c it q W Eq) as Sm.
+  assert (Hit : d_isbad it = false) by (apply (P1 c); rewrite Eq; left; reflexivity).
+  assert (Ty : let '(k, oi, nx, ms) := conn_task s c in forall i, oi = Some i -> d_qi (ty k)).
+  { d_ct_unfold Eq. destruct it as [id|id cnt|t|i|i|]; try discriminate Hit.
+    - cbn [Core.cur Core.with_q]. destruct (cur (conns s c)) as [i|] eqn:Ecur; intros i' _.
+      + d_tkred. destruct (acc (insts s i)) as [[|]|] eqn:Ea.
+        * apply d_qi_onready; [apply P3|exact Ea].
+        * apply d_qi_remove; d_tkred; [apply P3|rewrite Ea; discriminate].
+        * apply d_qi_load; [apply P3|exact Ea].
+      + apply d_qi_load; d_tkred; [|reflexivity]. unfold d_qi. cbn. repeat split; auto; try discriminate. intros X; exfalso; apply X; reflexivity.
+    - intros i' _. destruct (Core.is_gone val upd (cv s) i); [apply P3|].
+      destruct (ans (insts s i)) as [g|] eqn:Ea; [|apply P3].
+      destruct (P3 i) as (Q1 & Q2 & Q3 & Q4 & Q5 & Q6).
+      assert (Hf : inflight (insts s i) = true) by (apply Q4; rewrite Ea; discriminate).
+      assert (Hr : rcb (insts s i) = []) by (apply d_rcb_nil; [apply P3|rewrite (Q3 Hf); discriminate]).
+      apply d_qi_fold; d_tkred; [exact Q6| |reflexivity].
+      unfold d_qi. cbn [Core.upd_y Core.lost Core.rcb Core.acc Core.inflight Core.ans Core.reflag Core.acb]. rewrite Hr.
+      repeat split; auto; try discriminate; intros X; exfalso; apply X; reflexivity.
+    - intros i' _. destruct P2 as [_ P2]. specialize (P2 i).
+      destruct (ccq (csubs (cv s) i)) as [|[|e|] r]; d_tkred; try apply P3.
+      + destruct (gone (csubs (cv s) i)); [apply P3|]. rewrite d_qi_respond; d_tkred; [|apply P3].
+        destruct (P3 i) as (Q1 & Q2 & Q3 & Q4 & Q5 & Q6). unfold d_qi. cbn [Core.upd_y Core.lost Core.rcb Core.acc Core.inflight Core.ans Core.reflag Core.acb].
+        repeat split; auto; try (intros X; exfalso; apply X; reflexivity).
+      + exfalso. apply P2. left. reflexivity. }
+  destruct (conn_task s c) as [[[k oi] nx] ms] eqn:Ect. rewrite (d_step_grant s c it q Eq k oi nx ms Ect). cbn [fst].
+  destruct Sm as (Sq & Sd & Sts & Sh). destruct (d_shape_acts s c it q k oi nx ms Sh) as (_ & AR & _).
+  constructor; d_proj.
+  - intros c' x H. destruct (Nat.eq_dec c' c) as [->|Hcc].
+    + rewrite d_set_conn_eq, Sq in H. apply (P1 c). rewrite Eq. right. exact H.
+    + rewrite d_set_conn_neq in H by exact Hcc. apply (P1 c' x H).
+  - apply d_noreacc_fold; assumption.
+  - intros j. destruct oi as [i|]; [|apply P3]. unfold Core.set_inst. destruct (Nat.eqb_spec j i) as [->|]; [|apply P3]. apply (Ty i eq_refl).
+Qed.
+
+Theorem core_nothing_dropped_without_unsubscribe : forall t ops c,
+  (forall o, In o ops -> match o with Core.CUnsub _ _ _ _ | Core.Disc _ _ | Core.ConnToken _ _ _ | Core.MqReacc _ => False | _ => True end) ->
+  Core.dropped val upd (fst (exec t ops)) c = [].
+Proof.
+  intros t ops c H.
+  assert (N : d_Q (fst (exec t ops))).
+  { induction ops as [|o ops IH] using rev_ind.
+    - constructor; cbn; intros; try contradiction.
+      + split; cbn; auto.
+      + unfold d_qi. cbn. repeat split; auto; try discriminate. intros X; exfalso; apply X; reflexivity.
+    - destruct (d_exec_snoc' t ops o) as [-> _].
+      assert (IQ : d_Q (fst (exec t ops))) by (apply IH; intros o' Ho'; apply H; apply in_or_app; left; exact Ho').
+      assert (Hq : d_quiet_op o) by (apply (H o); apply in_or_app; right; left; reflexivity).
+      destruct (d_grant_dec o) as [[c0 ->]|Hng]; [|apply d_Q_ng; assumption].
+      destruct (cqueue (conns (fst (exec t ops)) c0)) as [|it q] eqn:Eq.
+      + cbn [Core.step]. rewrite Eq. exact IQ.
+      + apply (d_Q_grant _ c0 it q); [apply d_w1_exec|exact IQ|exact Eq]. }
+  destruct N as [_ _ N]. unfold Core.dropped. induction (insts_of (fst (exec t ops)) c) as [|i l IH]; [reflexivity|].
+  cbn [flat_map]. destruct (N i) as (-> & _). exact IH.
+Qed.
+
 End CoreProofs.
+
+Theorem core_every_request_answered_refuted :
+  exists ops : list (Core.op nat),
+    let s := fst (Core.exec nat nat (fun u v => u + v) (fun u v => Some u) 0 0 ops) in
+    let outs := snd (Core.exec nat nat (fun u v => u + v) (fun u v => Some u) 0 0 ops) in
+    NoDup (Core.reqs nat 0 ops) /\ Core.reqs nat 0 ops = [1; 2] /\ Core.resps nat nat 0 outs = [2] /\
+    Core.dropped nat nat s 0 = [1] /\ Core.cqueue (Core.conns nat nat s 0) = [] /\ Conv.qe nat nat (Core.cv nat nat s) = [] /\
+    Core.disc (Core.conns nat nat s 0) = false.
+Proof.
+  exists [Core.CSub nat 0 1; Core.GrantConn nat 0; Core.CUnsub nat 0 2 1; Core.GrantConn nat 0; Core.GrantEs nat; Core.MqGet nat;
+          Core.GrantEs nat; Core.GrantConn nat 0; Core.GrantEs nat; Core.MqAccess nat 0 true; Core.GrantEs nat; Core.GrantConn nat 0].
+  vm_compute. repeat split.
+  repeat constructor; cbn; intuition discriminate.
+Qed.
 
 Print Assumptions core_responses.
 Print Assumptions core_nothing_dropped_without_unsubscribe.
@@ -1794,3 +2891,4 @@ Print Assumptions core_every_request_answered_refuted.
 Print Assumptions core_data_needs_grant.
 Print Assumptions core_cleanup.
 Print Assumptions core_nothing_after_close.
+
